@@ -5,12 +5,14 @@ namespace GoLevel.Locks
 open CompErr
 set_option linter.unusedSimpArgs false
 
-theorem step_pinvB (s t : St) (f : Bool) (cfg : Cfg) (hfx : Fixed3 cfg) (hm : cfg.m = .asCoded)
-    (h4 : cfg.setReadOnlyReleasesOnClose = true ∨ NoSR s) (h : Step cfg f s t) (inv : PInvB s) : PInvB t := by
-  unfold PInvB at *
+theorem step_pinvB_h (s t : St) (f : Bool) (cfg : Cfg) (hfx : Fixed3 cfg) (hm : cfg.m = .asCoded)
+    (h4 : cfg.setReadOnlyReleasesOnClose = true ∨ NoSR s) (hsh : cfg.HandsOver) (hw : CwlOk cfg s) (h : Step cfg f s t)
+    (inv : PInvB s) : PInvB t := by
+  unfold PInvB CwlOk at *
   have c3 := b2n_le s.ehTok
   obtain ⟨hb1, hb2⟩ := inv
   obtain ⟨f1, f2, f3⟩ := hfx
+  obtain ⟨s1, s2, s3, s4⟩ := hsh
   cases h with
   | startPut _ i hi =>
     clear h4
@@ -18,385 +20,385 @@ theorem step_pinvB (s t : St) (f : Bool) (cfg : Cfg) (hfx : Fixed3 cfg) (hm : cf
     have l1 := le_tot lgW _ _ _ hi
     have l2 := le_tot clAllW _ _ _ hi
     have l3 := le_tot clPreW _ _ _ hi
-    (try simp only [St.setDone, St.setBg, ↓reduceIte, Bool.false_eq_true, Bool.and_false, Bool.and_true, Bool.false_and, Bool.true_and]) <;> (repeat' split) <;> simp_all [tot_set_eq _ _ _ _ _ hi, tot_ackWs_srw', tot_ackWs_lgw, tot_ackWs_clall, tot_ackWs_clpre, b2n_true, b2n_false, clearW_idle, clearW_exited, clearW_parked, clearW_eq_exited, clearW_eq_parked, srW, lgW, clAllW, clPreW, St.bg, onOk, onErr, selNext, afterSetErr, srAllW, nextC] <;> (try omega)
+    (try simp only [St.setDone, St.setBg, ↓reduceIte, Bool.false_eq_true, Bool.and_false, Bool.and_true, Bool.false_and, Bool.true_and]) <;> (repeat' split) <;> simp_all [tot_set_eq _ _ _ _ _ hi, tot_ackWs_srw', tot_ackWs_lgw, tot_ackWs_clall, tot_ackWs_clpre, b2n_true, b2n_false, clearW_idle, clearW_exited, clearW_parked, clearW_eq_exited, clearW_eq_parked, srW, lgW, clAllW, clPreW, St.bg, onOk, onErr, selNext, afterSetErr, srAllW, nextC, roSets] <;> (try omega) <;> (try (cases hk : s.ehTok <;> cases hk2 : s.cwl <;> simp_all [b2n_true, b2n_false] <;> omega))
   | startWrite _ i hi =>
     clear h4
     have l0 := le_tot srW _ _ _ hi
     have l1 := le_tot lgW _ _ _ hi
     have l2 := le_tot clAllW _ _ _ hi
     have l3 := le_tot clPreW _ _ _ hi
-    (try simp only [St.setDone, St.setBg, ↓reduceIte, Bool.false_eq_true, Bool.and_false, Bool.and_true, Bool.false_and, Bool.true_and]) <;> (repeat' split) <;> simp_all [tot_set_eq _ _ _ _ _ hi, tot_ackWs_srw', tot_ackWs_lgw, tot_ackWs_clall, tot_ackWs_clpre, b2n_true, b2n_false, clearW_idle, clearW_exited, clearW_parked, clearW_eq_exited, clearW_eq_parked, srW, lgW, clAllW, clPreW, St.bg, onOk, onErr, selNext, afterSetErr, srAllW, nextC] <;> (try omega)
+    (try simp only [St.setDone, St.setBg, ↓reduceIte, Bool.false_eq_true, Bool.and_false, Bool.and_true, Bool.false_and, Bool.true_and]) <;> (repeat' split) <;> simp_all [tot_set_eq _ _ _ _ _ hi, tot_ackWs_srw', tot_ackWs_lgw, tot_ackWs_clall, tot_ackWs_clpre, b2n_true, b2n_false, clearW_idle, clearW_exited, clearW_parked, clearW_eq_exited, clearW_eq_parked, srW, lgW, clAllW, clPreW, St.bg, onOk, onErr, selNext, afterSetErr, srAllW, nextC, roSets] <;> (try omega) <;> (try (cases hk : s.ehTok <;> cases hk2 : s.cwl <;> simp_all [b2n_true, b2n_false] <;> omega))
   | startOtx _ i hi =>
     clear h4
     have l0 := le_tot srW _ _ _ hi
     have l1 := le_tot lgW _ _ _ hi
     have l2 := le_tot clAllW _ _ _ hi
     have l3 := le_tot clPreW _ _ _ hi
-    (try simp only [St.setDone, St.setBg, ↓reduceIte, Bool.false_eq_true, Bool.and_false, Bool.and_true, Bool.false_and, Bool.true_and]) <;> (repeat' split) <;> simp_all [tot_set_eq _ _ _ _ _ hi, tot_ackWs_srw', tot_ackWs_lgw, tot_ackWs_clall, tot_ackWs_clpre, b2n_true, b2n_false, clearW_idle, clearW_exited, clearW_parked, clearW_eq_exited, clearW_eq_parked, srW, lgW, clAllW, clPreW, St.bg, onOk, onErr, selNext, afterSetErr, srAllW, nextC] <;> (try omega)
+    (try simp only [St.setDone, St.setBg, ↓reduceIte, Bool.false_eq_true, Bool.and_false, Bool.and_true, Bool.false_and, Bool.true_and]) <;> (repeat' split) <;> simp_all [tot_set_eq _ _ _ _ _ hi, tot_ackWs_srw', tot_ackWs_lgw, tot_ackWs_clall, tot_ackWs_clpre, b2n_true, b2n_false, clearW_idle, clearW_exited, clearW_parked, clearW_eq_exited, clearW_eq_parked, srW, lgW, clAllW, clPreW, St.bg, onOk, onErr, selNext, afterSetErr, srAllW, nextC, roSets] <;> (try omega) <;> (try (cases hk : s.ehTok <;> cases hk2 : s.cwl <;> simp_all [b2n_true, b2n_false] <;> omega))
   | startCommit _ i hi hu =>
     clear h4
     have l0 := le_tot srW _ _ _ hi
     have l1 := le_tot lgW _ _ _ hi
     have l2 := le_tot clAllW _ _ _ hi
     have l3 := le_tot clPreW _ _ _ hi
-    (try simp only [St.setDone, St.setBg, ↓reduceIte, Bool.false_eq_true, Bool.and_false, Bool.and_true, Bool.false_and, Bool.true_and]) <;> (repeat' split) <;> simp_all [tot_set_eq _ _ _ _ _ hi, tot_ackWs_srw', tot_ackWs_lgw, tot_ackWs_clall, tot_ackWs_clpre, b2n_true, b2n_false, clearW_idle, clearW_exited, clearW_parked, clearW_eq_exited, clearW_eq_parked, srW, lgW, clAllW, clPreW, St.bg, onOk, onErr, selNext, afterSetErr, srAllW, nextC] <;> (try omega)
+    (try simp only [St.setDone, St.setBg, ↓reduceIte, Bool.false_eq_true, Bool.and_false, Bool.and_true, Bool.false_and, Bool.true_and]) <;> (repeat' split) <;> simp_all [tot_set_eq _ _ _ _ _ hi, tot_ackWs_srw', tot_ackWs_lgw, tot_ackWs_clall, tot_ackWs_clpre, b2n_true, b2n_false, clearW_idle, clearW_exited, clearW_parked, clearW_eq_exited, clearW_eq_parked, srW, lgW, clAllW, clPreW, St.bg, onOk, onErr, selNext, afterSetErr, srAllW, nextC, roSets] <;> (try omega) <;> (try (cases hk : s.ehTok <;> cases hk2 : s.cwl <;> simp_all [b2n_true, b2n_false] <;> omega))
   | startDiscard _ i hi hu =>
     clear h4
     have l0 := le_tot srW _ _ _ hi
     have l1 := le_tot lgW _ _ _ hi
     have l2 := le_tot clAllW _ _ _ hi
     have l3 := le_tot clPreW _ _ _ hi
-    (try simp only [St.setDone, St.setBg, ↓reduceIte, Bool.false_eq_true, Bool.and_false, Bool.and_true, Bool.false_and, Bool.true_and]) <;> (repeat' split) <;> simp_all [tot_set_eq _ _ _ _ _ hi, tot_ackWs_srw', tot_ackWs_lgw, tot_ackWs_clall, tot_ackWs_clpre, b2n_true, b2n_false, clearW_idle, clearW_exited, clearW_parked, clearW_eq_exited, clearW_eq_parked, srW, lgW, clAllW, clPreW, St.bg, onOk, onErr, selNext, afterSetErr, srAllW, nextC] <;> (try omega)
+    (try simp only [St.setDone, St.setBg, ↓reduceIte, Bool.false_eq_true, Bool.and_false, Bool.and_true, Bool.false_and, Bool.true_and]) <;> (repeat' split) <;> simp_all [tot_set_eq _ _ _ _ _ hi, tot_ackWs_srw', tot_ackWs_lgw, tot_ackWs_clall, tot_ackWs_clpre, b2n_true, b2n_false, clearW_idle, clearW_exited, clearW_parked, clearW_eq_exited, clearW_eq_parked, srW, lgW, clAllW, clPreW, St.bg, onOk, onErr, selNext, afterSetErr, srAllW, nextC, roSets] <;> (try omega) <;> (try (cases hk : s.ehTok <;> cases hk2 : s.cwl <;> simp_all [b2n_true, b2n_false] <;> omega))
   | startCR _ i hi =>
     clear h4
     have l0 := le_tot srW _ _ _ hi
     have l1 := le_tot lgW _ _ _ hi
     have l2 := le_tot clAllW _ _ _ hi
     have l3 := le_tot clPreW _ _ _ hi
-    (try simp only [St.setDone, St.setBg, ↓reduceIte, Bool.false_eq_true, Bool.and_false, Bool.and_true, Bool.false_and, Bool.true_and]) <;> (repeat' split) <;> simp_all [tot_set_eq _ _ _ _ _ hi, tot_ackWs_srw', tot_ackWs_lgw, tot_ackWs_clall, tot_ackWs_clpre, b2n_true, b2n_false, clearW_idle, clearW_exited, clearW_parked, clearW_eq_exited, clearW_eq_parked, srW, lgW, clAllW, clPreW, St.bg, onOk, onErr, selNext, afterSetErr, srAllW, nextC] <;> (try omega)
+    (try simp only [St.setDone, St.setBg, ↓reduceIte, Bool.false_eq_true, Bool.and_false, Bool.and_true, Bool.false_and, Bool.true_and]) <;> (repeat' split) <;> simp_all [tot_set_eq _ _ _ _ _ hi, tot_ackWs_srw', tot_ackWs_lgw, tot_ackWs_clall, tot_ackWs_clpre, b2n_true, b2n_false, clearW_idle, clearW_exited, clearW_parked, clearW_eq_exited, clearW_eq_parked, srW, lgW, clAllW, clPreW, St.bg, onOk, onErr, selNext, afterSetErr, srAllW, nextC, roSets] <;> (try omega) <;> (try (cases hk : s.ehTok <;> cases hk2 : s.cwl <;> simp_all [b2n_true, b2n_false] <;> omega))
   | startSR _ i hi ha =>
     clear h4
     have l0 := le_tot srW _ _ _ hi
     have l1 := le_tot lgW _ _ _ hi
     have l2 := le_tot clAllW _ _ _ hi
     have l3 := le_tot clPreW _ _ _ hi
-    (try simp only [St.setDone, St.setBg, ↓reduceIte, Bool.false_eq_true, Bool.and_false, Bool.and_true, Bool.false_and, Bool.true_and]) <;> (repeat' split) <;> simp_all [tot_set_eq _ _ _ _ _ hi, tot_ackWs_srw', tot_ackWs_lgw, tot_ackWs_clall, tot_ackWs_clpre, b2n_true, b2n_false, clearW_idle, clearW_exited, clearW_parked, clearW_eq_exited, clearW_eq_parked, srW, lgW, clAllW, clPreW, St.bg, onOk, onErr, selNext, afterSetErr, srAllW, nextC] <;> (try omega)
+    (try simp only [St.setDone, St.setBg, ↓reduceIte, Bool.false_eq_true, Bool.and_false, Bool.and_true, Bool.false_and, Bool.true_and]) <;> (repeat' split) <;> simp_all [tot_set_eq _ _ _ _ _ hi, tot_ackWs_srw', tot_ackWs_lgw, tot_ackWs_clall, tot_ackWs_clpre, b2n_true, b2n_false, clearW_idle, clearW_exited, clearW_parked, clearW_eq_exited, clearW_eq_parked, srW, lgW, clAllW, clPreW, St.bg, onOk, onErr, selNext, afterSetErr, srAllW, nextC, roSets] <;> (try omega) <;> (try (cases hk : s.ehTok <;> cases hk2 : s.cwl <;> simp_all [b2n_true, b2n_false] <;> omega))
   | startClose _ i hi =>
     clear h4
     have l0 := le_tot srW _ _ _ hi
     have l1 := le_tot lgW _ _ _ hi
     have l2 := le_tot clAllW _ _ _ hi
     have l3 := le_tot clPreW _ _ _ hi
-    (try simp only [St.setDone, St.setBg, ↓reduceIte, Bool.false_eq_true, Bool.and_false, Bool.and_true, Bool.false_and, Bool.true_and]) <;> (repeat' split) <;> simp_all [tot_set_eq _ _ _ _ _ hi, tot_ackWs_srw', tot_ackWs_lgw, tot_ackWs_clall, tot_ackWs_clpre, b2n_true, b2n_false, clearW_idle, clearW_exited, clearW_parked, clearW_eq_exited, clearW_eq_parked, srW, lgW, clAllW, clPreW, St.bg, onOk, onErr, selNext, afterSetErr, srAllW, nextC] <;> (try omega)
+    (try simp only [St.setDone, St.setBg, ↓reduceIte, Bool.false_eq_true, Bool.and_false, Bool.and_true, Bool.false_and, Bool.true_and]) <;> (repeat' split) <;> simp_all [tot_set_eq _ _ _ _ _ hi, tot_ackWs_srw', tot_ackWs_lgw, tot_ackWs_clall, tot_ackWs_clpre, b2n_true, b2n_false, clearW_idle, clearW_exited, clearW_parked, clearW_eq_exited, clearW_eq_parked, srW, lgW, clAllW, clPreW, St.bg, onOk, onErr, selNext, afterSetErr, srAllW, nextC, roSets] <;> (try omega) <;> (try (cases hk : s.ehTok <;> cases hk2 : s.cwl <;> simp_all [b2n_true, b2n_false] <;> omega))
   | selTok _ i p q hi hq ht =>
     clear h4
     have l0 := le_tot srW _ _ _ hi
     have l1 := le_tot lgW _ _ _ hi
     have l2 := le_tot clAllW _ _ _ hi
     have l3 := le_tot clPreW _ _ _ hi
-    cases p <;> simp only [selNext] at hq <;> (try contradiction) <;> cases hq <;> simp_all [tot_set_eq _ _ _ _ _ hi, tot_ackWs_srw', tot_ackWs_lgw, tot_ackWs_clall, tot_ackWs_clpre, b2n_true, b2n_false, clearW_idle, clearW_exited, clearW_parked, clearW_eq_exited, clearW_eq_parked, srW, lgW, clAllW, clPreW, St.bg, onOk, onErr, selNext, afterSetErr, srAllW, nextC] <;> (try omega)
+    cases p <;> simp only [selNext] at hq <;> (try contradiction) <;> cases hq <;> simp_all [tot_set_eq _ _ _ _ _ hi, tot_ackWs_srw', tot_ackWs_lgw, tot_ackWs_clall, tot_ackWs_clpre, b2n_true, b2n_false, clearW_idle, clearW_exited, clearW_parked, clearW_eq_exited, clearW_eq_parked, srW, lgW, clAllW, clPreW, St.bg, onOk, onErr, selNext, afterSetErr, srAllW, nextC, roSets] <;> (try omega) <;> (try (cases hk : s.ehTok <;> cases hk2 : s.cwl <;> simp_all [b2n_true, b2n_false] <;> omega))
   | selPerErr _ i p q hi hq he =>
     clear h4
     have l0 := le_tot srW _ _ _ hi
     have l1 := le_tot lgW _ _ _ hi
     have l2 := le_tot clAllW _ _ _ hi
     have l3 := le_tot clPreW _ _ _ hi
-    cases p <;> simp only [selNext] at hq <;> (try contradiction) <;> cases hq <;> simp_all [tot_set_eq _ _ _ _ _ hi, tot_ackWs_srw', tot_ackWs_lgw, tot_ackWs_clall, tot_ackWs_clpre, b2n_true, b2n_false, clearW_idle, clearW_exited, clearW_parked, clearW_eq_exited, clearW_eq_parked, srW, lgW, clAllW, clPreW, St.bg, onOk, onErr, selNext, afterSetErr, srAllW, nextC] <;> (try omega)
+    cases p <;> simp only [selNext] at hq <;> (try contradiction) <;> cases hq <;> simp_all [tot_set_eq _ _ _ _ _ hi, tot_ackWs_srw', tot_ackWs_lgw, tot_ackWs_clall, tot_ackWs_clpre, b2n_true, b2n_false, clearW_idle, clearW_exited, clearW_parked, clearW_eq_exited, clearW_eq_parked, srW, lgW, clAllW, clPreW, St.bg, onOk, onErr, selNext, afterSetErr, srAllW, nextC, roSets] <;> (try omega) <;> (try (cases hk : s.ehTok <;> cases hk2 : s.cwl <;> simp_all [b2n_true, b2n_false] <;> omega))
   | selClosed _ i p q hi hq hc =>
     clear h4
     have l0 := le_tot srW _ _ _ hi
     have l1 := le_tot lgW _ _ _ hi
     have l2 := le_tot clAllW _ _ _ hi
     have l3 := le_tot clPreW _ _ _ hi
-    cases p <;> simp only [selNext] at hq <;> (try contradiction) <;> cases hq <;> simp_all [tot_set_eq _ _ _ _ _ hi, tot_ackWs_srw', tot_ackWs_lgw, tot_ackWs_clall, tot_ackWs_clpre, b2n_true, b2n_false, clearW_idle, clearW_exited, clearW_parked, clearW_eq_exited, clearW_eq_parked, srW, lgW, clAllW, clPreW, St.bg, onOk, onErr, selNext, afterSetErr, srAllW, nextC] <;> (try omega)
+    cases p <;> simp only [selNext] at hq <;> (try contradiction) <;> cases hq <;> simp_all [tot_set_eq _ _ _ _ _ hi, tot_ackWs_srw', tot_ackWs_lgw, tot_ackWs_clall, tot_ackWs_clpre, b2n_true, b2n_false, clearW_idle, clearW_exited, clearW_parked, clearW_eq_exited, clearW_eq_parked, srW, lgW, clAllW, clPreW, St.bg, onOk, onErr, selNext, afterSetErr, srAllW, nextC, roSets] <;> (try omega) <;> (try (cases hk : s.ehTok <;> cases hk2 : s.cwl <;> simp_all [b2n_true, b2n_false] <;> omega))
   | putNoWait _ i hi =>
     clear h4
     have l0 := le_tot srW _ _ _ hi
     have l1 := le_tot lgW _ _ _ hi
     have l2 := le_tot clAllW _ _ _ hi
     have l3 := le_tot clPreW _ _ _ hi
-    (try simp only [St.setDone, St.setBg, ↓reduceIte, Bool.false_eq_true, Bool.and_false, Bool.and_true, Bool.false_and, Bool.true_and]) <;> (repeat' split) <;> simp_all [tot_set_eq _ _ _ _ _ hi, tot_ackWs_srw', tot_ackWs_lgw, tot_ackWs_clall, tot_ackWs_clpre, b2n_true, b2n_false, clearW_idle, clearW_exited, clearW_parked, clearW_eq_exited, clearW_eq_parked, srW, lgW, clAllW, clPreW, St.bg, onOk, onErr, selNext, afterSetErr, srAllW, nextC] <;> (try omega)
+    (try simp only [St.setDone, St.setBg, ↓reduceIte, Bool.false_eq_true, Bool.and_false, Bool.and_true, Bool.false_and, Bool.true_and]) <;> (repeat' split) <;> simp_all [tot_set_eq _ _ _ _ _ hi, tot_ackWs_srw', tot_ackWs_lgw, tot_ackWs_clall, tot_ackWs_clpre, b2n_true, b2n_false, clearW_idle, clearW_exited, clearW_parked, clearW_eq_exited, clearW_eq_parked, srW, lgW, clAllW, clPreW, St.bg, onOk, onErr, selNext, afterSetErr, srAllW, nextC, roSets] <;> (try omega) <;> (try (cases hk : s.ehTok <;> cases hk2 : s.cwl <;> simp_all [b2n_true, b2n_false] <;> omega))
   | putWait _ i b hi =>
     clear h4
     have l0 := le_tot srW _ _ _ hi
     have l1 := le_tot lgW _ _ _ hi
     have l2 := le_tot clAllW _ _ _ hi
     have l3 := le_tot clPreW _ _ _ hi
-    cases b <;> (try simp only [St.setDone, St.setBg, ↓reduceIte, Bool.false_eq_true, Bool.and_false, Bool.and_true, Bool.false_and, Bool.true_and]) <;> (repeat' split) <;> simp_all [tot_set_eq _ _ _ _ _ hi, tot_ackWs_srw', tot_ackWs_lgw, tot_ackWs_clall, tot_ackWs_clpre, b2n_true, b2n_false, clearW_idle, clearW_exited, clearW_parked, clearW_eq_exited, clearW_eq_parked, srW, lgW, clAllW, clPreW, St.bg, onOk, onErr, selNext, afterSetErr, srAllW, nextC] <;> (try omega)
+    cases b <;> (try simp only [St.setDone, St.setBg, ↓reduceIte, Bool.false_eq_true, Bool.and_false, Bool.and_true, Bool.false_and, Bool.true_and]) <;> (repeat' split) <;> simp_all [tot_set_eq _ _ _ _ _ hi, tot_ackWs_srw', tot_ackWs_lgw, tot_ackWs_clall, tot_ackWs_clpre, b2n_true, b2n_false, clearW_idle, clearW_exited, clearW_parked, clearW_eq_exited, clearW_eq_parked, srW, lgW, clAllW, clPreW, St.bg, onOk, onErr, selNext, afterSetErr, srAllW, nextC, roSets] <;> (try omega) <;> (try (cases hk : s.ehTok <;> cases hk2 : s.cwl <;> simp_all [b2n_true, b2n_false] <;> omega))
   | putJournalOk _ i hi =>
     clear h4
     have l0 := le_tot srW _ _ _ hi
     have l1 := le_tot lgW _ _ _ hi
     have l2 := le_tot clAllW _ _ _ hi
     have l3 := le_tot clPreW _ _ _ hi
-    (try simp only [St.setDone, St.setBg, ↓reduceIte, Bool.false_eq_true, Bool.and_false, Bool.and_true, Bool.false_and, Bool.true_and]) <;> (repeat' split) <;> simp_all [tot_set_eq _ _ _ _ _ hi, tot_ackWs_srw', tot_ackWs_lgw, tot_ackWs_clall, tot_ackWs_clpre, b2n_true, b2n_false, clearW_idle, clearW_exited, clearW_parked, clearW_eq_exited, clearW_eq_parked, srW, lgW, clAllW, clPreW, St.bg, onOk, onErr, selNext, afterSetErr, srAllW, nextC] <;> (try omega)
+    (try simp only [St.setDone, St.setBg, ↓reduceIte, Bool.false_eq_true, Bool.and_false, Bool.and_true, Bool.false_and, Bool.true_and]) <;> (repeat' split) <;> simp_all [tot_set_eq _ _ _ _ _ hi, tot_ackWs_srw', tot_ackWs_lgw, tot_ackWs_clall, tot_ackWs_clpre, b2n_true, b2n_false, clearW_idle, clearW_exited, clearW_parked, clearW_eq_exited, clearW_eq_parked, srW, lgW, clAllW, clPreW, St.bg, onOk, onErr, selNext, afterSetErr, srAllW, nextC, roSets] <;> (try omega) <;> (try (cases hk : s.ehTok <;> cases hk2 : s.cwl <;> simp_all [b2n_true, b2n_false] <;> omega))
   | putJournalFail _ i hi =>
     clear h4
     have l0 := le_tot srW _ _ _ hi
     have l1 := le_tot lgW _ _ _ hi
     have l2 := le_tot clAllW _ _ _ hi
     have l3 := le_tot clPreW _ _ _ hi
-    (try simp only [St.setDone, St.setBg, ↓reduceIte, Bool.false_eq_true, Bool.and_false, Bool.and_true, Bool.false_and, Bool.true_and]) <;> (repeat' split) <;> simp_all [tot_set_eq _ _ _ _ _ hi, tot_ackWs_srw', tot_ackWs_lgw, tot_ackWs_clall, tot_ackWs_clpre, b2n_true, b2n_false, clearW_idle, clearW_exited, clearW_parked, clearW_eq_exited, clearW_eq_parked, srW, lgW, clAllW, clPreW, St.bg, onOk, onErr, selNext, afterSetErr, srAllW, nextC] <;> (try omega)
+    (try simp only [St.setDone, St.setBg, ↓reduceIte, Bool.false_eq_true, Bool.and_false, Bool.and_true, Bool.false_and, Bool.true_and]) <;> (repeat' split) <;> simp_all [tot_set_eq _ _ _ _ _ hi, tot_ackWs_srw', tot_ackWs_lgw, tot_ackWs_clall, tot_ackWs_clpre, b2n_true, b2n_false, clearW_idle, clearW_exited, clearW_parked, clearW_eq_exited, clearW_eq_parked, srW, lgW, clAllW, clPreW, St.bg, onOk, onErr, selNext, afterSetErr, srAllW, nextC, roSets] <;> (try omega) <;> (try (cases hk : s.ehTok <;> cases hk2 : s.cwl <;> simp_all [b2n_true, b2n_false] <;> omega))
   | putUnlock _ i r hi =>
     clear h4
     have l0 := le_tot srW _ _ _ hi
     have l1 := le_tot lgW _ _ _ hi
     have l2 := le_tot clAllW _ _ _ hi
     have l3 := le_tot clPreW _ _ _ hi
-    cases r <;> (try simp only [St.setDone, St.setBg, ↓reduceIte, Bool.false_eq_true, Bool.and_false, Bool.and_true, Bool.false_and, Bool.true_and]) <;> (repeat' split) <;> simp_all [tot_set_eq _ _ _ _ _ hi, tot_ackWs_srw', tot_ackWs_lgw, tot_ackWs_clall, tot_ackWs_clpre, b2n_true, b2n_false, clearW_idle, clearW_exited, clearW_parked, clearW_eq_exited, clearW_eq_parked, srW, lgW, clAllW, clPreW, St.bg, onOk, onErr, selNext, afterSetErr, srAllW, nextC] <;> (try omega)
+    cases r <;> (try simp only [St.setDone, St.setBg, ↓reduceIte, Bool.false_eq_true, Bool.and_false, Bool.and_true, Bool.false_and, Bool.true_and]) <;> (repeat' split) <;> simp_all [tot_set_eq _ _ _ _ _ hi, tot_ackWs_srw', tot_ackWs_lgw, tot_ackWs_clall, tot_ackWs_clpre, b2n_true, b2n_false, clearW_idle, clearW_exited, clearW_parked, clearW_eq_exited, clearW_eq_parked, srW, lgW, clAllW, clPreW, St.bg, onOk, onErr, selNext, afterSetErr, srAllW, nextC, roSets] <;> (try omega) <;> (try (cases hk : s.ehTok <;> cases hk2 : s.cwl <;> simp_all [b2n_true, b2n_false] <;> omega))
   | cwSendGo _ i b site lg hi hb hro =>
     clear h4
     have l0 := le_tot srW _ _ _ hi
     have l1 := le_tot lgW _ _ _ hi
     have l2 := le_tot clAllW _ _ _ hi
     have l3 := le_tot clPreW _ _ _ hi
-    cases site <;> cases b <;> cases lg <;> (try simp only [St.setDone, St.setBg, ↓reduceIte, Bool.false_eq_true, Bool.and_false, Bool.and_true, Bool.false_and, Bool.true_and]) <;> (repeat' split) <;> simp_all [tot_set_eq _ _ _ _ _ hi, tot_ackWs_srw', tot_ackWs_lgw, tot_ackWs_clall, tot_ackWs_clpre, b2n_true, b2n_false, clearW_idle, clearW_exited, clearW_parked, clearW_eq_exited, clearW_eq_parked, srW, lgW, clAllW, clPreW, St.bg, onOk, onErr, selNext, afterSetErr, srAllW, nextC] <;> (try omega)
+    cases site <;> cases b <;> cases lg <;> (try simp only [St.setDone, St.setBg, ↓reduceIte, Bool.false_eq_true, Bool.and_false, Bool.and_true, Bool.false_and, Bool.true_and]) <;> (repeat' split) <;> simp_all [tot_set_eq _ _ _ _ _ hi, tot_ackWs_srw', tot_ackWs_lgw, tot_ackWs_clall, tot_ackWs_clpre, b2n_true, b2n_false, clearW_idle, clearW_exited, clearW_parked, clearW_eq_exited, clearW_eq_parked, srW, lgW, clAllW, clPreW, St.bg, onOk, onErr, selNext, afterSetErr, srAllW, nextC, roSets] <;> (try omega) <;> (try (cases hk : s.ehTok <;> cases hk2 : s.cwl <;> simp_all [b2n_true, b2n_false] <;> omega))
   | cwSendRO _ i site lg hi hb hp hro =>
     clear h4
     have l0 := le_tot srW _ _ _ hi
     have l1 := le_tot lgW _ _ _ hi
     have l2 := le_tot clAllW _ _ _ hi
     have l3 := le_tot clPreW _ _ _ hi
-    cases site <;> cases lg <;> (try simp only [St.setDone, St.setBg, ↓reduceIte, Bool.false_eq_true, Bool.and_false, Bool.and_true, Bool.false_and, Bool.true_and]) <;> (repeat' split) <;> simp_all [tot_set_eq _ _ _ _ _ hi, tot_ackWs_srw', tot_ackWs_lgw, tot_ackWs_clall, tot_ackWs_clpre, b2n_true, b2n_false, clearW_idle, clearW_exited, clearW_parked, clearW_eq_exited, clearW_eq_parked, srW, lgW, clAllW, clPreW, St.bg, onOk, onErr, selNext, afterSetErr, srAllW, nextC] <;> (try omega)
+    cases site <;> cases lg <;> (try simp only [St.setDone, St.setBg, ↓reduceIte, Bool.false_eq_true, Bool.and_false, Bool.and_true, Bool.false_and, Bool.true_and]) <;> (repeat' split) <;> simp_all [tot_set_eq _ _ _ _ _ hi, tot_ackWs_srw', tot_ackWs_lgw, tot_ackWs_clall, tot_ackWs_clpre, b2n_true, b2n_false, clearW_idle, clearW_exited, clearW_parked, clearW_eq_exited, clearW_eq_parked, srW, lgW, clAllW, clPreW, St.bg, onOk, onErr, selNext, afterSetErr, srAllW, nextC, roSets] <;> (try omega) <;> (try (cases hk : s.ehTok <;> cases hk2 : s.cwl <;> simp_all [b2n_true, b2n_false] <;> omega))
   | cwSendErr _ i b site lg hi he =>
     clear h4
     have l0 := le_tot srW _ _ _ hi
     have l1 := le_tot lgW _ _ _ hi
     have l2 := le_tot clAllW _ _ _ hi
     have l3 := le_tot clPreW _ _ _ hi
-    cases site <;> cases b <;> cases lg <;> (try simp only [St.setDone, St.setBg, ↓reduceIte, Bool.false_eq_true, Bool.and_false, Bool.and_true, Bool.false_and, Bool.true_and]) <;> (repeat' split) <;> simp_all [tot_set_eq _ _ _ _ _ hi, tot_ackWs_srw', tot_ackWs_lgw, tot_ackWs_clall, tot_ackWs_clpre, b2n_true, b2n_false, clearW_idle, clearW_exited, clearW_parked, clearW_eq_exited, clearW_eq_parked, srW, lgW, clAllW, clPreW, St.bg, onOk, onErr, selNext, afterSetErr, srAllW, nextC] <;> (try omega)
+    cases site <;> cases b <;> cases lg <;> (try simp only [St.setDone, St.setBg, ↓reduceIte, Bool.false_eq_true, Bool.and_false, Bool.and_true, Bool.false_and, Bool.true_and]) <;> (repeat' split) <;> simp_all [tot_set_eq _ _ _ _ _ hi, tot_ackWs_srw', tot_ackWs_lgw, tot_ackWs_clall, tot_ackWs_clpre, b2n_true, b2n_false, clearW_idle, clearW_exited, clearW_parked, clearW_eq_exited, clearW_eq_parked, srW, lgW, clAllW, clPreW, St.bg, onOk, onErr, selNext, afterSetErr, srAllW, nextC, roSets] <;> (try omega) <;> (try (cases hk : s.ehTok <;> cases hk2 : s.cwl <;> simp_all [b2n_true, b2n_false] <;> omega))
   | cwAckErr _ i b site lg hi he =>
     clear h4
     have l0 := le_tot srW _ _ _ hi
     have l1 := le_tot lgW _ _ _ hi
     have l2 := le_tot clAllW _ _ _ hi
     have l3 := le_tot clPreW _ _ _ hi
-    cases site <;> cases b <;> cases lg <;> (try simp only [St.setDone, St.setBg, ↓reduceIte, Bool.false_eq_true, Bool.and_false, Bool.and_true, Bool.false_and, Bool.true_and]) <;> (repeat' split) <;> simp_all [tot_set_eq _ _ _ _ _ hi, tot_ackWs_srw', tot_ackWs_lgw, tot_ackWs_clall, tot_ackWs_clpre, b2n_true, b2n_false, clearW_idle, clearW_exited, clearW_parked, clearW_eq_exited, clearW_eq_parked, srW, lgW, clAllW, clPreW, St.bg, onOk, onErr, selNext, afterSetErr, srAllW, nextC] <;> (try omega)
+    cases site <;> cases b <;> cases lg <;> (try simp only [St.setDone, St.setBg, ↓reduceIte, Bool.false_eq_true, Bool.and_false, Bool.and_true, Bool.false_and, Bool.true_and]) <;> (repeat' split) <;> simp_all [tot_set_eq _ _ _ _ _ hi, tot_ackWs_srw', tot_ackWs_lgw, tot_ackWs_clall, tot_ackWs_clpre, b2n_true, b2n_false, clearW_idle, clearW_exited, clearW_parked, clearW_eq_exited, clearW_eq_parked, srW, lgW, clAllW, clPreW, St.bg, onOk, onErr, selNext, afterSetErr, srAllW, nextC, roSets] <;> (try omega) <;> (try (cases hk : s.ehTok <;> cases hk2 : s.cwl <;> simp_all [b2n_true, b2n_false] <;> omega))
   | otxRotate _ i lg hi =>
     clear h4
     have l0 := le_tot srW _ _ _ hi
     have l1 := le_tot lgW _ _ _ hi
     have l2 := le_tot clAllW _ _ _ hi
     have l3 := le_tot clPreW _ _ _ hi
-    cases lg <;> (try simp only [St.setDone, St.setBg, ↓reduceIte, Bool.false_eq_true, Bool.and_false, Bool.and_true, Bool.false_and, Bool.true_and]) <;> (repeat' split) <;> simp_all [tot_set_eq _ _ _ _ _ hi, tot_ackWs_srw', tot_ackWs_lgw, tot_ackWs_clall, tot_ackWs_clpre, b2n_true, b2n_false, clearW_idle, clearW_exited, clearW_parked, clearW_eq_exited, clearW_eq_parked, srW, lgW, clAllW, clPreW, St.bg, onOk, onErr, selNext, afterSetErr, srAllW, nextC] <;> (try omega)
+    cases lg <;> (try simp only [St.setDone, St.setBg, ↓reduceIte, Bool.false_eq_true, Bool.and_false, Bool.and_true, Bool.false_and, Bool.true_and]) <;> (repeat' split) <;> simp_all [tot_set_eq _ _ _ _ _ hi, tot_ackWs_srw', tot_ackWs_lgw, tot_ackWs_clall, tot_ackWs_clpre, b2n_true, b2n_false, clearW_idle, clearW_exited, clearW_parked, clearW_eq_exited, clearW_eq_parked, srW, lgW, clAllW, clPreW, St.bg, onOk, onErr, selNext, afterSetErr, srAllW, nextC, roSets] <;> (try omega) <;> (try (cases hk : s.ehTok <;> cases hk2 : s.cwl <;> simp_all [b2n_true, b2n_false] <;> omega))
   | otxNoRotate _ i lg hi =>
     clear h4
     have l0 := le_tot srW _ _ _ hi
     have l1 := le_tot lgW _ _ _ hi
     have l2 := le_tot clAllW _ _ _ hi
     have l3 := le_tot clPreW _ _ _ hi
-    cases lg <;> (try simp only [St.setDone, St.setBg, ↓reduceIte, Bool.false_eq_true, Bool.and_false, Bool.and_true, Bool.false_and, Bool.true_and]) <;> (repeat' split) <;> simp_all [tot_set_eq _ _ _ _ _ hi, tot_ackWs_srw', tot_ackWs_lgw, tot_ackWs_clall, tot_ackWs_clpre, b2n_true, b2n_false, clearW_idle, clearW_exited, clearW_parked, clearW_eq_exited, clearW_eq_parked, srW, lgW, clAllW, clPreW, St.bg, onOk, onErr, selNext, afterSetErr, srAllW, nextC] <;> (try omega)
+    cases lg <;> (try simp only [St.setDone, St.setBg, ↓reduceIte, Bool.false_eq_true, Bool.and_false, Bool.and_true, Bool.false_and, Bool.true_and]) <;> (repeat' split) <;> simp_all [tot_set_eq _ _ _ _ _ hi, tot_ackWs_srw', tot_ackWs_lgw, tot_ackWs_clall, tot_ackWs_clpre, b2n_true, b2n_false, clearW_idle, clearW_exited, clearW_parked, clearW_eq_exited, clearW_eq_parked, srW, lgW, clAllW, clPreW, St.bg, onOk, onErr, selNext, afterSetErr, srAllW, nextC, roSets] <;> (try omega) <;> (try (cases hk : s.ehTok <;> cases hk2 : s.cwl <;> simp_all [b2n_true, b2n_false] <;> omega))
   | otxNewMemOk _ i lg hi =>
     clear h4
     have l0 := le_tot srW _ _ _ hi
     have l1 := le_tot lgW _ _ _ hi
     have l2 := le_tot clAllW _ _ _ hi
     have l3 := le_tot clPreW _ _ _ hi
-    cases lg <;> (try simp only [St.setDone, St.setBg, ↓reduceIte, Bool.false_eq_true, Bool.and_false, Bool.and_true, Bool.false_and, Bool.true_and]) <;> (repeat' split) <;> simp_all [tot_set_eq _ _ _ _ _ hi, tot_ackWs_srw', tot_ackWs_lgw, tot_ackWs_clall, tot_ackWs_clpre, b2n_true, b2n_false, clearW_idle, clearW_exited, clearW_parked, clearW_eq_exited, clearW_eq_parked, srW, lgW, clAllW, clPreW, St.bg, onOk, onErr, selNext, afterSetErr, srAllW, nextC] <;> (try omega)
+    cases lg <;> (try simp only [St.setDone, St.setBg, ↓reduceIte, Bool.false_eq_true, Bool.and_false, Bool.and_true, Bool.false_and, Bool.true_and]) <;> (repeat' split) <;> simp_all [tot_set_eq _ _ _ _ _ hi, tot_ackWs_srw', tot_ackWs_lgw, tot_ackWs_clall, tot_ackWs_clpre, b2n_true, b2n_false, clearW_idle, clearW_exited, clearW_parked, clearW_eq_exited, clearW_eq_parked, srW, lgW, clAllW, clPreW, St.bg, onOk, onErr, selNext, afterSetErr, srAllW, nextC, roSets] <;> (try omega) <;> (try (cases hk : s.ehTok <;> cases hk2 : s.cwl <;> simp_all [b2n_true, b2n_false] <;> omega))
   | otxNewMemFail _ i lg hi =>
     clear h4
     have l0 := le_tot srW _ _ _ hi
     have l1 := le_tot lgW _ _ _ hi
     have l2 := le_tot clAllW _ _ _ hi
     have l3 := le_tot clPreW _ _ _ hi
-    cases lg <;> (try simp only [St.setDone, St.setBg, ↓reduceIte, Bool.false_eq_true, Bool.and_false, Bool.and_true, Bool.false_and, Bool.true_and]) <;> (repeat' split) <;> simp_all [tot_set_eq _ _ _ _ _ hi, tot_ackWs_srw', tot_ackWs_lgw, tot_ackWs_clall, tot_ackWs_clpre, b2n_true, b2n_false, clearW_idle, clearW_exited, clearW_parked, clearW_eq_exited, clearW_eq_parked, srW, lgW, clAllW, clPreW, St.bg, onOk, onErr, selNext, afterSetErr, srAllW, nextC] <;> (try omega)
+    cases lg <;> (try simp only [St.setDone, St.setBg, ↓reduceIte, Bool.false_eq_true, Bool.and_false, Bool.and_true, Bool.false_and, Bool.true_and]) <;> (repeat' split) <;> simp_all [tot_set_eq _ _ _ _ _ hi, tot_ackWs_srw', tot_ackWs_lgw, tot_ackWs_clall, tot_ackWs_clpre, b2n_true, b2n_false, clearW_idle, clearW_exited, clearW_parked, clearW_eq_exited, clearW_eq_parked, srW, lgW, clAllW, clPreW, St.bg, onOk, onErr, selNext, afterSetErr, srAllW, nextC, roSets] <;> (try omega) <;> (try (cases hk : s.ehTok <;> cases hk2 : s.cwl <;> simp_all [b2n_true, b2n_false] <;> omega))
   | otxNoWaitComp _ i lg hi =>
     clear h4
     have l0 := le_tot srW _ _ _ hi
     have l1 := le_tot lgW _ _ _ hi
     have l2 := le_tot clAllW _ _ _ hi
     have l3 := le_tot clPreW _ _ _ hi
-    cases lg <;> (try simp only [St.setDone, St.setBg, ↓reduceIte, Bool.false_eq_true, Bool.and_false, Bool.and_true, Bool.false_and, Bool.true_and]) <;> (repeat' split) <;> simp_all [tot_set_eq _ _ _ _ _ hi, tot_ackWs_srw', tot_ackWs_lgw, tot_ackWs_clall, tot_ackWs_clpre, b2n_true, b2n_false, clearW_idle, clearW_exited, clearW_parked, clearW_eq_exited, clearW_eq_parked, srW, lgW, clAllW, clPreW, St.bg, onOk, onErr, selNext, afterSetErr, srAllW, nextC] <;> (try omega)
+    cases lg <;> (try simp only [St.setDone, St.setBg, ↓reduceIte, Bool.false_eq_true, Bool.and_false, Bool.and_true, Bool.false_and, Bool.true_and]) <;> (repeat' split) <;> simp_all [tot_set_eq _ _ _ _ _ hi, tot_ackWs_srw', tot_ackWs_lgw, tot_ackWs_clall, tot_ackWs_clpre, b2n_true, b2n_false, clearW_idle, clearW_exited, clearW_parked, clearW_eq_exited, clearW_eq_parked, srW, lgW, clAllW, clPreW, St.bg, onOk, onErr, selNext, afterSetErr, srAllW, nextC, roSets] <;> (try omega) <;> (try (cases hk : s.ehTok <;> cases hk2 : s.cwl <;> simp_all [b2n_true, b2n_false] <;> omega))
   | otxWaitComp _ i lg hi =>
     clear h4
     have l0 := le_tot srW _ _ _ hi
     have l1 := le_tot lgW _ _ _ hi
     have l2 := le_tot clAllW _ _ _ hi
     have l3 := le_tot clPreW _ _ _ hi
-    cases lg <;> (try simp only [St.setDone, St.setBg, ↓reduceIte, Bool.false_eq_true, Bool.and_false, Bool.and_true, Bool.false_and, Bool.true_and]) <;> (repeat' split) <;> simp_all [tot_set_eq _ _ _ _ _ hi, tot_ackWs_srw', tot_ackWs_lgw, tot_ackWs_clall, tot_ackWs_clpre, b2n_true, b2n_false, clearW_idle, clearW_exited, clearW_parked, clearW_eq_exited, clearW_eq_parked, srW, lgW, clAllW, clPreW, St.bg, onOk, onErr, selNext, afterSetErr, srAllW, nextC] <;> (try omega)
+    cases lg <;> (try simp only [St.setDone, St.setBg, ↓reduceIte, Bool.false_eq_true, Bool.and_false, Bool.and_true, Bool.false_and, Bool.true_and]) <;> (repeat' split) <;> simp_all [tot_set_eq _ _ _ _ _ hi, tot_ackWs_srw', tot_ackWs_lgw, tot_ackWs_clall, tot_ackWs_clpre, b2n_true, b2n_false, clearW_idle, clearW_exited, clearW_parked, clearW_eq_exited, clearW_eq_parked, srW, lgW, clAllW, clPreW, St.bg, onOk, onErr, selNext, afterSetErr, srAllW, nextC, roSets] <;> (try omega) <;> (try (cases hk : s.ehTok <;> cases hk2 : s.cwl <;> simp_all [b2n_true, b2n_false] <;> omega))
   | otxFail _ i lg hi =>
     clear h4
     have l0 := le_tot srW _ _ _ hi
     have l1 := le_tot lgW _ _ _ hi
     have l2 := le_tot clAllW _ _ _ hi
     have l3 := le_tot clPreW _ _ _ hi
-    cases lg <;> (try simp only [St.setDone, St.setBg, ↓reduceIte, Bool.false_eq_true, Bool.and_false, Bool.and_true, Bool.false_and, Bool.true_and]) <;> (repeat' split) <;> simp_all [tot_set_eq _ _ _ _ _ hi, tot_ackWs_srw', tot_ackWs_lgw, tot_ackWs_clall, tot_ackWs_clpre, b2n_true, b2n_false, clearW_idle, clearW_exited, clearW_parked, clearW_eq_exited, clearW_eq_parked, srW, lgW, clAllW, clPreW, St.bg, onOk, onErr, selNext, afterSetErr, srAllW, nextC] <;> (try omega)
+    cases lg <;> (try simp only [St.setDone, St.setBg, ↓reduceIte, Bool.false_eq_true, Bool.and_false, Bool.and_true, Bool.false_and, Bool.true_and]) <;> (repeat' split) <;> simp_all [tot_set_eq _ _ _ _ _ hi, tot_ackWs_srw', tot_ackWs_lgw, tot_ackWs_clall, tot_ackWs_clpre, b2n_true, b2n_false, clearW_idle, clearW_exited, clearW_parked, clearW_eq_exited, clearW_eq_parked, srW, lgW, clAllW, clPreW, St.bg, onOk, onErr, selNext, afterSetErr, srAllW, nextC, roSets] <;> (try omega) <;> (try (cases hk : s.ehTok <;> cases hk2 : s.cwl <;> simp_all [b2n_true, b2n_false] <;> omega))
   | otxRel _ i lg hi =>
     clear h4
     have l0 := le_tot srW _ _ _ hi
     have l1 := le_tot lgW _ _ _ hi
     have l2 := le_tot clAllW _ _ _ hi
     have l3 := le_tot clPreW _ _ _ hi
-    cases lg <;> (try simp only [St.setDone, St.setBg, ↓reduceIte, Bool.false_eq_true, Bool.and_false, Bool.and_true, Bool.false_and, Bool.true_and]) <;> (repeat' split) <;> simp_all [tot_set_eq _ _ _ _ _ hi, tot_ackWs_srw', tot_ackWs_lgw, tot_ackWs_clall, tot_ackWs_clpre, b2n_true, b2n_false, clearW_idle, clearW_exited, clearW_parked, clearW_eq_exited, clearW_eq_parked, srW, lgW, clAllW, clPreW, St.bg, onOk, onErr, selNext, afterSetErr, srAllW, nextC] <;> (try omega)
+    cases lg <;> (try simp only [St.setDone, St.setBg, ↓reduceIte, Bool.false_eq_true, Bool.and_false, Bool.and_true, Bool.false_and, Bool.true_and]) <;> (repeat' split) <;> simp_all [tot_set_eq _ _ _ _ _ hi, tot_ackWs_srw', tot_ackWs_lgw, tot_ackWs_clall, tot_ackWs_clpre, b2n_true, b2n_false, clearW_idle, clearW_exited, clearW_parked, clearW_eq_exited, clearW_eq_parked, srW, lgW, clAllW, clPreW, St.bg, onOk, onErr, selNext, afterSetErr, srAllW, nextC, roSets] <;> (try omega) <;> (try (cases hk : s.ehTok <;> cases hk2 : s.cwl <;> simp_all [b2n_true, b2n_false] <;> omega))
   | otxDone _ i lg hi =>
     clear h4
     have l0 := le_tot srW _ _ _ hi
     have l1 := le_tot lgW _ _ _ hi
     have l2 := le_tot clAllW _ _ _ hi
     have l3 := le_tot clPreW _ _ _ hi
-    cases lg <;> (try simp only [St.setDone, St.setBg, ↓reduceIte, Bool.false_eq_true, Bool.and_false, Bool.and_true, Bool.false_and, Bool.true_and]) <;> (repeat' split) <;> simp_all [tot_set_eq _ _ _ _ _ hi, tot_ackWs_srw', tot_ackWs_lgw, tot_ackWs_clall, tot_ackWs_clpre, b2n_true, b2n_false, clearW_idle, clearW_exited, clearW_parked, clearW_eq_exited, clearW_eq_parked, srW, lgW, clAllW, clPreW, St.bg, onOk, onErr, selNext, afterSetErr, srAllW, nextC] <;> (try omega)
+    cases lg <;> (try simp only [St.setDone, St.setBg, ↓reduceIte, Bool.false_eq_true, Bool.and_false, Bool.and_true, Bool.false_and, Bool.true_and]) <;> (repeat' split) <;> simp_all [tot_set_eq _ _ _ _ _ hi, tot_ackWs_srw', tot_ackWs_lgw, tot_ackWs_clall, tot_ackWs_clpre, b2n_true, b2n_false, clearW_idle, clearW_exited, clearW_parked, clearW_eq_exited, clearW_eq_parked, srW, lgW, clAllW, clPreW, St.bg, onOk, onErr, selNext, afterSetErr, srAllW, nextC, roSets] <;> (try omega) <;> (try (cases hk : s.ehTok <;> cases hk2 : s.cwl <;> simp_all [b2n_true, b2n_false] <;> omega))
   | lgWriteOk _ i hi =>
     clear h4
     have l0 := le_tot srW _ _ _ hi
     have l1 := le_tot lgW _ _ _ hi
     have l2 := le_tot clAllW _ _ _ hi
     have l3 := le_tot clPreW _ _ _ hi
-    (try simp only [St.setDone, St.setBg, ↓reduceIte, Bool.false_eq_true, Bool.and_false, Bool.and_true, Bool.false_and, Bool.true_and]) <;> (repeat' split) <;> simp_all [tot_set_eq _ _ _ _ _ hi, tot_ackWs_srw', tot_ackWs_lgw, tot_ackWs_clall, tot_ackWs_clpre, b2n_true, b2n_false, clearW_idle, clearW_exited, clearW_parked, clearW_eq_exited, clearW_eq_parked, srW, lgW, clAllW, clPreW, St.bg, onOk, onErr, selNext, afterSetErr, srAllW, nextC] <;> (try omega)
+    (try simp only [St.setDone, St.setBg, ↓reduceIte, Bool.false_eq_true, Bool.and_false, Bool.and_true, Bool.false_and, Bool.true_and]) <;> (repeat' split) <;> simp_all [tot_set_eq _ _ _ _ _ hi, tot_ackWs_srw', tot_ackWs_lgw, tot_ackWs_clall, tot_ackWs_clpre, b2n_true, b2n_false, clearW_idle, clearW_exited, clearW_parked, clearW_eq_exited, clearW_eq_parked, srW, lgW, clAllW, clPreW, St.bg, onOk, onErr, selNext, afterSetErr, srAllW, nextC, roSets] <;> (try omega) <;> (try (cases hk : s.ehTok <;> cases hk2 : s.cwl <;> simp_all [b2n_true, b2n_false] <;> omega))
   | lgWriteFail _ i hi =>
     clear h4
     have l0 := le_tot srW _ _ _ hi
     have l1 := le_tot lgW _ _ _ hi
     have l2 := le_tot clAllW _ _ _ hi
     have l3 := le_tot clPreW _ _ _ hi
-    (try simp only [St.setDone, St.setBg, ↓reduceIte, Bool.false_eq_true, Bool.and_false, Bool.and_true, Bool.false_and, Bool.true_and]) <;> (repeat' split) <;> simp_all [tot_set_eq _ _ _ _ _ hi, tot_ackWs_srw', tot_ackWs_lgw, tot_ackWs_clall, tot_ackWs_clpre, b2n_true, b2n_false, clearW_idle, clearW_exited, clearW_parked, clearW_eq_exited, clearW_eq_parked, srW, lgW, clAllW, clPreW, St.bg, onOk, onErr, selNext, afterSetErr, srAllW, nextC] <;> (try omega)
+    (try simp only [St.setDone, St.setBg, ↓reduceIte, Bool.false_eq_true, Bool.and_false, Bool.and_true, Bool.false_and, Bool.true_and]) <;> (repeat' split) <;> simp_all [tot_set_eq _ _ _ _ _ hi, tot_ackWs_srw', tot_ackWs_lgw, tot_ackWs_clall, tot_ackWs_clpre, b2n_true, b2n_false, clearW_idle, clearW_exited, clearW_parked, clearW_eq_exited, clearW_eq_parked, srW, lgW, clAllW, clPreW, St.bg, onOk, onErr, selNext, afterSetErr, srAllW, nextC, roSets] <;> (try omega) <;> (try (cases hk : s.ehTok <;> cases hk2 : s.cwl <;> simp_all [b2n_true, b2n_false] <;> omega))
   | cmLockTr _ i lg hi hl =>
     clear h4
     have l0 := le_tot srW _ _ _ hi
     have l1 := le_tot lgW _ _ _ hi
     have l2 := le_tot clAllW _ _ _ hi
     have l3 := le_tot clPreW _ _ _ hi
-    cases lg <;> (try simp only [St.setDone, St.setBg, ↓reduceIte, Bool.false_eq_true, Bool.and_false, Bool.and_true, Bool.false_and, Bool.true_and]) <;> (repeat' split) <;> simp_all [tot_set_eq _ _ _ _ _ hi, tot_ackWs_srw', tot_ackWs_lgw, tot_ackWs_clall, tot_ackWs_clpre, b2n_true, b2n_false, clearW_idle, clearW_exited, clearW_parked, clearW_eq_exited, clearW_eq_parked, srW, lgW, clAllW, clPreW, St.bg, onOk, onErr, selNext, afterSetErr, srAllW, nextC] <;> (try omega)
+    cases lg <;> (try simp only [St.setDone, St.setBg, ↓reduceIte, Bool.false_eq_true, Bool.and_false, Bool.and_true, Bool.false_and, Bool.true_and]) <;> (repeat' split) <;> simp_all [tot_set_eq _ _ _ _ _ hi, tot_ackWs_srw', tot_ackWs_lgw, tot_ackWs_clall, tot_ackWs_clpre, b2n_true, b2n_false, clearW_idle, clearW_exited, clearW_parked, clearW_eq_exited, clearW_eq_parked, srW, lgW, clAllW, clPreW, St.bg, onOk, onErr, selNext, afterSetErr, srAllW, nextC, roSets] <;> (try omega) <;> (try (cases hk : s.ehTok <;> cases hk2 : s.cwl <;> simp_all [b2n_true, b2n_false] <;> omega))
   | cmFlushOk _ i lg hi =>
     clear h4
     have l0 := le_tot srW _ _ _ hi
     have l1 := le_tot lgW _ _ _ hi
     have l2 := le_tot clAllW _ _ _ hi
     have l3 := le_tot clPreW _ _ _ hi
-    cases lg <;> (try simp only [St.setDone, St.setBg, ↓reduceIte, Bool.false_eq_true, Bool.and_false, Bool.and_true, Bool.false_and, Bool.true_and]) <;> (repeat' split) <;> simp_all [tot_set_eq _ _ _ _ _ hi, tot_ackWs_srw', tot_ackWs_lgw, tot_ackWs_clall, tot_ackWs_clpre, b2n_true, b2n_false, clearW_idle, clearW_exited, clearW_parked, clearW_eq_exited, clearW_eq_parked, srW, lgW, clAllW, clPreW, St.bg, onOk, onErr, selNext, afterSetErr, srAllW, nextC] <;> (try omega)
+    cases lg <;> (try simp only [St.setDone, St.setBg, ↓reduceIte, Bool.false_eq_true, Bool.and_false, Bool.and_true, Bool.false_and, Bool.true_and]) <;> (repeat' split) <;> simp_all [tot_set_eq _ _ _ _ _ hi, tot_ackWs_srw', tot_ackWs_lgw, tot_ackWs_clall, tot_ackWs_clpre, b2n_true, b2n_false, clearW_idle, clearW_exited, clearW_parked, clearW_eq_exited, clearW_eq_parked, srW, lgW, clAllW, clPreW, St.bg, onOk, onErr, selNext, afterSetErr, srAllW, nextC, roSets] <;> (try omega) <;> (try (cases hk : s.ehTok <;> cases hk2 : s.cwl <;> simp_all [b2n_true, b2n_false] <;> omega))
   | cmFlushEmpty _ i lg hi =>
     clear h4
     have l0 := le_tot srW _ _ _ hi
     have l1 := le_tot lgW _ _ _ hi
     have l2 := le_tot clAllW _ _ _ hi
     have l3 := le_tot clPreW _ _ _ hi
-    cases lg <;> (try simp only [St.setDone, St.setBg, ↓reduceIte, Bool.false_eq_true, Bool.and_false, Bool.and_true, Bool.false_and, Bool.true_and]) <;> (repeat' split) <;> simp_all [tot_set_eq _ _ _ _ _ hi, tot_ackWs_srw', tot_ackWs_lgw, tot_ackWs_clall, tot_ackWs_clpre, b2n_true, b2n_false, clearW_idle, clearW_exited, clearW_parked, clearW_eq_exited, clearW_eq_parked, srW, lgW, clAllW, clPreW, St.bg, onOk, onErr, selNext, afterSetErr, srAllW, nextC] <;> (try omega)
+    cases lg <;> (try simp only [St.setDone, St.setBg, ↓reduceIte, Bool.false_eq_true, Bool.and_false, Bool.and_true, Bool.false_and, Bool.true_and]) <;> (repeat' split) <;> simp_all [tot_set_eq _ _ _ _ _ hi, tot_ackWs_srw', tot_ackWs_lgw, tot_ackWs_clall, tot_ackWs_clpre, b2n_true, b2n_false, clearW_idle, clearW_exited, clearW_parked, clearW_eq_exited, clearW_eq_parked, srW, lgW, clAllW, clPreW, St.bg, onOk, onErr, selNext, afterSetErr, srAllW, nextC, roSets] <;> (try omega) <;> (try (cases hk : s.ehTok <;> cases hk2 : s.cwl <;> simp_all [b2n_true, b2n_false] <;> omega))
   | cmFlushFail _ i lg hi =>
     clear h4
     have l0 := le_tot srW _ _ _ hi
     have l1 := le_tot lgW _ _ _ hi
     have l2 := le_tot clAllW _ _ _ hi
     have l3 := le_tot clPreW _ _ _ hi
-    cases lg <;> (try simp only [St.setDone, St.setBg, ↓reduceIte, Bool.false_eq_true, Bool.and_false, Bool.and_true, Bool.false_and, Bool.true_and]) <;> (repeat' split) <;> simp_all [tot_set_eq _ _ _ _ _ hi, tot_ackWs_srw', tot_ackWs_lgw, tot_ackWs_clall, tot_ackWs_clpre, b2n_true, b2n_false, clearW_idle, clearW_exited, clearW_parked, clearW_eq_exited, clearW_eq_parked, srW, lgW, clAllW, clPreW, St.bg, onOk, onErr, selNext, afterSetErr, srAllW, nextC] <;> (try omega)
+    cases lg <;> (try simp only [St.setDone, St.setBg, ↓reduceIte, Bool.false_eq_true, Bool.and_false, Bool.and_true, Bool.false_and, Bool.true_and]) <;> (repeat' split) <;> simp_all [tot_set_eq _ _ _ _ _ hi, tot_ackWs_srw', tot_ackWs_lgw, tot_ackWs_clall, tot_ackWs_clpre, b2n_true, b2n_false, clearW_idle, clearW_exited, clearW_parked, clearW_eq_exited, clearW_eq_parked, srW, lgW, clAllW, clPreW, St.bg, onOk, onErr, selNext, afterSetErr, srAllW, nextC, roSets] <;> (try omega) <;> (try (cases hk : s.ehTok <;> cases hk2 : s.cwl <;> simp_all [b2n_true, b2n_false] <;> omega))
   | cmLockClk _ i lg hi hl =>
     clear h4
     have l0 := le_tot srW _ _ _ hi
     have l1 := le_tot lgW _ _ _ hi
     have l2 := le_tot clAllW _ _ _ hi
     have l3 := le_tot clPreW _ _ _ hi
-    cases lg <;> (try simp only [St.setDone, St.setBg, ↓reduceIte, Bool.false_eq_true, Bool.and_false, Bool.and_true, Bool.false_and, Bool.true_and]) <;> (repeat' split) <;> simp_all [tot_set_eq _ _ _ _ _ hi, tot_ackWs_srw', tot_ackWs_lgw, tot_ackWs_clall, tot_ackWs_clpre, b2n_true, b2n_false, clearW_idle, clearW_exited, clearW_parked, clearW_eq_exited, clearW_eq_parked, srW, lgW, clAllW, clPreW, St.bg, onOk, onErr, selNext, afterSetErr, srAllW, nextC] <;> (try omega)
+    cases lg <;> (try simp only [St.setDone, St.setBg, ↓reduceIte, Bool.false_eq_true, Bool.and_false, Bool.and_true, Bool.false_and, Bool.true_and]) <;> (repeat' split) <;> simp_all [tot_set_eq _ _ _ _ _ hi, tot_ackWs_srw', tot_ackWs_lgw, tot_ackWs_clall, tot_ackWs_clpre, b2n_true, b2n_false, clearW_idle, clearW_exited, clearW_parked, clearW_eq_exited, clearW_eq_parked, srW, lgW, clAllW, clPreW, St.bg, onOk, onErr, selNext, afterSetErr, srAllW, nextC, roSets] <;> (try omega) <;> (try (cases hk : s.ehTok <;> cases hk2 : s.cwl <;> simp_all [b2n_true, b2n_false] <;> omega))
   | cmTryOk _ i k lg hi =>
     clear h4
     have l0 := le_tot srW _ _ _ hi
     have l1 := le_tot lgW _ _ _ hi
     have l2 := le_tot clAllW _ _ _ hi
     have l3 := le_tot clPreW _ _ _ hi
-    cases lg <;> (try simp only [St.setDone, St.setBg, ↓reduceIte, Bool.false_eq_true, Bool.and_false, Bool.and_true, Bool.false_and, Bool.true_and]) <;> (repeat' split) <;> simp_all [tot_set_eq _ _ _ _ _ hi, tot_ackWs_srw', tot_ackWs_lgw, tot_ackWs_clall, tot_ackWs_clpre, b2n_true, b2n_false, clearW_idle, clearW_exited, clearW_parked, clearW_eq_exited, clearW_eq_parked, srW, lgW, clAllW, clPreW, St.bg, onOk, onErr, selNext, afterSetErr, srAllW, nextC] <;> (try omega)
+    cases lg <;> (try simp only [St.setDone, St.setBg, ↓reduceIte, Bool.false_eq_true, Bool.and_false, Bool.and_true, Bool.false_and, Bool.true_and]) <;> (repeat' split) <;> simp_all [tot_set_eq _ _ _ _ _ hi, tot_ackWs_srw', tot_ackWs_lgw, tot_ackWs_clall, tot_ackWs_clpre, b2n_true, b2n_false, clearW_idle, clearW_exited, clearW_parked, clearW_eq_exited, clearW_eq_parked, srW, lgW, clAllW, clPreW, St.bg, onOk, onErr, selNext, afterSetErr, srAllW, nextC, roSets] <;> (try omega) <;> (try (cases hk : s.ehTok <;> cases hk2 : s.cwl <;> simp_all [b2n_true, b2n_false] <;> omega))
   | cmTryFail _ i k lg hi =>
     clear h4
     have l0 := le_tot srW _ _ _ hi
     have l1 := le_tot lgW _ _ _ hi
     have l2 := le_tot clAllW _ _ _ hi
     have l3 := le_tot clPreW _ _ _ hi
-    cases lg <;> (try simp only [St.setDone, St.setBg, ↓reduceIte, Bool.false_eq_true, Bool.and_false, Bool.and_true, Bool.false_and, Bool.true_and]) <;> (repeat' split) <;> simp_all [tot_set_eq _ _ _ _ _ hi, tot_ackWs_srw', tot_ackWs_lgw, tot_ackWs_clall, tot_ackWs_clpre, b2n_true, b2n_false, clearW_idle, clearW_exited, clearW_parked, clearW_eq_exited, clearW_eq_parked, srW, lgW, clAllW, clPreW, St.bg, onOk, onErr, selNext, afterSetErr, srAllW, nextC] <;> (try omega)
+    cases lg <;> (try simp only [St.setDone, St.setBg, ↓reduceIte, Bool.false_eq_true, Bool.and_false, Bool.and_true, Bool.false_and, Bool.true_and]) <;> (repeat' split) <;> simp_all [tot_set_eq _ _ _ _ _ hi, tot_ackWs_srw', tot_ackWs_lgw, tot_ackWs_clall, tot_ackWs_clpre, b2n_true, b2n_false, clearW_idle, clearW_exited, clearW_parked, clearW_eq_exited, clearW_eq_parked, srW, lgW, clAllW, clPreW, St.bg, onOk, onErr, selNext, afterSetErr, srAllW, nextC, roSets] <;> (try omega) <;> (try (cases hk : s.ehTok <;> cases hk2 : s.cwl <;> simp_all [b2n_true, b2n_false] <;> omega))
   | cmSleepTimer _ i k lg hi =>
     clear h4
     have l0 := le_tot srW _ _ _ hi
     have l1 := le_tot lgW _ _ _ hi
     have l2 := le_tot clAllW _ _ _ hi
     have l3 := le_tot clPreW _ _ _ hi
-    cases lg <;> (try simp only [St.setDone, St.setBg, ↓reduceIte, Bool.false_eq_true, Bool.and_false, Bool.and_true, Bool.false_and, Bool.true_and]) <;> (repeat' split) <;> simp_all [tot_set_eq _ _ _ _ _ hi, tot_ackWs_srw', tot_ackWs_lgw, tot_ackWs_clall, tot_ackWs_clpre, b2n_true, b2n_false, clearW_idle, clearW_exited, clearW_parked, clearW_eq_exited, clearW_eq_parked, srW, lgW, clAllW, clPreW, St.bg, onOk, onErr, selNext, afterSetErr, srAllW, nextC] <;> (try omega)
+    cases lg <;> (try simp only [St.setDone, St.setBg, ↓reduceIte, Bool.false_eq_true, Bool.and_false, Bool.and_true, Bool.false_and, Bool.true_and]) <;> (repeat' split) <;> simp_all [tot_set_eq _ _ _ _ _ hi, tot_ackWs_srw', tot_ackWs_lgw, tot_ackWs_clall, tot_ackWs_clpre, b2n_true, b2n_false, clearW_idle, clearW_exited, clearW_parked, clearW_eq_exited, clearW_eq_parked, srW, lgW, clAllW, clPreW, St.bg, onOk, onErr, selNext, afterSetErr, srAllW, nextC, roSets] <;> (try omega) <;> (try (cases hk : s.ehTok <;> cases hk2 : s.cwl <;> simp_all [b2n_true, b2n_false] <;> omega))
   | cmSleepClosed _ i k lg hi hc =>
     clear h4
     have l0 := le_tot srW _ _ _ hi
     have l1 := le_tot lgW _ _ _ hi
     have l2 := le_tot clAllW _ _ _ hi
     have l3 := le_tot clPreW _ _ _ hi
-    cases lg <;> (try simp only [St.setDone, St.setBg, ↓reduceIte, Bool.false_eq_true, Bool.and_false, Bool.and_true, Bool.false_and, Bool.true_and]) <;> (repeat' split) <;> simp_all [tot_set_eq _ _ _ _ _ hi, tot_ackWs_srw', tot_ackWs_lgw, tot_ackWs_clall, tot_ackWs_clpre, b2n_true, b2n_false, clearW_idle, clearW_exited, clearW_parked, clearW_eq_exited, clearW_eq_parked, srW, lgW, clAllW, clPreW, St.bg, onOk, onErr, selNext, afterSetErr, srAllW, nextC] <;> (try omega)
+    cases lg <;> (try simp only [St.setDone, St.setBg, ↓reduceIte, Bool.false_eq_true, Bool.and_false, Bool.and_true, Bool.false_and, Bool.true_and]) <;> (repeat' split) <;> simp_all [tot_set_eq _ _ _ _ _ hi, tot_ackWs_srw', tot_ackWs_lgw, tot_ackWs_clall, tot_ackWs_clpre, b2n_true, b2n_false, clearW_idle, clearW_exited, clearW_parked, clearW_eq_exited, clearW_eq_parked, srW, lgW, clAllW, clPreW, St.bg, onOk, onErr, selNext, afterSetErr, srAllW, nextC, roSets] <;> (try omega) <;> (try (cases hk : s.ehTok <;> cases hk2 : s.cwl <;> simp_all [b2n_true, b2n_false] <;> omega))
   | cmFail3 _ i lg hi =>
     clear h4
     have l0 := le_tot srW _ _ _ hi
     have l1 := le_tot lgW _ _ _ hi
     have l2 := le_tot clAllW _ _ _ hi
     have l3 := le_tot clPreW _ _ _ hi
-    cases lg <;> (try simp only [St.setDone, St.setBg, ↓reduceIte, Bool.false_eq_true, Bool.and_false, Bool.and_true, Bool.false_and, Bool.true_and]) <;> (repeat' split) <;> simp_all [tot_set_eq _ _ _ _ _ hi, tot_ackWs_srw', tot_ackWs_lgw, tot_ackWs_clall, tot_ackWs_clpre, b2n_true, b2n_false, clearW_idle, clearW_exited, clearW_parked, clearW_eq_exited, clearW_eq_parked, srW, lgW, clAllW, clPreW, St.bg, onOk, onErr, selNext, afterSetErr, srAllW, nextC] <;> (try omega)
+    cases lg <;> (try simp only [St.setDone, St.setBg, ↓reduceIte, Bool.false_eq_true, Bool.and_false, Bool.and_true, Bool.false_and, Bool.true_and]) <;> (repeat' split) <;> simp_all [tot_set_eq _ _ _ _ _ hi, tot_ackWs_srw', tot_ackWs_lgw, tot_ackWs_clall, tot_ackWs_clpre, b2n_true, b2n_false, clearW_idle, clearW_exited, clearW_parked, clearW_eq_exited, clearW_eq_parked, srW, lgW, clAllW, clPreW, St.bg, onOk, onErr, selNext, afterSetErr, srAllW, nextC, roSets] <;> (try omega) <;> (try (cases hk : s.ehTok <;> cases hk2 : s.cwl <;> simp_all [b2n_true, b2n_false] <;> omega))
   | cmAfterOk _ i lg hi =>
     clear h4
     have l0 := le_tot srW _ _ _ hi
     have l1 := le_tot lgW _ _ _ hi
     have l2 := le_tot clAllW _ _ _ hi
     have l3 := le_tot clPreW _ _ _ hi
-    cases lg <;> (try simp only [St.setDone, St.setBg, ↓reduceIte, Bool.false_eq_true, Bool.and_false, Bool.and_true, Bool.false_and, Bool.true_and]) <;> (repeat' split) <;> simp_all [tot_set_eq _ _ _ _ _ hi, tot_ackWs_srw', tot_ackWs_lgw, tot_ackWs_clall, tot_ackWs_clpre, b2n_true, b2n_false, clearW_idle, clearW_exited, clearW_parked, clearW_eq_exited, clearW_eq_parked, srW, lgW, clAllW, clPreW, St.bg, onOk, onErr, selNext, afterSetErr, srAllW, nextC] <;> (try omega)
+    cases lg <;> (try simp only [St.setDone, St.setBg, ↓reduceIte, Bool.false_eq_true, Bool.and_false, Bool.and_true, Bool.false_and, Bool.true_and]) <;> (repeat' split) <;> simp_all [tot_set_eq _ _ _ _ _ hi, tot_ackWs_srw', tot_ackWs_lgw, tot_ackWs_clall, tot_ackWs_clpre, b2n_true, b2n_false, clearW_idle, clearW_exited, clearW_parked, clearW_eq_exited, clearW_eq_parked, srW, lgW, clAllW, clPreW, St.bg, onOk, onErr, selNext, afterSetErr, srAllW, nextC, roSets] <;> (try omega) <;> (try (cases hk : s.ehTok <;> cases hk2 : s.cwl <;> simp_all [b2n_true, b2n_false] <;> omega))
   | cmNoWaitComp _ i lg hi =>
     clear h4
     have l0 := le_tot srW _ _ _ hi
     have l1 := le_tot lgW _ _ _ hi
     have l2 := le_tot clAllW _ _ _ hi
     have l3 := le_tot clPreW _ _ _ hi
-    cases lg <;> (try simp only [St.setDone, St.setBg, ↓reduceIte, Bool.false_eq_true, Bool.and_false, Bool.and_true, Bool.false_and, Bool.true_and]) <;> (repeat' split) <;> simp_all [tot_set_eq _ _ _ _ _ hi, tot_ackWs_srw', tot_ackWs_lgw, tot_ackWs_clall, tot_ackWs_clpre, b2n_true, b2n_false, clearW_idle, clearW_exited, clearW_parked, clearW_eq_exited, clearW_eq_parked, srW, lgW, clAllW, clPreW, St.bg, onOk, onErr, selNext, afterSetErr, srAllW, nextC] <;> (try omega)
+    cases lg <;> (try simp only [St.setDone, St.setBg, ↓reduceIte, Bool.false_eq_true, Bool.and_false, Bool.and_true, Bool.false_and, Bool.true_and]) <;> (repeat' split) <;> simp_all [tot_set_eq _ _ _ _ _ hi, tot_ackWs_srw', tot_ackWs_lgw, tot_ackWs_clall, tot_ackWs_clpre, b2n_true, b2n_false, clearW_idle, clearW_exited, clearW_parked, clearW_eq_exited, clearW_eq_parked, srW, lgW, clAllW, clPreW, St.bg, onOk, onErr, selNext, afterSetErr, srAllW, nextC, roSets] <;> (try omega) <;> (try (cases hk : s.ehTok <;> cases hk2 : s.cwl <;> simp_all [b2n_true, b2n_false] <;> omega))
   | cmWaitComp _ i lg hi =>
     clear h4
     have l0 := le_tot srW _ _ _ hi
     have l1 := le_tot lgW _ _ _ hi
     have l2 := le_tot clAllW _ _ _ hi
     have l3 := le_tot clPreW _ _ _ hi
-    cases lg <;> (try simp only [St.setDone, St.setBg, ↓reduceIte, Bool.false_eq_true, Bool.and_false, Bool.and_true, Bool.false_and, Bool.true_and]) <;> (repeat' split) <;> simp_all [tot_set_eq _ _ _ _ _ hi, tot_ackWs_srw', tot_ackWs_lgw, tot_ackWs_clall, tot_ackWs_clpre, b2n_true, b2n_false, clearW_idle, clearW_exited, clearW_parked, clearW_eq_exited, clearW_eq_parked, srW, lgW, clAllW, clPreW, St.bg, onOk, onErr, selNext, afterSetErr, srAllW, nextC] <;> (try omega)
+    cases lg <;> (try simp only [St.setDone, St.setBg, ↓reduceIte, Bool.false_eq_true, Bool.and_false, Bool.and_true, Bool.false_and, Bool.true_and]) <;> (repeat' split) <;> simp_all [tot_set_eq _ _ _ _ _ hi, tot_ackWs_srw', tot_ackWs_lgw, tot_ackWs_clall, tot_ackWs_clpre, b2n_true, b2n_false, clearW_idle, clearW_exited, clearW_parked, clearW_eq_exited, clearW_eq_parked, srW, lgW, clAllW, clPreW, St.bg, onOk, onErr, selNext, afterSetErr, srAllW, nextC, roSets] <;> (try omega) <;> (try (cases hk : s.ehTok <;> cases hk2 : s.cwl <;> simp_all [b2n_true, b2n_false] <;> omega))
   | cmDone _ i lg hi =>
     clear h4
     have l0 := le_tot srW _ _ _ hi
     have l1 := le_tot lgW _ _ _ hi
     have l2 := le_tot clAllW _ _ _ hi
     have l3 := le_tot clPreW _ _ _ hi
-    cases lg <;> (try simp only [St.setDone, St.setBg, ↓reduceIte, Bool.false_eq_true, Bool.and_false, Bool.and_true, Bool.false_and, Bool.true_and]) <;> (repeat' split) <;> simp_all [tot_set_eq _ _ _ _ _ hi, tot_ackWs_srw', tot_ackWs_lgw, tot_ackWs_clall, tot_ackWs_clpre, b2n_true, b2n_false, clearW_idle, clearW_exited, clearW_parked, clearW_eq_exited, clearW_eq_parked, srW, lgW, clAllW, clPreW, St.bg, onOk, onErr, selNext, afterSetErr, srAllW, nextC] <;> (try omega)
+    cases lg <;> (try simp only [St.setDone, St.setBg, ↓reduceIte, Bool.false_eq_true, Bool.and_false, Bool.and_true, Bool.false_and, Bool.true_and]) <;> (repeat' split) <;> simp_all [tot_set_eq _ _ _ _ _ hi, tot_ackWs_srw', tot_ackWs_lgw, tot_ackWs_clall, tot_ackWs_clpre, b2n_true, b2n_false, clearW_idle, clearW_exited, clearW_parked, clearW_eq_exited, clearW_eq_parked, srW, lgW, clAllW, clPreW, St.bg, onOk, onErr, selNext, afterSetErr, srAllW, nextC, roSets] <;> (try omega) <;> (try (cases hk : s.ehTok <;> cases hk2 : s.cwl <;> simp_all [b2n_true, b2n_false] <;> omega))
   | cmRet _ i ok lg hi =>
     clear h4
     have l0 := le_tot srW _ _ _ hi
     have l1 := le_tot lgW _ _ _ hi
     have l2 := le_tot clAllW _ _ _ hi
     have l3 := le_tot clPreW _ _ _ hi
-    cases ok <;> cases lg <;> (try simp only [St.setDone, St.setBg, ↓reduceIte, Bool.false_eq_true, Bool.and_false, Bool.and_true, Bool.false_and, Bool.true_and]) <;> (repeat' split) <;> simp_all [tot_set_eq _ _ _ _ _ hi, tot_ackWs_srw', tot_ackWs_lgw, tot_ackWs_clall, tot_ackWs_clpre, b2n_true, b2n_false, clearW_idle, clearW_exited, clearW_parked, clearW_eq_exited, clearW_eq_parked, srW, lgW, clAllW, clPreW, St.bg, onOk, onErr, selNext, afterSetErr, srAllW, nextC] <;> (try omega)
+    cases ok <;> cases lg <;> (try simp only [St.setDone, St.setBg, ↓reduceIte, Bool.false_eq_true, Bool.and_false, Bool.and_true, Bool.false_and, Bool.true_and]) <;> (repeat' split) <;> simp_all [tot_set_eq _ _ _ _ _ hi, tot_ackWs_srw', tot_ackWs_lgw, tot_ackWs_clall, tot_ackWs_clpre, b2n_true, b2n_false, clearW_idle, clearW_exited, clearW_parked, clearW_eq_exited, clearW_eq_parked, srW, lgW, clAllW, clPreW, St.bg, onOk, onErr, selNext, afterSetErr, srAllW, nextC, roSets] <;> (try omega) <;> (try (cases hk : s.ehTok <;> cases hk2 : s.cwl <;> simp_all [b2n_true, b2n_false] <;> omega))
   | dcLockTr _ i lg hi hl =>
     clear h4
     have l0 := le_tot srW _ _ _ hi
     have l1 := le_tot lgW _ _ _ hi
     have l2 := le_tot clAllW _ _ _ hi
     have l3 := le_tot clPreW _ _ _ hi
-    cases lg <;> (try simp only [St.setDone, St.setBg, ↓reduceIte, Bool.false_eq_true, Bool.and_false, Bool.and_true, Bool.false_and, Bool.true_and]) <;> (repeat' split) <;> simp_all [tot_set_eq _ _ _ _ _ hi, tot_ackWs_srw', tot_ackWs_lgw, tot_ackWs_clall, tot_ackWs_clpre, b2n_true, b2n_false, clearW_idle, clearW_exited, clearW_parked, clearW_eq_exited, clearW_eq_parked, srW, lgW, clAllW, clPreW, St.bg, onOk, onErr, selNext, afterSetErr, srAllW, nextC] <;> (try omega)
+    cases lg <;> (try simp only [St.setDone, St.setBg, ↓reduceIte, Bool.false_eq_true, Bool.and_false, Bool.and_true, Bool.false_and, Bool.true_and]) <;> (repeat' split) <;> simp_all [tot_set_eq _ _ _ _ _ hi, tot_ackWs_srw', tot_ackWs_lgw, tot_ackWs_clall, tot_ackWs_clpre, b2n_true, b2n_false, clearW_idle, clearW_exited, clearW_parked, clearW_eq_exited, clearW_eq_parked, srW, lgW, clAllW, clPreW, St.bg, onOk, onErr, selNext, afterSetErr, srAllW, nextC, roSets] <;> (try omega) <;> (try (cases hk : s.ehTok <;> cases hk2 : s.cwl <;> simp_all [b2n_true, b2n_false] <;> omega))
   | dcBody _ i lg hi =>
     clear h4
     have l0 := le_tot srW _ _ _ hi
     have l1 := le_tot lgW _ _ _ hi
     have l2 := le_tot clAllW _ _ _ hi
     have l3 := le_tot clPreW _ _ _ hi
-    cases lg <;> (try simp only [St.setDone, St.setBg, ↓reduceIte, Bool.false_eq_true, Bool.and_false, Bool.and_true, Bool.false_and, Bool.true_and]) <;> (repeat' split) <;> simp_all [tot_set_eq _ _ _ _ _ hi, tot_ackWs_srw', tot_ackWs_lgw, tot_ackWs_clall, tot_ackWs_clpre, b2n_true, b2n_false, clearW_idle, clearW_exited, clearW_parked, clearW_eq_exited, clearW_eq_parked, srW, lgW, clAllW, clPreW, St.bg, onOk, onErr, selNext, afterSetErr, srAllW, nextC] <;> (try omega)
+    cases lg <;> (try simp only [St.setDone, St.setBg, ↓reduceIte, Bool.false_eq_true, Bool.and_false, Bool.and_true, Bool.false_and, Bool.true_and]) <;> (repeat' split) <;> simp_all [tot_set_eq _ _ _ _ _ hi, tot_ackWs_srw', tot_ackWs_lgw, tot_ackWs_clall, tot_ackWs_clpre, b2n_true, b2n_false, clearW_idle, clearW_exited, clearW_parked, clearW_eq_exited, clearW_eq_parked, srW, lgW, clAllW, clPreW, St.bg, onOk, onErr, selNext, afterSetErr, srAllW, nextC, roSets] <;> (try omega) <;> (try (cases hk : s.ehTok <;> cases hk2 : s.cwl <;> simp_all [b2n_true, b2n_false] <;> omega))
   | crNoOverlap _ i hi =>
     clear h4
     have l0 := le_tot srW _ _ _ hi
     have l1 := le_tot lgW _ _ _ hi
     have l2 := le_tot clAllW _ _ _ hi
     have l3 := le_tot clPreW _ _ _ hi
-    (try simp only [St.setDone, St.setBg, ↓reduceIte, Bool.false_eq_true, Bool.and_false, Bool.and_true, Bool.false_and, Bool.true_and]) <;> (repeat' split) <;> simp_all [tot_set_eq _ _ _ _ _ hi, tot_ackWs_srw', tot_ackWs_lgw, tot_ackWs_clall, tot_ackWs_clpre, b2n_true, b2n_false, clearW_idle, clearW_exited, clearW_parked, clearW_eq_exited, clearW_eq_parked, srW, lgW, clAllW, clPreW, St.bg, onOk, onErr, selNext, afterSetErr, srAllW, nextC] <;> (try omega)
+    (try simp only [St.setDone, St.setBg, ↓reduceIte, Bool.false_eq_true, Bool.and_false, Bool.and_true, Bool.false_and, Bool.true_and]) <;> (repeat' split) <;> simp_all [tot_set_eq _ _ _ _ _ hi, tot_ackWs_srw', tot_ackWs_lgw, tot_ackWs_clall, tot_ackWs_clpre, b2n_true, b2n_false, clearW_idle, clearW_exited, clearW_parked, clearW_eq_exited, clearW_eq_parked, srW, lgW, clAllW, clPreW, St.bg, onOk, onErr, selNext, afterSetErr, srAllW, nextC, roSets] <;> (try omega) <;> (try (cases hk : s.ehTok <;> cases hk2 : s.cwl <;> simp_all [b2n_true, b2n_false] <;> omega))
   | crOverlap _ i hi =>
     clear h4
     have l0 := le_tot srW _ _ _ hi
     have l1 := le_tot lgW _ _ _ hi
     have l2 := le_tot clAllW _ _ _ hi
     have l3 := le_tot clPreW _ _ _ hi
-    (try simp only [St.setDone, St.setBg, ↓reduceIte, Bool.false_eq_true, Bool.and_false, Bool.and_true, Bool.false_and, Bool.true_and]) <;> (repeat' split) <;> simp_all [tot_set_eq _ _ _ _ _ hi, tot_ackWs_srw', tot_ackWs_lgw, tot_ackWs_clall, tot_ackWs_clpre, b2n_true, b2n_false, clearW_idle, clearW_exited, clearW_parked, clearW_eq_exited, clearW_eq_parked, srW, lgW, clAllW, clPreW, St.bg, onOk, onErr, selNext, afterSetErr, srAllW, nextC] <;> (try omega)
+    (try simp only [St.setDone, St.setBg, ↓reduceIte, Bool.false_eq_true, Bool.and_false, Bool.and_true, Bool.false_and, Bool.true_and]) <;> (repeat' split) <;> simp_all [tot_set_eq _ _ _ _ _ hi, tot_ackWs_srw', tot_ackWs_lgw, tot_ackWs_clall, tot_ackWs_clpre, b2n_true, b2n_false, clearW_idle, clearW_exited, clearW_parked, clearW_eq_exited, clearW_eq_parked, srW, lgW, clAllW, clPreW, St.bg, onOk, onErr, selNext, afterSetErr, srAllW, nextC, roSets] <;> (try omega) <;> (try (cases hk : s.ehTok <;> cases hk2 : s.cwl <;> simp_all [b2n_true, b2n_false] <;> omega))
   | crNewMemOk _ i hi =>
     clear h4
     have l0 := le_tot srW _ _ _ hi
     have l1 := le_tot lgW _ _ _ hi
     have l2 := le_tot clAllW _ _ _ hi
     have l3 := le_tot clPreW _ _ _ hi
-    (try simp only [St.setDone, St.setBg, ↓reduceIte, Bool.false_eq_true, Bool.and_false, Bool.and_true, Bool.false_and, Bool.true_and]) <;> (repeat' split) <;> simp_all [tot_set_eq _ _ _ _ _ hi, tot_ackWs_srw', tot_ackWs_lgw, tot_ackWs_clall, tot_ackWs_clpre, b2n_true, b2n_false, clearW_idle, clearW_exited, clearW_parked, clearW_eq_exited, clearW_eq_parked, srW, lgW, clAllW, clPreW, St.bg, onOk, onErr, selNext, afterSetErr, srAllW, nextC] <;> (try omega)
+    (try simp only [St.setDone, St.setBg, ↓reduceIte, Bool.false_eq_true, Bool.and_false, Bool.and_true, Bool.false_and, Bool.true_and]) <;> (repeat' split) <;> simp_all [tot_set_eq _ _ _ _ _ hi, tot_ackWs_srw', tot_ackWs_lgw, tot_ackWs_clall, tot_ackWs_clpre, b2n_true, b2n_false, clearW_idle, clearW_exited, clearW_parked, clearW_eq_exited, clearW_eq_parked, srW, lgW, clAllW, clPreW, St.bg, onOk, onErr, selNext, afterSetErr, srAllW, nextC, roSets] <;> (try omega) <;> (try (cases hk : s.ehTok <;> cases hk2 : s.cwl <;> simp_all [b2n_true, b2n_false] <;> omega))
   | crNewMemFail _ i hi =>
     clear h4
     have l0 := le_tot srW _ _ _ hi
     have l1 := le_tot lgW _ _ _ hi
     have l2 := le_tot clAllW _ _ _ hi
     have l3 := le_tot clPreW _ _ _ hi
-    (try simp only [St.setDone, St.setBg, ↓reduceIte, Bool.false_eq_true, Bool.and_false, Bool.and_true, Bool.false_and, Bool.true_and]) <;> (repeat' split) <;> simp_all [tot_set_eq _ _ _ _ _ hi, tot_ackWs_srw', tot_ackWs_lgw, tot_ackWs_clall, tot_ackWs_clpre, b2n_true, b2n_false, clearW_idle, clearW_exited, clearW_parked, clearW_eq_exited, clearW_eq_parked, srW, lgW, clAllW, clPreW, St.bg, onOk, onErr, selNext, afterSetErr, srAllW, nextC] <;> (try omega)
+    (try simp only [St.setDone, St.setBg, ↓reduceIte, Bool.false_eq_true, Bool.and_false, Bool.and_true, Bool.false_and, Bool.true_and]) <;> (repeat' split) <;> simp_all [tot_set_eq _ _ _ _ _ hi, tot_ackWs_srw', tot_ackWs_lgw, tot_ackWs_clall, tot_ackWs_clpre, b2n_true, b2n_false, clearW_idle, clearW_exited, clearW_parked, clearW_eq_exited, clearW_eq_parked, srW, lgW, clAllW, clPreW, St.bg, onOk, onErr, selNext, afterSetErr, srAllW, nextC, roSets] <;> (try omega) <;> (try (cases hk : s.ehTok <;> cases hk2 : s.cwl <;> simp_all [b2n_true, b2n_false] <;> omega))
   | crRelM _ i hi =>
     clear h4
     have l0 := le_tot srW _ _ _ hi
     have l1 := le_tot lgW _ _ _ hi
     have l2 := le_tot clAllW _ _ _ hi
     have l3 := le_tot clPreW _ _ _ hi
-    (try simp only [St.setDone, St.setBg, ↓reduceIte, Bool.false_eq_true, Bool.and_false, Bool.and_true, Bool.false_and, Bool.true_and]) <;> (repeat' split) <;> simp_all [tot_set_eq _ _ _ _ _ hi, tot_ackWs_srw', tot_ackWs_lgw, tot_ackWs_clall, tot_ackWs_clpre, b2n_true, b2n_false, clearW_idle, clearW_exited, clearW_parked, clearW_eq_exited, clearW_eq_parked, srW, lgW, clAllW, clPreW, St.bg, onOk, onErr, selNext, afterSetErr, srAllW, nextC] <;> (try omega)
+    (try simp only [St.setDone, St.setBg, ↓reduceIte, Bool.false_eq_true, Bool.and_false, Bool.and_true, Bool.false_and, Bool.true_and]) <;> (repeat' split) <;> simp_all [tot_set_eq _ _ _ _ _ hi, tot_ackWs_srw', tot_ackWs_lgw, tot_ackWs_clall, tot_ackWs_clpre, b2n_true, b2n_false, clearW_idle, clearW_exited, clearW_parked, clearW_eq_exited, clearW_eq_parked, srW, lgW, clAllW, clPreW, St.bg, onOk, onErr, selNext, afterSetErr, srAllW, nextC, roSets] <;> (try omega) <;> (try (cases hk : s.ehTok <;> cases hk2 : s.cwl <;> simp_all [b2n_true, b2n_false] <;> omega))
   | crRelOk _ i hi =>
     clear h4
     have l0 := le_tot srW _ _ _ hi
     have l1 := le_tot lgW _ _ _ hi
     have l2 := le_tot clAllW _ _ _ hi
     have l3 := le_tot clPreW _ _ _ hi
-    (try simp only [St.setDone, St.setBg, ↓reduceIte, Bool.false_eq_true, Bool.and_false, Bool.and_true, Bool.false_and, Bool.true_and]) <;> (repeat' split) <;> simp_all [tot_set_eq _ _ _ _ _ hi, tot_ackWs_srw', tot_ackWs_lgw, tot_ackWs_clall, tot_ackWs_clpre, b2n_true, b2n_false, clearW_idle, clearW_exited, clearW_parked, clearW_eq_exited, clearW_eq_parked, srW, lgW, clAllW, clPreW, St.bg, onOk, onErr, selNext, afterSetErr, srAllW, nextC] <;> (try omega)
+    (try simp only [St.setDone, St.setBg, ↓reduceIte, Bool.false_eq_true, Bool.and_false, Bool.and_true, Bool.false_and, Bool.true_and]) <;> (repeat' split) <;> simp_all [tot_set_eq _ _ _ _ _ hi, tot_ackWs_srw', tot_ackWs_lgw, tot_ackWs_clall, tot_ackWs_clpre, b2n_true, b2n_false, clearW_idle, clearW_exited, clearW_parked, clearW_eq_exited, clearW_eq_parked, srW, lgW, clAllW, clPreW, St.bg, onOk, onErr, selNext, afterSetErr, srAllW, nextC, roSets] <;> (try omega) <;> (try (cases hk : s.ehTok <;> cases hk2 : s.cwl <;> simp_all [b2n_true, b2n_false] <;> omega))
   | crRelFail _ i hi =>
     clear h4
     have l0 := le_tot srW _ _ _ hi
     have l1 := le_tot lgW _ _ _ hi
     have l2 := le_tot clAllW _ _ _ hi
     have l3 := le_tot clPreW _ _ _ hi
-    (try simp only [St.setDone, St.setBg, ↓reduceIte, Bool.false_eq_true, Bool.and_false, Bool.and_true, Bool.false_and, Bool.true_and]) <;> (repeat' split) <;> simp_all [tot_set_eq _ _ _ _ _ hi, tot_ackWs_srw', tot_ackWs_lgw, tot_ackWs_clall, tot_ackWs_clpre, b2n_true, b2n_false, clearW_idle, clearW_exited, clearW_parked, clearW_eq_exited, clearW_eq_parked, srW, lgW, clAllW, clPreW, St.bg, onOk, onErr, selNext, afterSetErr, srAllW, nextC] <;> (try omega)
+    (try simp only [St.setDone, St.setBg, ↓reduceIte, Bool.false_eq_true, Bool.and_false, Bool.and_true, Bool.false_and, Bool.true_and]) <;> (repeat' split) <;> simp_all [tot_set_eq _ _ _ _ _ hi, tot_ackWs_srw', tot_ackWs_lgw, tot_ackWs_clall, tot_ackWs_clpre, b2n_true, b2n_false, clearW_idle, clearW_exited, clearW_parked, clearW_eq_exited, clearW_eq_parked, srW, lgW, clAllW, clPreW, St.bg, onOk, onErr, selNext, afterSetErr, srAllW, nextC, roSets] <;> (try omega) <;> (try (cases hk : s.ehTok <;> cases hk2 : s.cwl <;> simp_all [b2n_true, b2n_false] <;> omega))
   | srSend _ i hi he =>
     clear h4
     have l0 := le_tot srW _ _ _ hi
@@ -404,113 +406,628 @@ theorem step_pinvB (s t : St) (f : Bool) (cfg : Cfg) (hfx : Fixed3 cfg) (hm : cf
     have l2 := le_tot clAllW _ _ _ hi
     have l3 := le_tot clPreW _ _ _ hi
     simp only [hm, recvs_asCoded] at he
-    rcases he with he | he <;> (try simp only [St.setDone, St.setBg, ↓reduceIte, Bool.false_eq_true, Bool.and_false, Bool.and_true, Bool.false_and, Bool.true_and]) <;> (repeat' split) <;> simp_all [tot_set_eq _ _ _ _ _ hi, tot_ackWs_srw', tot_ackWs_lgw, tot_ackWs_clall, tot_ackWs_clpre, b2n_true, b2n_false, clearW_idle, clearW_exited, clearW_parked, clearW_eq_exited, clearW_eq_parked, srW, lgW, clAllW, clPreW, St.bg, onOk, onErr, selNext, afterSetErr, srAllW, nextC] <;> (try omega)
+    rcases he with he | he <;> (try simp only [St.setDone, St.setBg, ↓reduceIte, Bool.false_eq_true, Bool.and_false, Bool.and_true, Bool.false_and, Bool.true_and]) <;> (repeat' split) <;> simp_all [tot_set_eq _ _ _ _ _ hi, tot_ackWs_srw', tot_ackWs_lgw, tot_ackWs_clall, tot_ackWs_clpre, b2n_true, b2n_false, clearW_idle, clearW_exited, clearW_parked, clearW_eq_exited, clearW_eq_parked, srW, lgW, clAllW, clPreW, St.bg, onOk, onErr, selNext, afterSetErr, srAllW, nextC, roSets] <;> (try omega) <;> (try (cases hk : s.ehTok <;> cases hk2 : s.cwl <;> simp_all [b2n_true, b2n_false] <;> omega))
   | srPerErr _ i hi he =>
     clear h4
     have l0 := le_tot srW _ _ _ hi
     have l1 := le_tot lgW _ _ _ hi
     have l2 := le_tot clAllW _ _ _ hi
     have l3 := le_tot clPreW _ _ _ hi
-    (try simp only [St.setDone, St.setBg, ↓reduceIte, Bool.false_eq_true, Bool.and_false, Bool.and_true, Bool.false_and, Bool.true_and]) <;> (repeat' split) <;> simp_all [tot_set_eq _ _ _ _ _ hi, tot_ackWs_srw', tot_ackWs_lgw, tot_ackWs_clall, tot_ackWs_clpre, b2n_true, b2n_false, clearW_idle, clearW_exited, clearW_parked, clearW_eq_exited, clearW_eq_parked, srW, lgW, clAllW, clPreW, St.bg, onOk, onErr, selNext, afterSetErr, srAllW, nextC] <;> (try omega)
+    (try simp only [St.setDone, St.setBg, ↓reduceIte, Bool.false_eq_true, Bool.and_false, Bool.and_true, Bool.false_and, Bool.true_and]) <;> (repeat' split) <;> simp_all [tot_set_eq _ _ _ _ _ hi, tot_ackWs_srw', tot_ackWs_lgw, tot_ackWs_clall, tot_ackWs_clpre, b2n_true, b2n_false, clearW_idle, clearW_exited, clearW_parked, clearW_eq_exited, clearW_eq_parked, srW, lgW, clAllW, clPreW, St.bg, onOk, onErr, selNext, afterSetErr, srAllW, nextC, roSets] <;> (try omega) <;> (try (cases hk : s.ehTok <;> cases hk2 : s.cwl <;> simp_all [b2n_true, b2n_false] <;> omega))
   | srClosed _ i hi hc =>
     have l0 := le_tot srW _ _ _ hi
     have l1 := le_tot lgW _ _ _ hi
     have l2 := le_tot clAllW _ _ _ hi
     have l3 := le_tot clPreW _ _ _ hi
     have ls := le_tot srAllW _ _ _ hi
-    rcases h4 with h4 | ⟨_, h4⟩ <;> (try simp only [St.setDone, St.setBg, ↓reduceIte, Bool.false_eq_true, Bool.and_false, Bool.and_true, Bool.false_and, Bool.true_and]) <;> (repeat' split) <;> simp_all [tot_set_eq _ _ _ _ _ hi, tot_ackWs_srw', tot_ackWs_lgw, tot_ackWs_clall, tot_ackWs_clpre, b2n_true, b2n_false, clearW_idle, clearW_exited, clearW_parked, clearW_eq_exited, clearW_eq_parked, srW, lgW, clAllW, clPreW, St.bg, onOk, onErr, selNext, afterSetErr, srAllW, nextC] <;> (try omega)
+    rcases h4 with h4 | ⟨_, h4⟩ <;> (try simp only [St.setDone, St.setBg, ↓reduceIte, Bool.false_eq_true, Bool.and_false, Bool.and_true, Bool.false_and, Bool.true_and]) <;> (repeat' split) <;> simp_all [tot_set_eq _ _ _ _ _ hi, tot_ackWs_srw', tot_ackWs_lgw, tot_ackWs_clall, tot_ackWs_clpre, b2n_true, b2n_false, clearW_idle, clearW_exited, clearW_parked, clearW_eq_exited, clearW_eq_parked, srW, lgW, clAllW, clPreW, St.bg, onOk, onErr, selNext, afterSetErr, srAllW, nextC, roSets] <;> (try omega) <;> (try (cases hk : s.ehTok <;> cases hk2 : s.cwl <;> simp_all [b2n_true, b2n_false] <;> omega))
   | clCheckTr _ i hi =>
     clear h4
     have l0 := le_tot srW _ _ _ hi
     have l1 := le_tot lgW _ _ _ hi
     have l2 := le_tot clAllW _ _ _ hi
     have l3 := le_tot clPreW _ _ _ hi
-    (try simp only [St.setDone, St.setBg, ↓reduceIte, Bool.false_eq_true, Bool.and_false, Bool.and_true, Bool.false_and, Bool.true_and]) <;> (repeat' split) <;> simp_all [tot_set_eq _ _ _ _ _ hi, tot_ackWs_srw', tot_ackWs_lgw, tot_ackWs_clall, tot_ackWs_clpre, b2n_true, b2n_false, clearW_idle, clearW_exited, clearW_parked, clearW_eq_exited, clearW_eq_parked, srW, lgW, clAllW, clPreW, St.bg, onOk, onErr, selNext, afterSetErr, srAllW, nextC] <;> (try omega)
+    (try simp only [St.setDone, St.setBg, ↓reduceIte, Bool.false_eq_true, Bool.and_false, Bool.and_true, Bool.false_and, Bool.true_and]) <;> (repeat' split) <;> simp_all [tot_set_eq _ _ _ _ _ hi, tot_ackWs_srw', tot_ackWs_lgw, tot_ackWs_clall, tot_ackWs_clpre, b2n_true, b2n_false, clearW_idle, clearW_exited, clearW_parked, clearW_eq_exited, clearW_eq_parked, srW, lgW, clAllW, clPreW, St.bg, onOk, onErr, selNext, afterSetErr, srAllW, nextC, roSets] <;> (try omega) <;> (try (cases hk : s.ehTok <;> cases hk2 : s.cwl <;> simp_all [b2n_true, b2n_false] <;> omega))
   | clLockTr _ i hi hl =>
     clear h4
     have l0 := le_tot srW _ _ _ hi
     have l1 := le_tot lgW _ _ _ hi
     have l2 := le_tot clAllW _ _ _ hi
     have l3 := le_tot clPreW _ _ _ hi
-    (try simp only [St.setDone, St.setBg, ↓reduceIte, Bool.false_eq_true, Bool.and_false, Bool.and_true, Bool.false_and, Bool.true_and]) <;> (repeat' split) <;> simp_all [tot_set_eq _ _ _ _ _ hi, tot_ackWs_srw', tot_ackWs_lgw, tot_ackWs_clall, tot_ackWs_clpre, b2n_true, b2n_false, clearW_idle, clearW_exited, clearW_parked, clearW_eq_exited, clearW_eq_parked, srW, lgW, clAllW, clPreW, St.bg, onOk, onErr, selNext, afterSetErr, srAllW, nextC] <;> (try omega)
+    (try simp only [St.setDone, St.setBg, ↓reduceIte, Bool.false_eq_true, Bool.and_false, Bool.and_true, Bool.false_and, Bool.true_and]) <;> (repeat' split) <;> simp_all [tot_set_eq _ _ _ _ _ hi, tot_ackWs_srw', tot_ackWs_lgw, tot_ackWs_clall, tot_ackWs_clpre, b2n_true, b2n_false, clearW_idle, clearW_exited, clearW_parked, clearW_eq_exited, clearW_eq_parked, srW, lgW, clAllW, clPreW, St.bg, onOk, onErr, selNext, afterSetErr, srAllW, nextC, roSets] <;> (try omega) <;> (try (cases hk : s.ehTok <;> cases hk2 : s.cwl <;> simp_all [b2n_true, b2n_false] <;> omega))
   | clBody _ i hi =>
     clear h4
     have l0 := le_tot srW _ _ _ hi
     have l1 := le_tot lgW _ _ _ hi
     have l2 := le_tot clAllW _ _ _ hi
     have l3 := le_tot clPreW _ _ _ hi
-    (try simp only [St.setDone, St.setBg, ↓reduceIte, Bool.false_eq_true, Bool.and_false, Bool.and_true, Bool.false_and, Bool.true_and]) <;> (repeat' split) <;> simp_all [tot_set_eq _ _ _ _ _ hi, tot_ackWs_srw', tot_ackWs_lgw, tot_ackWs_clall, tot_ackWs_clpre, b2n_true, b2n_false, clearW_idle, clearW_exited, clearW_parked, clearW_eq_exited, clearW_eq_parked, srW, lgW, clAllW, clPreW, St.bg, onOk, onErr, selNext, afterSetErr, srAllW, nextC] <;> (try omega)
+    (try simp only [St.setDone, St.setBg, ↓reduceIte, Bool.false_eq_true, Bool.and_false, Bool.and_true, Bool.false_and, Bool.true_and]) <;> (repeat' split) <;> simp_all [tot_set_eq _ _ _ _ _ hi, tot_ackWs_srw', tot_ackWs_lgw, tot_ackWs_clall, tot_ackWs_clpre, b2n_true, b2n_false, clearW_idle, clearW_exited, clearW_parked, clearW_eq_exited, clearW_eq_parked, srW, lgW, clAllW, clPreW, St.bg, onOk, onErr, selNext, afterSetErr, srAllW, nextC, roSets] <;> (try omega) <;> (try (cases hk : s.ehTok <;> cases hk2 : s.cwl <;> simp_all [b2n_true, b2n_false] <;> omega))
   | clAcq _ i hi ht =>
     clear h4
     have l0 := le_tot srW _ _ _ hi
     have l1 := le_tot lgW _ _ _ hi
     have l2 := le_tot clAllW _ _ _ hi
     have l3 := le_tot clPreW _ _ _ hi
-    (try simp only [St.setDone, St.setBg, ↓reduceIte, Bool.false_eq_true, Bool.and_false, Bool.and_true, Bool.false_and, Bool.true_and]) <;> (repeat' split) <;> simp_all [tot_set_eq _ _ _ _ _ hi, tot_ackWs_srw', tot_ackWs_lgw, tot_ackWs_clall, tot_ackWs_clpre, b2n_true, b2n_false, clearW_idle, clearW_exited, clearW_parked, clearW_eq_exited, clearW_eq_parked, srW, lgW, clAllW, clPreW, St.bg, onOk, onErr, selNext, afterSetErr, srAllW, nextC] <;> (try omega)
+    (try simp only [St.setDone, St.setBg, ↓reduceIte, Bool.false_eq_true, Bool.and_false, Bool.and_true, Bool.false_and, Bool.true_and]) <;> (repeat' split) <;> simp_all [tot_set_eq _ _ _ _ _ hi, tot_ackWs_srw', tot_ackWs_lgw, tot_ackWs_clall, tot_ackWs_clpre, b2n_true, b2n_false, clearW_idle, clearW_exited, clearW_parked, clearW_eq_exited, clearW_eq_parked, srW, lgW, clAllW, clPreW, St.bg, onOk, onErr, selNext, afterSetErr, srAllW, nextC, roSets] <;> (try omega) <;> (try (cases hk : s.ehTok <;> cases hk2 : s.cwl <;> simp_all [b2n_true, b2n_false] <;> omega))
   | clWait _ i hi hm ht =>
     clear h4
     have l0 := le_tot srW _ _ _ hi
     have l1 := le_tot lgW _ _ _ hi
     have l2 := le_tot clAllW _ _ _ hi
     have l3 := le_tot clPreW _ _ _ hi
-    (try simp only [St.setDone, St.setBg, ↓reduceIte, Bool.false_eq_true, Bool.and_false, Bool.and_true, Bool.false_and, Bool.true_and]) <;> (repeat' split) <;> simp_all [tot_set_eq _ _ _ _ _ hi, tot_ackWs_srw', tot_ackWs_lgw, tot_ackWs_clall, tot_ackWs_clpre, b2n_true, b2n_false, clearW_idle, clearW_exited, clearW_parked, clearW_eq_exited, clearW_eq_parked, srW, lgW, clAllW, clPreW, St.bg, onOk, onErr, selNext, afterSetErr, srAllW, nextC] <;> (try omega)
+    (try simp only [St.setDone, St.setBg, ↓reduceIte, Bool.false_eq_true, Bool.and_false, Bool.and_true, Bool.false_and, Bool.true_and]) <;> (repeat' split) <;> simp_all [tot_set_eq _ _ _ _ _ hi, tot_ackWs_srw', tot_ackWs_lgw, tot_ackWs_clall, tot_ackWs_clpre, b2n_true, b2n_false, clearW_idle, clearW_exited, clearW_parked, clearW_eq_exited, clearW_eq_parked, srW, lgW, clAllW, clPreW, St.bg, onOk, onErr, selNext, afterSetErr, srAllW, nextC, roSets] <;> (try omega) <;> (try (cases hk : s.ehTok <;> cases hk2 : s.cwl <;> simp_all [b2n_true, b2n_false] <;> omega))
   | ehAcquire _ he ht =>
     clear h4
-    (try simp only [St.setDone, St.setBg, ↓reduceIte, Bool.false_eq_true, Bool.and_false, Bool.and_true, Bool.false_and, Bool.true_and]) <;> (repeat' split) <;> simp_all [tot_ackWs_srw', tot_ackWs_lgw, tot_ackWs_clall, tot_ackWs_clpre, b2n_true, b2n_false, clearW_idle, clearW_exited, clearW_parked, clearW_eq_exited, clearW_eq_parked, srW, lgW, clAllW, clPreW, St.bg, onOk, onErr, selNext, afterSetErr, srAllW, nextC] <;> (try omega)
+    (try simp only [St.setDone, St.setBg, ↓reduceIte, Bool.false_eq_true, Bool.and_false, Bool.and_true, Bool.false_and, Bool.true_and]) <;> (repeat' split) <;> simp_all [tot_ackWs_srw', tot_ackWs_lgw, tot_ackWs_clall, tot_ackWs_clpre, b2n_true, b2n_false, clearW_idle, clearW_exited, clearW_parked, clearW_eq_exited, clearW_eq_parked, srW, lgW, clAllW, clPreW, St.bg, onOk, onErr, selNext, afterSetErr, srAllW, nextC, roSets] <;> (try omega) <;> (try (cases hk : s.ehTok <;> cases hk2 : s.cwl <;> simp_all [b2n_true, b2n_false] <;> omega))
   | ehClose _ he hc =>
     clear h4
     simp only [hm, closes_asCoded] at he
-    rcases he with he | he | he <;> (try simp only [St.setDone, St.setBg, ↓reduceIte, Bool.false_eq_true, Bool.and_false, Bool.and_true, Bool.false_and, Bool.true_and]) <;> (repeat' split) <;> simp_all [tot_ackWs_srw', tot_ackWs_lgw, tot_ackWs_clall, tot_ackWs_clpre, b2n_true, b2n_false, clearW_idle, clearW_exited, clearW_parked, clearW_eq_exited, clearW_eq_parked, srW, lgW, clAllW, clPreW, St.bg, onOk, onErr, selNext, afterSetErr, srAllW, nextC] <;> (try omega) <;> (try (split <;> simp_all <;> omega))
+    rcases he with he | he | he <;> (try simp only [St.setDone, St.setBg, ↓reduceIte, Bool.false_eq_true, Bool.and_false, Bool.and_true, Bool.false_and, Bool.true_and]) <;> (repeat' split) <;> simp_all [tot_ackWs_srw', tot_ackWs_lgw, tot_ackWs_clall, tot_ackWs_clpre, b2n_true, b2n_false, clearW_idle, clearW_exited, clearW_parked, clearW_eq_exited, clearW_eq_parked, srW, lgW, clAllW, clPreW, St.bg, onOk, onErr, selNext, afterSetErr, srAllW, nextC, roSets] <;> (try omega) <;> (try (split <;> cases hk : s.ehTok <;> simp_all [b2n_true, b2n_false] <;> omega))
   | ehTake _ he ht =>
     clear h4
-    (try simp only [St.setDone, St.setBg, ↓reduceIte, Bool.false_eq_true, Bool.and_false, Bool.and_true, Bool.false_and, Bool.true_and]) <;> (repeat' split) <;> simp_all [tot_ackWs_srw', tot_ackWs_lgw, tot_ackWs_clall, tot_ackWs_clpre, b2n_true, b2n_false, clearW_idle, clearW_exited, clearW_parked, clearW_eq_exited, clearW_eq_parked, srW, lgW, clAllW, clPreW, St.bg, onOk, onErr, selNext, afterSetErr, srAllW, nextC] <;> (try omega)
+    (try simp only [St.setDone, St.setBg, ↓reduceIte, Bool.false_eq_true, Bool.and_false, Bool.and_true, Bool.false_and, Bool.true_and]) <;> (repeat' split) <;> simp_all [tot_ackWs_srw', tot_ackWs_lgw, tot_ackWs_clall, tot_ackWs_clpre, b2n_true, b2n_false, clearW_idle, clearW_exited, clearW_parked, clearW_eq_exited, clearW_eq_parked, srW, lgW, clAllW, clPreW, St.bg, onOk, onErr, selNext, afterSetErr, srAllW, nextC, roSets] <;> (try omega) <;> (try (cases hk : s.ehTok <;> cases hk2 : s.cwl <;> simp_all [b2n_true, b2n_false] <;> omega))
   | bgExitIdle _ b hb hc =>
     clear h4
-    cases b <;> (try simp only [St.setDone, St.setBg, ↓reduceIte, Bool.false_eq_true, Bool.and_false, Bool.and_true, Bool.false_and, Bool.true_and]) <;> (repeat' split) <;> simp_all [tot_ackWs_srw', tot_ackWs_lgw, tot_ackWs_clall, tot_ackWs_clpre, b2n_true, b2n_false, clearW_idle, clearW_exited, clearW_parked, clearW_eq_exited, clearW_eq_parked, srW, lgW, clAllW, clPreW, St.bg, onOk, onErr, selNext, afterSetErr, srAllW, nextC] <;> (try omega)
+    cases b <;> (try simp only [St.setDone, St.setBg, ↓reduceIte, Bool.false_eq_true, Bool.and_false, Bool.and_true, Bool.false_and, Bool.true_and]) <;> (repeat' split) <;> simp_all [tot_ackWs_srw', tot_ackWs_lgw, tot_ackWs_clall, tot_ackWs_clpre, b2n_true, b2n_false, clearW_idle, clearW_exited, clearW_parked, clearW_eq_exited, clearW_eq_parked, srW, lgW, clAllW, clPreW, St.bg, onOk, onErr, selNext, afterSetErr, srAllW, nextC, roSets] <;> (try omega) <;> (try (cases hk : s.ehTok <;> cases hk2 : s.cwl <;> simp_all [b2n_true, b2n_false] <;> omega))
   | bgExitParked _ hb hc =>
     clear h4
-    (try simp only [St.setDone, St.setBg, ↓reduceIte, Bool.false_eq_true, Bool.and_false, Bool.and_true, Bool.false_and, Bool.true_and]) <;> (repeat' split) <;> simp_all [tot_ackWs_srw', tot_ackWs_lgw, tot_ackWs_clall, tot_ackWs_clpre, b2n_true, b2n_false, clearW_idle, clearW_exited, clearW_parked, clearW_eq_exited, clearW_eq_parked, srW, lgW, clAllW, clPreW, St.bg, onOk, onErr, selNext, afterSetErr, srAllW, nextC] <;> (try omega)
+    (try simp only [St.setDone, St.setBg, ↓reduceIte, Bool.false_eq_true, Bool.and_false, Bool.and_true, Bool.false_and, Bool.true_and]) <;> (repeat' split) <;> simp_all [tot_ackWs_srw', tot_ackWs_lgw, tot_ackWs_clall, tot_ackWs_clpre, b2n_true, b2n_false, clearW_idle, clearW_exited, clearW_parked, clearW_eq_exited, clearW_eq_parked, srW, lgW, clAllW, clPreW, St.bg, onOk, onErr, selNext, afterSetErr, srAllW, nextC, roSets] <;> (try omega) <;> (try (cases hk : s.ehTok <;> cases hk2 : s.cwl <;> simp_all [b2n_true, b2n_false] <;> omega))
   | bgWorkCorrupt _ b w hb hk =>
     clear h4
-    cases b <;> (try simp only [St.setDone, St.setBg, ↓reduceIte, Bool.false_eq_true, Bool.and_false, Bool.and_true, Bool.false_and, Bool.true_and]) <;> (repeat' split) <;> simp_all [tot_ackWs_srw', tot_ackWs_lgw, tot_ackWs_clall, tot_ackWs_clpre, b2n_true, b2n_false, clearW_idle, clearW_exited, clearW_parked, clearW_eq_exited, clearW_eq_parked, srW, lgW, clAllW, clPreW, St.bg, onOk, onErr, selNext, afterSetErr, srAllW, nextC] <;> (try omega)
+    cases b <;> (try simp only [St.setDone, St.setBg, ↓reduceIte, Bool.false_eq_true, Bool.and_false, Bool.and_true, Bool.false_and, Bool.true_and]) <;> (repeat' split) <;> simp_all [tot_ackWs_srw', tot_ackWs_lgw, tot_ackWs_clall, tot_ackWs_clpre, b2n_true, b2n_false, clearW_idle, clearW_exited, clearW_parked, clearW_eq_exited, clearW_eq_parked, srW, lgW, clAllW, clPreW, St.bg, onOk, onErr, selNext, afterSetErr, srAllW, nextC, roSets] <;> (try omega) <;> (try (cases hk : s.ehTok <;> cases hk2 : s.cwl <;> simp_all [b2n_true, b2n_false] <;> omega))
   | bgCommitCorrupt _ b w hb hk =>
     clear h4
-    cases b <;> (try simp only [St.setDone, St.setBg, ↓reduceIte, Bool.false_eq_true, Bool.and_false, Bool.and_true, Bool.false_and, Bool.true_and]) <;> (repeat' split) <;> simp_all [tot_ackWs_srw', tot_ackWs_lgw, tot_ackWs_clall, tot_ackWs_clpre, b2n_true, b2n_false, clearW_idle, clearW_exited, clearW_parked, clearW_eq_exited, clearW_eq_parked, srW, lgW, clAllW, clPreW, St.bg, onOk, onErr, selNext, afterSetErr, srAllW, nextC] <;> (try omega)
+    cases b <;> (try simp only [St.setDone, St.setBg, ↓reduceIte, Bool.false_eq_true, Bool.and_false, Bool.and_true, Bool.false_and, Bool.true_and]) <;> (repeat' split) <;> simp_all [tot_ackWs_srw', tot_ackWs_lgw, tot_ackWs_clall, tot_ackWs_clpre, b2n_true, b2n_false, clearW_idle, clearW_exited, clearW_parked, clearW_eq_exited, clearW_eq_parked, srW, lgW, clAllW, clPreW, St.bg, onOk, onErr, selNext, afterSetErr, srAllW, nextC, roSets] <;> (try omega) <;> (try (cases hk : s.ehTok <;> cases hk2 : s.cwl <;> simp_all [b2n_true, b2n_false] <;> omega))
   | bgSetErrCorrupt _ b w c hb he =>
     clear h4
     simp only [hm, recvs_asCoded] at he
-    rcases he with he | he <;> cases b <;> cases c <;> (try simp only [St.setDone, St.setBg, ↓reduceIte, Bool.false_eq_true, Bool.and_false, Bool.and_true, Bool.false_and, Bool.true_and]) <;> (repeat' split) <;> simp_all [tot_ackWs_srw', tot_ackWs_lgw, tot_ackWs_clall, tot_ackWs_clpre, b2n_true, b2n_false, clearW_idle, clearW_exited, clearW_parked, clearW_eq_exited, clearW_eq_parked, srW, lgW, clAllW, clPreW, St.bg, onOk, onErr, selNext, afterSetErr, srAllW, nextC] <;> (try omega)
+    rcases he with he | he <;> cases b <;> cases c <;> (try simp only [St.setDone, St.setBg, ↓reduceIte, Bool.false_eq_true, Bool.and_false, Bool.and_true, Bool.false_and, Bool.true_and]) <;> (repeat' split) <;> simp_all [tot_ackWs_srw', tot_ackWs_lgw, tot_ackWs_clall, tot_ackWs_clpre, b2n_true, b2n_false, clearW_idle, clearW_exited, clearW_parked, clearW_eq_exited, clearW_eq_parked, srW, lgW, clAllW, clPreW, St.bg, onOk, onErr, selNext, afterSetErr, srAllW, nextC, roSets] <;> (try omega) <;> (try (cases hk : s.ehTok <;> cases hk2 : s.cwl <;> simp_all [b2n_true, b2n_false] <;> omega))
   | bgWorkOk _ b w hb =>
     clear h4
-    cases b <;> (try simp only [St.setDone, St.setBg, ↓reduceIte, Bool.false_eq_true, Bool.and_false, Bool.and_true, Bool.false_and, Bool.true_and]) <;> (repeat' split) <;> simp_all [tot_ackWs_srw', tot_ackWs_lgw, tot_ackWs_clall, tot_ackWs_clpre, b2n_true, b2n_false, clearW_idle, clearW_exited, clearW_parked, clearW_eq_exited, clearW_eq_parked, srW, lgW, clAllW, clPreW, St.bg, onOk, onErr, selNext, afterSetErr, srAllW, nextC] <;> (try omega)
+    cases b <;> (try simp only [St.setDone, St.setBg, ↓reduceIte, Bool.false_eq_true, Bool.and_false, Bool.and_true, Bool.false_and, Bool.true_and]) <;> (repeat' split) <;> simp_all [tot_ackWs_srw', tot_ackWs_lgw, tot_ackWs_clall, tot_ackWs_clpre, b2n_true, b2n_false, clearW_idle, clearW_exited, clearW_parked, clearW_eq_exited, clearW_eq_parked, srW, lgW, clAllW, clPreW, St.bg, onOk, onErr, selNext, afterSetErr, srAllW, nextC, roSets] <;> (try omega) <;> (try (cases hk : s.ehTok <;> cases hk2 : s.cwl <;> simp_all [b2n_true, b2n_false] <;> omega))
   | bgWorkFail _ b w hb =>
     clear h4
-    cases b <;> (try simp only [St.setDone, St.setBg, ↓reduceIte, Bool.false_eq_true, Bool.and_false, Bool.and_true, Bool.false_and, Bool.true_and]) <;> (repeat' split) <;> simp_all [tot_ackWs_srw', tot_ackWs_lgw, tot_ackWs_clall, tot_ackWs_clpre, b2n_true, b2n_false, clearW_idle, clearW_exited, clearW_parked, clearW_eq_exited, clearW_eq_parked, srW, lgW, clAllW, clPreW, St.bg, onOk, onErr, selNext, afterSetErr, srAllW, nextC] <;> (try omega)
+    cases b <;> (try simp only [St.setDone, St.setBg, ↓reduceIte, Bool.false_eq_true, Bool.and_false, Bool.and_true, Bool.false_and, Bool.true_and]) <;> (repeat' split) <;> simp_all [tot_ackWs_srw', tot_ackWs_lgw, tot_ackWs_clall, tot_ackWs_clpre, b2n_true, b2n_false, clearW_idle, clearW_exited, clearW_parked, clearW_eq_exited, clearW_eq_parked, srW, lgW, clAllW, clPreW, St.bg, onOk, onErr, selNext, afterSetErr, srAllW, nextC, roSets] <;> (try omega) <;> (try (cases hk : s.ehTok <;> cases hk2 : s.cwl <;> simp_all [b2n_true, b2n_false] <;> omega))
   | bgCommitOk _ b w hb =>
     clear h4
-    cases b <;> (try simp only [St.setDone, St.setBg, ↓reduceIte, Bool.false_eq_true, Bool.and_false, Bool.and_true, Bool.false_and, Bool.true_and]) <;> (repeat' split) <;> simp_all [tot_ackWs_srw', tot_ackWs_lgw, tot_ackWs_clall, tot_ackWs_clpre, b2n_true, b2n_false, clearW_idle, clearW_exited, clearW_parked, clearW_eq_exited, clearW_eq_parked, srW, lgW, clAllW, clPreW, St.bg, onOk, onErr, selNext, afterSetErr, srAllW, nextC] <;> (try omega)
+    cases b <;> (try simp only [St.setDone, St.setBg, ↓reduceIte, Bool.false_eq_true, Bool.and_false, Bool.and_true, Bool.false_and, Bool.true_and]) <;> (repeat' split) <;> simp_all [tot_ackWs_srw', tot_ackWs_lgw, tot_ackWs_clall, tot_ackWs_clpre, b2n_true, b2n_false, clearW_idle, clearW_exited, clearW_parked, clearW_eq_exited, clearW_eq_parked, srW, lgW, clAllW, clPreW, St.bg, onOk, onErr, selNext, afterSetErr, srAllW, nextC, roSets] <;> (try omega) <;> (try (cases hk : s.ehTok <;> cases hk2 : s.cwl <;> simp_all [b2n_true, b2n_false] <;> omega))
   | bgCommitFail _ b w hb =>
     clear h4
-    cases b <;> (try simp only [St.setDone, St.setBg, ↓reduceIte, Bool.false_eq_true, Bool.and_false, Bool.and_true, Bool.false_and, Bool.true_and]) <;> (repeat' split) <;> simp_all [tot_ackWs_srw', tot_ackWs_lgw, tot_ackWs_clall, tot_ackWs_clpre, b2n_true, b2n_false, clearW_idle, clearW_exited, clearW_parked, clearW_eq_exited, clearW_eq_parked, srW, lgW, clAllW, clPreW, St.bg, onOk, onErr, selNext, afterSetErr, srAllW, nextC] <;> (try omega)
+    cases b <;> (try simp only [St.setDone, St.setBg, ↓reduceIte, Bool.false_eq_true, Bool.and_false, Bool.and_true, Bool.false_and, Bool.true_and]) <;> (repeat' split) <;> simp_all [tot_ackWs_srw', tot_ackWs_lgw, tot_ackWs_clall, tot_ackWs_clpre, b2n_true, b2n_false, clearW_idle, clearW_exited, clearW_parked, clearW_eq_exited, clearW_eq_parked, srW, lgW, clAllW, clPreW, St.bg, onOk, onErr, selNext, afterSetErr, srAllW, nextC, roSets] <;> (try omega) <;> (try (cases hk : s.ehTok <;> cases hk2 : s.cwl <;> simp_all [b2n_true, b2n_false] <;> omega))
   | bgSetErr _ b w ok c hb he =>
     clear h4
     simp only [hm, recvs_asCoded] at he
-    rcases he with he | he <;> cases b <;> cases ok <;> cases c <;> (try simp only [St.setDone, St.setBg, ↓reduceIte, Bool.false_eq_true, Bool.and_false, Bool.and_true, Bool.false_and, Bool.true_and]) <;> (repeat' split) <;> simp_all [tot_ackWs_srw', tot_ackWs_lgw, tot_ackWs_clall, tot_ackWs_clpre, b2n_true, b2n_false, clearW_idle, clearW_exited, clearW_parked, clearW_eq_exited, clearW_eq_parked, srW, lgW, clAllW, clPreW, St.bg, onOk, onErr, selNext, afterSetErr, srAllW, nextC] <;> (try omega)
+    rcases he with he | he <;> cases b <;> cases ok <;> cases c <;> (try simp only [St.setDone, St.setBg, ↓reduceIte, Bool.false_eq_true, Bool.and_false, Bool.and_true, Bool.false_and, Bool.true_and]) <;> (repeat' split) <;> simp_all [tot_ackWs_srw', tot_ackWs_lgw, tot_ackWs_clall, tot_ackWs_clpre, b2n_true, b2n_false, clearW_idle, clearW_exited, clearW_parked, clearW_eq_exited, clearW_eq_parked, srW, lgW, clAllW, clPreW, St.bg, onOk, onErr, selNext, afterSetErr, srAllW, nextC, roSets] <;> (try omega) <;> (try (cases hk : s.ehTok <;> cases hk2 : s.cwl <;> simp_all [b2n_true, b2n_false] <;> omega))
   | bgSetErrPer _ b w c hb he =>
     clear h4
-    cases b <;> cases c <;> (try simp only [St.setDone, St.setBg, ↓reduceIte, Bool.false_eq_true, Bool.and_false, Bool.and_true, Bool.false_and, Bool.true_and]) <;> (repeat' split) <;> simp_all [tot_ackWs_srw', tot_ackWs_lgw, tot_ackWs_clall, tot_ackWs_clpre, b2n_true, b2n_false, clearW_idle, clearW_exited, clearW_parked, clearW_eq_exited, clearW_eq_parked, srW, lgW, clAllW, clPreW, St.bg, onOk, onErr, selNext, afterSetErr, srAllW, nextC] <;> (try omega)
+    cases b <;> cases c <;> (try simp only [St.setDone, St.setBg, ↓reduceIte, Bool.false_eq_true, Bool.and_false, Bool.and_true, Bool.false_and, Bool.true_and]) <;> (repeat' split) <;> simp_all [tot_ackWs_srw', tot_ackWs_lgw, tot_ackWs_clall, tot_ackWs_clpre, b2n_true, b2n_false, clearW_idle, clearW_exited, clearW_parked, clearW_eq_exited, clearW_eq_parked, srW, lgW, clAllW, clPreW, St.bg, onOk, onErr, selNext, afterSetErr, srAllW, nextC, roSets] <;> (try omega) <;> (try (cases hk : s.ehTok <;> cases hk2 : s.cwl <;> simp_all [b2n_true, b2n_false] <;> omega))
   | bgBackoff _ b w c hb =>
     clear h4
-    cases b <;> cases c <;> (try simp only [St.setDone, St.setBg, ↓reduceIte, Bool.false_eq_true, Bool.and_false, Bool.and_true, Bool.false_and, Bool.true_and]) <;> (repeat' split) <;> simp_all [tot_ackWs_srw', tot_ackWs_lgw, tot_ackWs_clall, tot_ackWs_clpre, b2n_true, b2n_false, clearW_idle, clearW_exited, clearW_parked, clearW_eq_exited, clearW_eq_parked, srW, lgW, clAllW, clPreW, St.bg, onOk, onErr, selNext, afterSetErr, srAllW, nextC] <;> (try omega)
+    cases b <;> cases c <;> (try simp only [St.setDone, St.setBg, ↓reduceIte, Bool.false_eq_true, Bool.and_false, Bool.and_true, Bool.false_and, Bool.true_and]) <;> (repeat' split) <;> simp_all [tot_ackWs_srw', tot_ackWs_lgw, tot_ackWs_clall, tot_ackWs_clpre, b2n_true, b2n_false, clearW_idle, clearW_exited, clearW_parked, clearW_eq_exited, clearW_eq_parked, srW, lgW, clAllW, clPreW, St.bg, onOk, onErr, selNext, afterSetErr, srAllW, nextC, roSets] <;> (try omega) <;> (try (cases hk : s.ehTok <;> cases hk2 : s.cwl <;> simp_all [b2n_true, b2n_false] <;> omega))
   | bgLockClk _ b w hb hl =>
     clear h4
-    cases b <;> (try simp only [St.setDone, St.setBg, ↓reduceIte, Bool.false_eq_true, Bool.and_false, Bool.and_true, Bool.false_and, Bool.true_and]) <;> (repeat' split) <;> simp_all [tot_ackWs_srw', tot_ackWs_lgw, tot_ackWs_clall, tot_ackWs_clpre, b2n_true, b2n_false, clearW_idle, clearW_exited, clearW_parked, clearW_eq_exited, clearW_eq_parked, srW, lgW, clAllW, clPreW, St.bg, onOk, onErr, selNext, afterSetErr, srAllW, nextC] <;> (try omega)
+    cases b <;> (try simp only [St.setDone, St.setBg, ↓reduceIte, Bool.false_eq_true, Bool.and_false, Bool.and_true, Bool.false_and, Bool.true_and]) <;> (repeat' split) <;> simp_all [tot_ackWs_srw', tot_ackWs_lgw, tot_ackWs_clall, tot_ackWs_clpre, b2n_true, b2n_false, clearW_idle, clearW_exited, clearW_parked, clearW_eq_exited, clearW_eq_parked, srW, lgW, clAllW, clPreW, St.bg, onOk, onErr, selNext, afterSetErr, srAllW, nextC, roSets] <;> (try omega) <;> (try (cases hk : s.ehTok <;> cases hk2 : s.cwl <;> simp_all [b2n_true, b2n_false] <;> omega))
   | bgAck _ b w hb =>
     clear h4
     have hp := afterCmd_parked cfg s b
-    rcases afterCmd_cases cfg s b with hac | hac <;> rw [hac] at hp ⊢ <;> cases b <;> (try simp only [St.setDone, St.setBg]) <;> simp_all [tot_ackWs_srw', tot_ackWs_lgw, tot_ackWs_clall, tot_ackWs_clpre, b2n_true, b2n_false, clearW_idle, clearW_exited, clearW_parked, clearW_eq_exited, clearW_eq_parked, srW, lgW, clAllW, clPreW, St.bg, onOk, onErr, selNext, afterSetErr, srAllW, nextC] <;> (try omega)
+    rcases afterCmd_cases cfg s b with hac | hac <;> rw [hac] at hp ⊢ <;> cases b <;> (try simp only [St.setDone, St.setBg]) <;> simp_all [tot_ackWs_srw', tot_ackWs_lgw, tot_ackWs_clall, tot_ackWs_clpre, b2n_true, b2n_false, clearW_idle, clearW_exited, clearW_parked, clearW_eq_exited, clearW_eq_parked, srW, lgW, clAllW, clPreW, St.bg, onOk, onErr, selNext, afterSetErr, srAllW, nextC, roSets] <;> (try omega) <;> (try (cases hk : s.ehTok <;> cases hk2 : s.cwl <;> simp_all [b2n_true, b2n_false] <;> omega))
   | bgExit _ b w ph hb hx =>
     clear h4
-    cases b <;> cases ph <;> (try simp only [St.setDone, St.setBg, ↓reduceIte, Bool.false_eq_true, Bool.and_false, Bool.and_true, Bool.false_and, Bool.true_and]) <;> (repeat' split) <;> simp_all [tot_ackWs_srw', tot_ackWs_lgw, tot_ackWs_clall, tot_ackWs_clpre, b2n_true, b2n_false, clearW_idle, clearW_exited, clearW_parked, clearW_eq_exited, clearW_eq_parked, srW, lgW, clAllW, clPreW, St.bg, onOk, onErr, selNext, afterSetErr, srAllW, nextC] <;> (try omega) <;> (try (rcases hx with hx | hx <;> simp_all))
+    cases b <;> cases ph <;> (try simp only [St.setDone, St.setBg, ↓reduceIte, Bool.false_eq_true, Bool.and_false, Bool.and_true, Bool.false_and, Bool.true_and]) <;> (repeat' split) <;> simp_all [tot_ackWs_srw', tot_ackWs_lgw, tot_ackWs_clall, tot_ackWs_clpre, b2n_true, b2n_false, clearW_idle, clearW_exited, clearW_parked, clearW_eq_exited, clearW_eq_parked, srW, lgW, clAllW, clPreW, St.bg, onOk, onErr, selNext, afterSetErr, srAllW, nextC, roSets] <;> (try omega) <;> (try (rcases hx with hx | hx <;> simp_all))
+
+theorem step_pinvB_b (s t : St) (f : Bool) (cfg : Cfg) (hfx : Fixed3 cfg) (hm : cfg.m = .asCoded)
+    (h4 : cfg.setReadOnlyReleasesOnClose = true ∨ NoSR s) (hsh : cfg.Blind) (hw : CwlOk cfg s) (h : Step cfg f s t)
+    (inv : PInvB s) : PInvB t := by
+  unfold PInvB CwlOk at *
+  have c3 := b2n_le s.ehTok
+  obtain ⟨hb1, hb2⟩ := inv
+  obtain ⟨f1, f2, f3⟩ := hfx
+  obtain ⟨s1, s2, s3, s4⟩ := hsh
+  cases h with
+  | startPut _ i hi =>
+    clear h4
+    have l0 := le_tot srW _ _ _ hi
+    have l1 := le_tot lgW _ _ _ hi
+    have l2 := le_tot clAllW _ _ _ hi
+    have l3 := le_tot clPreW _ _ _ hi
+    (try simp only [St.setDone, St.setBg, ↓reduceIte, Bool.false_eq_true, Bool.and_false, Bool.and_true, Bool.false_and, Bool.true_and]) <;> (repeat' split) <;> simp_all [tot_set_eq _ _ _ _ _ hi, tot_ackWs_srw', tot_ackWs_lgw, tot_ackWs_clall, tot_ackWs_clpre, b2n_true, b2n_false, clearW_idle, clearW_exited, clearW_parked, clearW_eq_exited, clearW_eq_parked, srW, lgW, clAllW, clPreW, St.bg, onOk, onErr, selNext, afterSetErr, srAllW, nextC, roSets] <;> (try omega) <;> (try (cases hk : s.ehTok <;> cases hk2 : s.cwl <;> simp_all [b2n_true, b2n_false] <;> omega))
+  | startWrite _ i hi =>
+    clear h4
+    have l0 := le_tot srW _ _ _ hi
+    have l1 := le_tot lgW _ _ _ hi
+    have l2 := le_tot clAllW _ _ _ hi
+    have l3 := le_tot clPreW _ _ _ hi
+    (try simp only [St.setDone, St.setBg, ↓reduceIte, Bool.false_eq_true, Bool.and_false, Bool.and_true, Bool.false_and, Bool.true_and]) <;> (repeat' split) <;> simp_all [tot_set_eq _ _ _ _ _ hi, tot_ackWs_srw', tot_ackWs_lgw, tot_ackWs_clall, tot_ackWs_clpre, b2n_true, b2n_false, clearW_idle, clearW_exited, clearW_parked, clearW_eq_exited, clearW_eq_parked, srW, lgW, clAllW, clPreW, St.bg, onOk, onErr, selNext, afterSetErr, srAllW, nextC, roSets] <;> (try omega) <;> (try (cases hk : s.ehTok <;> cases hk2 : s.cwl <;> simp_all [b2n_true, b2n_false] <;> omega))
+  | startOtx _ i hi =>
+    clear h4
+    have l0 := le_tot srW _ _ _ hi
+    have l1 := le_tot lgW _ _ _ hi
+    have l2 := le_tot clAllW _ _ _ hi
+    have l3 := le_tot clPreW _ _ _ hi
+    (try simp only [St.setDone, St.setBg, ↓reduceIte, Bool.false_eq_true, Bool.and_false, Bool.and_true, Bool.false_and, Bool.true_and]) <;> (repeat' split) <;> simp_all [tot_set_eq _ _ _ _ _ hi, tot_ackWs_srw', tot_ackWs_lgw, tot_ackWs_clall, tot_ackWs_clpre, b2n_true, b2n_false, clearW_idle, clearW_exited, clearW_parked, clearW_eq_exited, clearW_eq_parked, srW, lgW, clAllW, clPreW, St.bg, onOk, onErr, selNext, afterSetErr, srAllW, nextC, roSets] <;> (try omega) <;> (try (cases hk : s.ehTok <;> cases hk2 : s.cwl <;> simp_all [b2n_true, b2n_false] <;> omega))
+  | startCommit _ i hi hu =>
+    clear h4
+    have l0 := le_tot srW _ _ _ hi
+    have l1 := le_tot lgW _ _ _ hi
+    have l2 := le_tot clAllW _ _ _ hi
+    have l3 := le_tot clPreW _ _ _ hi
+    (try simp only [St.setDone, St.setBg, ↓reduceIte, Bool.false_eq_true, Bool.and_false, Bool.and_true, Bool.false_and, Bool.true_and]) <;> (repeat' split) <;> simp_all [tot_set_eq _ _ _ _ _ hi, tot_ackWs_srw', tot_ackWs_lgw, tot_ackWs_clall, tot_ackWs_clpre, b2n_true, b2n_false, clearW_idle, clearW_exited, clearW_parked, clearW_eq_exited, clearW_eq_parked, srW, lgW, clAllW, clPreW, St.bg, onOk, onErr, selNext, afterSetErr, srAllW, nextC, roSets] <;> (try omega) <;> (try (cases hk : s.ehTok <;> cases hk2 : s.cwl <;> simp_all [b2n_true, b2n_false] <;> omega))
+  | startDiscard _ i hi hu =>
+    clear h4
+    have l0 := le_tot srW _ _ _ hi
+    have l1 := le_tot lgW _ _ _ hi
+    have l2 := le_tot clAllW _ _ _ hi
+    have l3 := le_tot clPreW _ _ _ hi
+    (try simp only [St.setDone, St.setBg, ↓reduceIte, Bool.false_eq_true, Bool.and_false, Bool.and_true, Bool.false_and, Bool.true_and]) <;> (repeat' split) <;> simp_all [tot_set_eq _ _ _ _ _ hi, tot_ackWs_srw', tot_ackWs_lgw, tot_ackWs_clall, tot_ackWs_clpre, b2n_true, b2n_false, clearW_idle, clearW_exited, clearW_parked, clearW_eq_exited, clearW_eq_parked, srW, lgW, clAllW, clPreW, St.bg, onOk, onErr, selNext, afterSetErr, srAllW, nextC, roSets] <;> (try omega) <;> (try (cases hk : s.ehTok <;> cases hk2 : s.cwl <;> simp_all [b2n_true, b2n_false] <;> omega))
+  | startCR _ i hi =>
+    clear h4
+    have l0 := le_tot srW _ _ _ hi
+    have l1 := le_tot lgW _ _ _ hi
+    have l2 := le_tot clAllW _ _ _ hi
+    have l3 := le_tot clPreW _ _ _ hi
+    (try simp only [St.setDone, St.setBg, ↓reduceIte, Bool.false_eq_true, Bool.and_false, Bool.and_true, Bool.false_and, Bool.true_and]) <;> (repeat' split) <;> simp_all [tot_set_eq _ _ _ _ _ hi, tot_ackWs_srw', tot_ackWs_lgw, tot_ackWs_clall, tot_ackWs_clpre, b2n_true, b2n_false, clearW_idle, clearW_exited, clearW_parked, clearW_eq_exited, clearW_eq_parked, srW, lgW, clAllW, clPreW, St.bg, onOk, onErr, selNext, afterSetErr, srAllW, nextC, roSets] <;> (try omega) <;> (try (cases hk : s.ehTok <;> cases hk2 : s.cwl <;> simp_all [b2n_true, b2n_false] <;> omega))
+  | startSR _ i hi ha =>
+    clear h4
+    have l0 := le_tot srW _ _ _ hi
+    have l1 := le_tot lgW _ _ _ hi
+    have l2 := le_tot clAllW _ _ _ hi
+    have l3 := le_tot clPreW _ _ _ hi
+    (try simp only [St.setDone, St.setBg, ↓reduceIte, Bool.false_eq_true, Bool.and_false, Bool.and_true, Bool.false_and, Bool.true_and]) <;> (repeat' split) <;> simp_all [tot_set_eq _ _ _ _ _ hi, tot_ackWs_srw', tot_ackWs_lgw, tot_ackWs_clall, tot_ackWs_clpre, b2n_true, b2n_false, clearW_idle, clearW_exited, clearW_parked, clearW_eq_exited, clearW_eq_parked, srW, lgW, clAllW, clPreW, St.bg, onOk, onErr, selNext, afterSetErr, srAllW, nextC, roSets] <;> (try omega) <;> (try (cases hk : s.ehTok <;> cases hk2 : s.cwl <;> simp_all [b2n_true, b2n_false] <;> omega))
+  | startClose _ i hi =>
+    clear h4
+    have l0 := le_tot srW _ _ _ hi
+    have l1 := le_tot lgW _ _ _ hi
+    have l2 := le_tot clAllW _ _ _ hi
+    have l3 := le_tot clPreW _ _ _ hi
+    (try simp only [St.setDone, St.setBg, ↓reduceIte, Bool.false_eq_true, Bool.and_false, Bool.and_true, Bool.false_and, Bool.true_and]) <;> (repeat' split) <;> simp_all [tot_set_eq _ _ _ _ _ hi, tot_ackWs_srw', tot_ackWs_lgw, tot_ackWs_clall, tot_ackWs_clpre, b2n_true, b2n_false, clearW_idle, clearW_exited, clearW_parked, clearW_eq_exited, clearW_eq_parked, srW, lgW, clAllW, clPreW, St.bg, onOk, onErr, selNext, afterSetErr, srAllW, nextC, roSets] <;> (try omega) <;> (try (cases hk : s.ehTok <;> cases hk2 : s.cwl <;> simp_all [b2n_true, b2n_false] <;> omega))
+  | selTok _ i p q hi hq ht =>
+    clear h4
+    have l0 := le_tot srW _ _ _ hi
+    have l1 := le_tot lgW _ _ _ hi
+    have l2 := le_tot clAllW _ _ _ hi
+    have l3 := le_tot clPreW _ _ _ hi
+    cases p <;> simp only [selNext] at hq <;> (try contradiction) <;> cases hq <;> simp_all [tot_set_eq _ _ _ _ _ hi, tot_ackWs_srw', tot_ackWs_lgw, tot_ackWs_clall, tot_ackWs_clpre, b2n_true, b2n_false, clearW_idle, clearW_exited, clearW_parked, clearW_eq_exited, clearW_eq_parked, srW, lgW, clAllW, clPreW, St.bg, onOk, onErr, selNext, afterSetErr, srAllW, nextC, roSets] <;> (try omega) <;> (try (cases hk : s.ehTok <;> cases hk2 : s.cwl <;> simp_all [b2n_true, b2n_false] <;> omega))
+  | selPerErr _ i p q hi hq he =>
+    clear h4
+    have l0 := le_tot srW _ _ _ hi
+    have l1 := le_tot lgW _ _ _ hi
+    have l2 := le_tot clAllW _ _ _ hi
+    have l3 := le_tot clPreW _ _ _ hi
+    cases p <;> simp only [selNext] at hq <;> (try contradiction) <;> cases hq <;> simp_all [tot_set_eq _ _ _ _ _ hi, tot_ackWs_srw', tot_ackWs_lgw, tot_ackWs_clall, tot_ackWs_clpre, b2n_true, b2n_false, clearW_idle, clearW_exited, clearW_parked, clearW_eq_exited, clearW_eq_parked, srW, lgW, clAllW, clPreW, St.bg, onOk, onErr, selNext, afterSetErr, srAllW, nextC, roSets] <;> (try omega) <;> (try (cases hk : s.ehTok <;> cases hk2 : s.cwl <;> simp_all [b2n_true, b2n_false] <;> omega))
+  | selClosed _ i p q hi hq hc =>
+    clear h4
+    have l0 := le_tot srW _ _ _ hi
+    have l1 := le_tot lgW _ _ _ hi
+    have l2 := le_tot clAllW _ _ _ hi
+    have l3 := le_tot clPreW _ _ _ hi
+    cases p <;> simp only [selNext] at hq <;> (try contradiction) <;> cases hq <;> simp_all [tot_set_eq _ _ _ _ _ hi, tot_ackWs_srw', tot_ackWs_lgw, tot_ackWs_clall, tot_ackWs_clpre, b2n_true, b2n_false, clearW_idle, clearW_exited, clearW_parked, clearW_eq_exited, clearW_eq_parked, srW, lgW, clAllW, clPreW, St.bg, onOk, onErr, selNext, afterSetErr, srAllW, nextC, roSets] <;> (try omega) <;> (try (cases hk : s.ehTok <;> cases hk2 : s.cwl <;> simp_all [b2n_true, b2n_false] <;> omega))
+  | putNoWait _ i hi =>
+    clear h4
+    have l0 := le_tot srW _ _ _ hi
+    have l1 := le_tot lgW _ _ _ hi
+    have l2 := le_tot clAllW _ _ _ hi
+    have l3 := le_tot clPreW _ _ _ hi
+    (try simp only [St.setDone, St.setBg, ↓reduceIte, Bool.false_eq_true, Bool.and_false, Bool.and_true, Bool.false_and, Bool.true_and]) <;> (repeat' split) <;> simp_all [tot_set_eq _ _ _ _ _ hi, tot_ackWs_srw', tot_ackWs_lgw, tot_ackWs_clall, tot_ackWs_clpre, b2n_true, b2n_false, clearW_idle, clearW_exited, clearW_parked, clearW_eq_exited, clearW_eq_parked, srW, lgW, clAllW, clPreW, St.bg, onOk, onErr, selNext, afterSetErr, srAllW, nextC, roSets] <;> (try omega) <;> (try (cases hk : s.ehTok <;> cases hk2 : s.cwl <;> simp_all [b2n_true, b2n_false] <;> omega))
+  | putWait _ i b hi =>
+    clear h4
+    have l0 := le_tot srW _ _ _ hi
+    have l1 := le_tot lgW _ _ _ hi
+    have l2 := le_tot clAllW _ _ _ hi
+    have l3 := le_tot clPreW _ _ _ hi
+    cases b <;> (try simp only [St.setDone, St.setBg, ↓reduceIte, Bool.false_eq_true, Bool.and_false, Bool.and_true, Bool.false_and, Bool.true_and]) <;> (repeat' split) <;> simp_all [tot_set_eq _ _ _ _ _ hi, tot_ackWs_srw', tot_ackWs_lgw, tot_ackWs_clall, tot_ackWs_clpre, b2n_true, b2n_false, clearW_idle, clearW_exited, clearW_parked, clearW_eq_exited, clearW_eq_parked, srW, lgW, clAllW, clPreW, St.bg, onOk, onErr, selNext, afterSetErr, srAllW, nextC, roSets] <;> (try omega) <;> (try (cases hk : s.ehTok <;> cases hk2 : s.cwl <;> simp_all [b2n_true, b2n_false] <;> omega))
+  | putJournalOk _ i hi =>
+    clear h4
+    have l0 := le_tot srW _ _ _ hi
+    have l1 := le_tot lgW _ _ _ hi
+    have l2 := le_tot clAllW _ _ _ hi
+    have l3 := le_tot clPreW _ _ _ hi
+    (try simp only [St.setDone, St.setBg, ↓reduceIte, Bool.false_eq_true, Bool.and_false, Bool.and_true, Bool.false_and, Bool.true_and]) <;> (repeat' split) <;> simp_all [tot_set_eq _ _ _ _ _ hi, tot_ackWs_srw', tot_ackWs_lgw, tot_ackWs_clall, tot_ackWs_clpre, b2n_true, b2n_false, clearW_idle, clearW_exited, clearW_parked, clearW_eq_exited, clearW_eq_parked, srW, lgW, clAllW, clPreW, St.bg, onOk, onErr, selNext, afterSetErr, srAllW, nextC, roSets] <;> (try omega) <;> (try (cases hk : s.ehTok <;> cases hk2 : s.cwl <;> simp_all [b2n_true, b2n_false] <;> omega))
+  | putJournalFail _ i hi =>
+    clear h4
+    have l0 := le_tot srW _ _ _ hi
+    have l1 := le_tot lgW _ _ _ hi
+    have l2 := le_tot clAllW _ _ _ hi
+    have l3 := le_tot clPreW _ _ _ hi
+    (try simp only [St.setDone, St.setBg, ↓reduceIte, Bool.false_eq_true, Bool.and_false, Bool.and_true, Bool.false_and, Bool.true_and]) <;> (repeat' split) <;> simp_all [tot_set_eq _ _ _ _ _ hi, tot_ackWs_srw', tot_ackWs_lgw, tot_ackWs_clall, tot_ackWs_clpre, b2n_true, b2n_false, clearW_idle, clearW_exited, clearW_parked, clearW_eq_exited, clearW_eq_parked, srW, lgW, clAllW, clPreW, St.bg, onOk, onErr, selNext, afterSetErr, srAllW, nextC, roSets] <;> (try omega) <;> (try (cases hk : s.ehTok <;> cases hk2 : s.cwl <;> simp_all [b2n_true, b2n_false] <;> omega))
+  | putUnlock _ i r hi =>
+    clear h4
+    have l0 := le_tot srW _ _ _ hi
+    have l1 := le_tot lgW _ _ _ hi
+    have l2 := le_tot clAllW _ _ _ hi
+    have l3 := le_tot clPreW _ _ _ hi
+    cases r <;> (try simp only [St.setDone, St.setBg, ↓reduceIte, Bool.false_eq_true, Bool.and_false, Bool.and_true, Bool.false_and, Bool.true_and]) <;> (repeat' split) <;> simp_all [tot_set_eq _ _ _ _ _ hi, tot_ackWs_srw', tot_ackWs_lgw, tot_ackWs_clall, tot_ackWs_clpre, b2n_true, b2n_false, clearW_idle, clearW_exited, clearW_parked, clearW_eq_exited, clearW_eq_parked, srW, lgW, clAllW, clPreW, St.bg, onOk, onErr, selNext, afterSetErr, srAllW, nextC, roSets] <;> (try omega) <;> (try (cases hk : s.ehTok <;> cases hk2 : s.cwl <;> simp_all [b2n_true, b2n_false] <;> omega))
+  | cwSendGo _ i b site lg hi hb hro =>
+    clear h4
+    have l0 := le_tot srW _ _ _ hi
+    have l1 := le_tot lgW _ _ _ hi
+    have l2 := le_tot clAllW _ _ _ hi
+    have l3 := le_tot clPreW _ _ _ hi
+    cases site <;> cases b <;> cases lg <;> (try simp only [St.setDone, St.setBg, ↓reduceIte, Bool.false_eq_true, Bool.and_false, Bool.and_true, Bool.false_and, Bool.true_and]) <;> (repeat' split) <;> simp_all [tot_set_eq _ _ _ _ _ hi, tot_ackWs_srw', tot_ackWs_lgw, tot_ackWs_clall, tot_ackWs_clpre, b2n_true, b2n_false, clearW_idle, clearW_exited, clearW_parked, clearW_eq_exited, clearW_eq_parked, srW, lgW, clAllW, clPreW, St.bg, onOk, onErr, selNext, afterSetErr, srAllW, nextC, roSets] <;> (try omega) <;> (try (cases hk : s.ehTok <;> cases hk2 : s.cwl <;> simp_all [b2n_true, b2n_false] <;> omega))
+  | cwSendRO _ i site lg hi hb hp hro =>
+    clear h4
+    have l0 := le_tot srW _ _ _ hi
+    have l1 := le_tot lgW _ _ _ hi
+    have l2 := le_tot clAllW _ _ _ hi
+    have l3 := le_tot clPreW _ _ _ hi
+    cases site <;> cases lg <;> (try simp only [St.setDone, St.setBg, ↓reduceIte, Bool.false_eq_true, Bool.and_false, Bool.and_true, Bool.false_and, Bool.true_and]) <;> (repeat' split) <;> simp_all [tot_set_eq _ _ _ _ _ hi, tot_ackWs_srw', tot_ackWs_lgw, tot_ackWs_clall, tot_ackWs_clpre, b2n_true, b2n_false, clearW_idle, clearW_exited, clearW_parked, clearW_eq_exited, clearW_eq_parked, srW, lgW, clAllW, clPreW, St.bg, onOk, onErr, selNext, afterSetErr, srAllW, nextC, roSets] <;> (try omega) <;> (try (cases hk : s.ehTok <;> cases hk2 : s.cwl <;> simp_all [b2n_true, b2n_false] <;> omega))
+  | cwSendErr _ i b site lg hi he =>
+    clear h4
+    have l0 := le_tot srW _ _ _ hi
+    have l1 := le_tot lgW _ _ _ hi
+    have l2 := le_tot clAllW _ _ _ hi
+    have l3 := le_tot clPreW _ _ _ hi
+    cases site <;> cases b <;> cases lg <;> (try simp only [St.setDone, St.setBg, ↓reduceIte, Bool.false_eq_true, Bool.and_false, Bool.and_true, Bool.false_and, Bool.true_and]) <;> (repeat' split) <;> simp_all [tot_set_eq _ _ _ _ _ hi, tot_ackWs_srw', tot_ackWs_lgw, tot_ackWs_clall, tot_ackWs_clpre, b2n_true, b2n_false, clearW_idle, clearW_exited, clearW_parked, clearW_eq_exited, clearW_eq_parked, srW, lgW, clAllW, clPreW, St.bg, onOk, onErr, selNext, afterSetErr, srAllW, nextC, roSets] <;> (try omega) <;> (try (cases hk : s.ehTok <;> cases hk2 : s.cwl <;> simp_all [b2n_true, b2n_false] <;> omega))
+  | cwAckErr _ i b site lg hi he =>
+    clear h4
+    have l0 := le_tot srW _ _ _ hi
+    have l1 := le_tot lgW _ _ _ hi
+    have l2 := le_tot clAllW _ _ _ hi
+    have l3 := le_tot clPreW _ _ _ hi
+    cases site <;> cases b <;> cases lg <;> (try simp only [St.setDone, St.setBg, ↓reduceIte, Bool.false_eq_true, Bool.and_false, Bool.and_true, Bool.false_and, Bool.true_and]) <;> (repeat' split) <;> simp_all [tot_set_eq _ _ _ _ _ hi, tot_ackWs_srw', tot_ackWs_lgw, tot_ackWs_clall, tot_ackWs_clpre, b2n_true, b2n_false, clearW_idle, clearW_exited, clearW_parked, clearW_eq_exited, clearW_eq_parked, srW, lgW, clAllW, clPreW, St.bg, onOk, onErr, selNext, afterSetErr, srAllW, nextC, roSets] <;> (try omega) <;> (try (cases hk : s.ehTok <;> cases hk2 : s.cwl <;> simp_all [b2n_true, b2n_false] <;> omega))
+  | otxRotate _ i lg hi =>
+    clear h4
+    have l0 := le_tot srW _ _ _ hi
+    have l1 := le_tot lgW _ _ _ hi
+    have l2 := le_tot clAllW _ _ _ hi
+    have l3 := le_tot clPreW _ _ _ hi
+    cases lg <;> (try simp only [St.setDone, St.setBg, ↓reduceIte, Bool.false_eq_true, Bool.and_false, Bool.and_true, Bool.false_and, Bool.true_and]) <;> (repeat' split) <;> simp_all [tot_set_eq _ _ _ _ _ hi, tot_ackWs_srw', tot_ackWs_lgw, tot_ackWs_clall, tot_ackWs_clpre, b2n_true, b2n_false, clearW_idle, clearW_exited, clearW_parked, clearW_eq_exited, clearW_eq_parked, srW, lgW, clAllW, clPreW, St.bg, onOk, onErr, selNext, afterSetErr, srAllW, nextC, roSets] <;> (try omega) <;> (try (cases hk : s.ehTok <;> cases hk2 : s.cwl <;> simp_all [b2n_true, b2n_false] <;> omega))
+  | otxNoRotate _ i lg hi =>
+    clear h4
+    have l0 := le_tot srW _ _ _ hi
+    have l1 := le_tot lgW _ _ _ hi
+    have l2 := le_tot clAllW _ _ _ hi
+    have l3 := le_tot clPreW _ _ _ hi
+    cases lg <;> (try simp only [St.setDone, St.setBg, ↓reduceIte, Bool.false_eq_true, Bool.and_false, Bool.and_true, Bool.false_and, Bool.true_and]) <;> (repeat' split) <;> simp_all [tot_set_eq _ _ _ _ _ hi, tot_ackWs_srw', tot_ackWs_lgw, tot_ackWs_clall, tot_ackWs_clpre, b2n_true, b2n_false, clearW_idle, clearW_exited, clearW_parked, clearW_eq_exited, clearW_eq_parked, srW, lgW, clAllW, clPreW, St.bg, onOk, onErr, selNext, afterSetErr, srAllW, nextC, roSets] <;> (try omega) <;> (try (cases hk : s.ehTok <;> cases hk2 : s.cwl <;> simp_all [b2n_true, b2n_false] <;> omega))
+  | otxNewMemOk _ i lg hi =>
+    clear h4
+    have l0 := le_tot srW _ _ _ hi
+    have l1 := le_tot lgW _ _ _ hi
+    have l2 := le_tot clAllW _ _ _ hi
+    have l3 := le_tot clPreW _ _ _ hi
+    cases lg <;> (try simp only [St.setDone, St.setBg, ↓reduceIte, Bool.false_eq_true, Bool.and_false, Bool.and_true, Bool.false_and, Bool.true_and]) <;> (repeat' split) <;> simp_all [tot_set_eq _ _ _ _ _ hi, tot_ackWs_srw', tot_ackWs_lgw, tot_ackWs_clall, tot_ackWs_clpre, b2n_true, b2n_false, clearW_idle, clearW_exited, clearW_parked, clearW_eq_exited, clearW_eq_parked, srW, lgW, clAllW, clPreW, St.bg, onOk, onErr, selNext, afterSetErr, srAllW, nextC, roSets] <;> (try omega) <;> (try (cases hk : s.ehTok <;> cases hk2 : s.cwl <;> simp_all [b2n_true, b2n_false] <;> omega))
+  | otxNewMemFail _ i lg hi =>
+    clear h4
+    have l0 := le_tot srW _ _ _ hi
+    have l1 := le_tot lgW _ _ _ hi
+    have l2 := le_tot clAllW _ _ _ hi
+    have l3 := le_tot clPreW _ _ _ hi
+    cases lg <;> (try simp only [St.setDone, St.setBg, ↓reduceIte, Bool.false_eq_true, Bool.and_false, Bool.and_true, Bool.false_and, Bool.true_and]) <;> (repeat' split) <;> simp_all [tot_set_eq _ _ _ _ _ hi, tot_ackWs_srw', tot_ackWs_lgw, tot_ackWs_clall, tot_ackWs_clpre, b2n_true, b2n_false, clearW_idle, clearW_exited, clearW_parked, clearW_eq_exited, clearW_eq_parked, srW, lgW, clAllW, clPreW, St.bg, onOk, onErr, selNext, afterSetErr, srAllW, nextC, roSets] <;> (try omega) <;> (try (cases hk : s.ehTok <;> cases hk2 : s.cwl <;> simp_all [b2n_true, b2n_false] <;> omega))
+  | otxNoWaitComp _ i lg hi =>
+    clear h4
+    have l0 := le_tot srW _ _ _ hi
+    have l1 := le_tot lgW _ _ _ hi
+    have l2 := le_tot clAllW _ _ _ hi
+    have l3 := le_tot clPreW _ _ _ hi
+    cases lg <;> (try simp only [St.setDone, St.setBg, ↓reduceIte, Bool.false_eq_true, Bool.and_false, Bool.and_true, Bool.false_and, Bool.true_and]) <;> (repeat' split) <;> simp_all [tot_set_eq _ _ _ _ _ hi, tot_ackWs_srw', tot_ackWs_lgw, tot_ackWs_clall, tot_ackWs_clpre, b2n_true, b2n_false, clearW_idle, clearW_exited, clearW_parked, clearW_eq_exited, clearW_eq_parked, srW, lgW, clAllW, clPreW, St.bg, onOk, onErr, selNext, afterSetErr, srAllW, nextC, roSets] <;> (try omega) <;> (try (cases hk : s.ehTok <;> cases hk2 : s.cwl <;> simp_all [b2n_true, b2n_false] <;> omega))
+  | otxWaitComp _ i lg hi =>
+    clear h4
+    have l0 := le_tot srW _ _ _ hi
+    have l1 := le_tot lgW _ _ _ hi
+    have l2 := le_tot clAllW _ _ _ hi
+    have l3 := le_tot clPreW _ _ _ hi
+    cases lg <;> (try simp only [St.setDone, St.setBg, ↓reduceIte, Bool.false_eq_true, Bool.and_false, Bool.and_true, Bool.false_and, Bool.true_and]) <;> (repeat' split) <;> simp_all [tot_set_eq _ _ _ _ _ hi, tot_ackWs_srw', tot_ackWs_lgw, tot_ackWs_clall, tot_ackWs_clpre, b2n_true, b2n_false, clearW_idle, clearW_exited, clearW_parked, clearW_eq_exited, clearW_eq_parked, srW, lgW, clAllW, clPreW, St.bg, onOk, onErr, selNext, afterSetErr, srAllW, nextC, roSets] <;> (try omega) <;> (try (cases hk : s.ehTok <;> cases hk2 : s.cwl <;> simp_all [b2n_true, b2n_false] <;> omega))
+  | otxFail _ i lg hi =>
+    clear h4
+    have l0 := le_tot srW _ _ _ hi
+    have l1 := le_tot lgW _ _ _ hi
+    have l2 := le_tot clAllW _ _ _ hi
+    have l3 := le_tot clPreW _ _ _ hi
+    cases lg <;> (try simp only [St.setDone, St.setBg, ↓reduceIte, Bool.false_eq_true, Bool.and_false, Bool.and_true, Bool.false_and, Bool.true_and]) <;> (repeat' split) <;> simp_all [tot_set_eq _ _ _ _ _ hi, tot_ackWs_srw', tot_ackWs_lgw, tot_ackWs_clall, tot_ackWs_clpre, b2n_true, b2n_false, clearW_idle, clearW_exited, clearW_parked, clearW_eq_exited, clearW_eq_parked, srW, lgW, clAllW, clPreW, St.bg, onOk, onErr, selNext, afterSetErr, srAllW, nextC, roSets] <;> (try omega) <;> (try (cases hk : s.ehTok <;> cases hk2 : s.cwl <;> simp_all [b2n_true, b2n_false] <;> omega))
+  | otxRel _ i lg hi =>
+    clear h4
+    have l0 := le_tot srW _ _ _ hi
+    have l1 := le_tot lgW _ _ _ hi
+    have l2 := le_tot clAllW _ _ _ hi
+    have l3 := le_tot clPreW _ _ _ hi
+    cases lg <;> (try simp only [St.setDone, St.setBg, ↓reduceIte, Bool.false_eq_true, Bool.and_false, Bool.and_true, Bool.false_and, Bool.true_and]) <;> (repeat' split) <;> simp_all [tot_set_eq _ _ _ _ _ hi, tot_ackWs_srw', tot_ackWs_lgw, tot_ackWs_clall, tot_ackWs_clpre, b2n_true, b2n_false, clearW_idle, clearW_exited, clearW_parked, clearW_eq_exited, clearW_eq_parked, srW, lgW, clAllW, clPreW, St.bg, onOk, onErr, selNext, afterSetErr, srAllW, nextC, roSets] <;> (try omega) <;> (try (cases hk : s.ehTok <;> cases hk2 : s.cwl <;> simp_all [b2n_true, b2n_false] <;> omega))
+  | otxDone _ i lg hi =>
+    clear h4
+    have l0 := le_tot srW _ _ _ hi
+    have l1 := le_tot lgW _ _ _ hi
+    have l2 := le_tot clAllW _ _ _ hi
+    have l3 := le_tot clPreW _ _ _ hi
+    cases lg <;> (try simp only [St.setDone, St.setBg, ↓reduceIte, Bool.false_eq_true, Bool.and_false, Bool.and_true, Bool.false_and, Bool.true_and]) <;> (repeat' split) <;> simp_all [tot_set_eq _ _ _ _ _ hi, tot_ackWs_srw', tot_ackWs_lgw, tot_ackWs_clall, tot_ackWs_clpre, b2n_true, b2n_false, clearW_idle, clearW_exited, clearW_parked, clearW_eq_exited, clearW_eq_parked, srW, lgW, clAllW, clPreW, St.bg, onOk, onErr, selNext, afterSetErr, srAllW, nextC, roSets] <;> (try omega) <;> (try (cases hk : s.ehTok <;> cases hk2 : s.cwl <;> simp_all [b2n_true, b2n_false] <;> omega))
+  | lgWriteOk _ i hi =>
+    clear h4
+    have l0 := le_tot srW _ _ _ hi
+    have l1 := le_tot lgW _ _ _ hi
+    have l2 := le_tot clAllW _ _ _ hi
+    have l3 := le_tot clPreW _ _ _ hi
+    (try simp only [St.setDone, St.setBg, ↓reduceIte, Bool.false_eq_true, Bool.and_false, Bool.and_true, Bool.false_and, Bool.true_and]) <;> (repeat' split) <;> simp_all [tot_set_eq _ _ _ _ _ hi, tot_ackWs_srw', tot_ackWs_lgw, tot_ackWs_clall, tot_ackWs_clpre, b2n_true, b2n_false, clearW_idle, clearW_exited, clearW_parked, clearW_eq_exited, clearW_eq_parked, srW, lgW, clAllW, clPreW, St.bg, onOk, onErr, selNext, afterSetErr, srAllW, nextC, roSets] <;> (try omega) <;> (try (cases hk : s.ehTok <;> cases hk2 : s.cwl <;> simp_all [b2n_true, b2n_false] <;> omega))
+  | lgWriteFail _ i hi =>
+    clear h4
+    have l0 := le_tot srW _ _ _ hi
+    have l1 := le_tot lgW _ _ _ hi
+    have l2 := le_tot clAllW _ _ _ hi
+    have l3 := le_tot clPreW _ _ _ hi
+    (try simp only [St.setDone, St.setBg, ↓reduceIte, Bool.false_eq_true, Bool.and_false, Bool.and_true, Bool.false_and, Bool.true_and]) <;> (repeat' split) <;> simp_all [tot_set_eq _ _ _ _ _ hi, tot_ackWs_srw', tot_ackWs_lgw, tot_ackWs_clall, tot_ackWs_clpre, b2n_true, b2n_false, clearW_idle, clearW_exited, clearW_parked, clearW_eq_exited, clearW_eq_parked, srW, lgW, clAllW, clPreW, St.bg, onOk, onErr, selNext, afterSetErr, srAllW, nextC, roSets] <;> (try omega) <;> (try (cases hk : s.ehTok <;> cases hk2 : s.cwl <;> simp_all [b2n_true, b2n_false] <;> omega))
+  | cmLockTr _ i lg hi hl =>
+    clear h4
+    have l0 := le_tot srW _ _ _ hi
+    have l1 := le_tot lgW _ _ _ hi
+    have l2 := le_tot clAllW _ _ _ hi
+    have l3 := le_tot clPreW _ _ _ hi
+    cases lg <;> (try simp only [St.setDone, St.setBg, ↓reduceIte, Bool.false_eq_true, Bool.and_false, Bool.and_true, Bool.false_and, Bool.true_and]) <;> (repeat' split) <;> simp_all [tot_set_eq _ _ _ _ _ hi, tot_ackWs_srw', tot_ackWs_lgw, tot_ackWs_clall, tot_ackWs_clpre, b2n_true, b2n_false, clearW_idle, clearW_exited, clearW_parked, clearW_eq_exited, clearW_eq_parked, srW, lgW, clAllW, clPreW, St.bg, onOk, onErr, selNext, afterSetErr, srAllW, nextC, roSets] <;> (try omega) <;> (try (cases hk : s.ehTok <;> cases hk2 : s.cwl <;> simp_all [b2n_true, b2n_false] <;> omega))
+  | cmFlushOk _ i lg hi =>
+    clear h4
+    have l0 := le_tot srW _ _ _ hi
+    have l1 := le_tot lgW _ _ _ hi
+    have l2 := le_tot clAllW _ _ _ hi
+    have l3 := le_tot clPreW _ _ _ hi
+    cases lg <;> (try simp only [St.setDone, St.setBg, ↓reduceIte, Bool.false_eq_true, Bool.and_false, Bool.and_true, Bool.false_and, Bool.true_and]) <;> (repeat' split) <;> simp_all [tot_set_eq _ _ _ _ _ hi, tot_ackWs_srw', tot_ackWs_lgw, tot_ackWs_clall, tot_ackWs_clpre, b2n_true, b2n_false, clearW_idle, clearW_exited, clearW_parked, clearW_eq_exited, clearW_eq_parked, srW, lgW, clAllW, clPreW, St.bg, onOk, onErr, selNext, afterSetErr, srAllW, nextC, roSets] <;> (try omega) <;> (try (cases hk : s.ehTok <;> cases hk2 : s.cwl <;> simp_all [b2n_true, b2n_false] <;> omega))
+  | cmFlushEmpty _ i lg hi =>
+    clear h4
+    have l0 := le_tot srW _ _ _ hi
+    have l1 := le_tot lgW _ _ _ hi
+    have l2 := le_tot clAllW _ _ _ hi
+    have l3 := le_tot clPreW _ _ _ hi
+    cases lg <;> (try simp only [St.setDone, St.setBg, ↓reduceIte, Bool.false_eq_true, Bool.and_false, Bool.and_true, Bool.false_and, Bool.true_and]) <;> (repeat' split) <;> simp_all [tot_set_eq _ _ _ _ _ hi, tot_ackWs_srw', tot_ackWs_lgw, tot_ackWs_clall, tot_ackWs_clpre, b2n_true, b2n_false, clearW_idle, clearW_exited, clearW_parked, clearW_eq_exited, clearW_eq_parked, srW, lgW, clAllW, clPreW, St.bg, onOk, onErr, selNext, afterSetErr, srAllW, nextC, roSets] <;> (try omega) <;> (try (cases hk : s.ehTok <;> cases hk2 : s.cwl <;> simp_all [b2n_true, b2n_false] <;> omega))
+  | cmFlushFail _ i lg hi =>
+    clear h4
+    have l0 := le_tot srW _ _ _ hi
+    have l1 := le_tot lgW _ _ _ hi
+    have l2 := le_tot clAllW _ _ _ hi
+    have l3 := le_tot clPreW _ _ _ hi
+    cases lg <;> (try simp only [St.setDone, St.setBg, ↓reduceIte, Bool.false_eq_true, Bool.and_false, Bool.and_true, Bool.false_and, Bool.true_and]) <;> (repeat' split) <;> simp_all [tot_set_eq _ _ _ _ _ hi, tot_ackWs_srw', tot_ackWs_lgw, tot_ackWs_clall, tot_ackWs_clpre, b2n_true, b2n_false, clearW_idle, clearW_exited, clearW_parked, clearW_eq_exited, clearW_eq_parked, srW, lgW, clAllW, clPreW, St.bg, onOk, onErr, selNext, afterSetErr, srAllW, nextC, roSets] <;> (try omega) <;> (try (cases hk : s.ehTok <;> cases hk2 : s.cwl <;> simp_all [b2n_true, b2n_false] <;> omega))
+  | cmLockClk _ i lg hi hl =>
+    clear h4
+    have l0 := le_tot srW _ _ _ hi
+    have l1 := le_tot lgW _ _ _ hi
+    have l2 := le_tot clAllW _ _ _ hi
+    have l3 := le_tot clPreW _ _ _ hi
+    cases lg <;> (try simp only [St.setDone, St.setBg, ↓reduceIte, Bool.false_eq_true, Bool.and_false, Bool.and_true, Bool.false_and, Bool.true_and]) <;> (repeat' split) <;> simp_all [tot_set_eq _ _ _ _ _ hi, tot_ackWs_srw', tot_ackWs_lgw, tot_ackWs_clall, tot_ackWs_clpre, b2n_true, b2n_false, clearW_idle, clearW_exited, clearW_parked, clearW_eq_exited, clearW_eq_parked, srW, lgW, clAllW, clPreW, St.bg, onOk, onErr, selNext, afterSetErr, srAllW, nextC, roSets] <;> (try omega) <;> (try (cases hk : s.ehTok <;> cases hk2 : s.cwl <;> simp_all [b2n_true, b2n_false] <;> omega))
+  | cmTryOk _ i k lg hi =>
+    clear h4
+    have l0 := le_tot srW _ _ _ hi
+    have l1 := le_tot lgW _ _ _ hi
+    have l2 := le_tot clAllW _ _ _ hi
+    have l3 := le_tot clPreW _ _ _ hi
+    cases lg <;> (try simp only [St.setDone, St.setBg, ↓reduceIte, Bool.false_eq_true, Bool.and_false, Bool.and_true, Bool.false_and, Bool.true_and]) <;> (repeat' split) <;> simp_all [tot_set_eq _ _ _ _ _ hi, tot_ackWs_srw', tot_ackWs_lgw, tot_ackWs_clall, tot_ackWs_clpre, b2n_true, b2n_false, clearW_idle, clearW_exited, clearW_parked, clearW_eq_exited, clearW_eq_parked, srW, lgW, clAllW, clPreW, St.bg, onOk, onErr, selNext, afterSetErr, srAllW, nextC, roSets] <;> (try omega) <;> (try (cases hk : s.ehTok <;> cases hk2 : s.cwl <;> simp_all [b2n_true, b2n_false] <;> omega))
+  | cmTryFail _ i k lg hi =>
+    clear h4
+    have l0 := le_tot srW _ _ _ hi
+    have l1 := le_tot lgW _ _ _ hi
+    have l2 := le_tot clAllW _ _ _ hi
+    have l3 := le_tot clPreW _ _ _ hi
+    cases lg <;> (try simp only [St.setDone, St.setBg, ↓reduceIte, Bool.false_eq_true, Bool.and_false, Bool.and_true, Bool.false_and, Bool.true_and]) <;> (repeat' split) <;> simp_all [tot_set_eq _ _ _ _ _ hi, tot_ackWs_srw', tot_ackWs_lgw, tot_ackWs_clall, tot_ackWs_clpre, b2n_true, b2n_false, clearW_idle, clearW_exited, clearW_parked, clearW_eq_exited, clearW_eq_parked, srW, lgW, clAllW, clPreW, St.bg, onOk, onErr, selNext, afterSetErr, srAllW, nextC, roSets] <;> (try omega) <;> (try (cases hk : s.ehTok <;> cases hk2 : s.cwl <;> simp_all [b2n_true, b2n_false] <;> omega))
+  | cmSleepTimer _ i k lg hi =>
+    clear h4
+    have l0 := le_tot srW _ _ _ hi
+    have l1 := le_tot lgW _ _ _ hi
+    have l2 := le_tot clAllW _ _ _ hi
+    have l3 := le_tot clPreW _ _ _ hi
+    cases lg <;> (try simp only [St.setDone, St.setBg, ↓reduceIte, Bool.false_eq_true, Bool.and_false, Bool.and_true, Bool.false_and, Bool.true_and]) <;> (repeat' split) <;> simp_all [tot_set_eq _ _ _ _ _ hi, tot_ackWs_srw', tot_ackWs_lgw, tot_ackWs_clall, tot_ackWs_clpre, b2n_true, b2n_false, clearW_idle, clearW_exited, clearW_parked, clearW_eq_exited, clearW_eq_parked, srW, lgW, clAllW, clPreW, St.bg, onOk, onErr, selNext, afterSetErr, srAllW, nextC, roSets] <;> (try omega) <;> (try (cases hk : s.ehTok <;> cases hk2 : s.cwl <;> simp_all [b2n_true, b2n_false] <;> omega))
+  | cmSleepClosed _ i k lg hi hc =>
+    clear h4
+    have l0 := le_tot srW _ _ _ hi
+    have l1 := le_tot lgW _ _ _ hi
+    have l2 := le_tot clAllW _ _ _ hi
+    have l3 := le_tot clPreW _ _ _ hi
+    cases lg <;> (try simp only [St.setDone, St.setBg, ↓reduceIte, Bool.false_eq_true, Bool.and_false, Bool.and_true, Bool.false_and, Bool.true_and]) <;> (repeat' split) <;> simp_all [tot_set_eq _ _ _ _ _ hi, tot_ackWs_srw', tot_ackWs_lgw, tot_ackWs_clall, tot_ackWs_clpre, b2n_true, b2n_false, clearW_idle, clearW_exited, clearW_parked, clearW_eq_exited, clearW_eq_parked, srW, lgW, clAllW, clPreW, St.bg, onOk, onErr, selNext, afterSetErr, srAllW, nextC, roSets] <;> (try omega) <;> (try (cases hk : s.ehTok <;> cases hk2 : s.cwl <;> simp_all [b2n_true, b2n_false] <;> omega))
+  | cmFail3 _ i lg hi =>
+    clear h4
+    have l0 := le_tot srW _ _ _ hi
+    have l1 := le_tot lgW _ _ _ hi
+    have l2 := le_tot clAllW _ _ _ hi
+    have l3 := le_tot clPreW _ _ _ hi
+    cases lg <;> (try simp only [St.setDone, St.setBg, ↓reduceIte, Bool.false_eq_true, Bool.and_false, Bool.and_true, Bool.false_and, Bool.true_and]) <;> (repeat' split) <;> simp_all [tot_set_eq _ _ _ _ _ hi, tot_ackWs_srw', tot_ackWs_lgw, tot_ackWs_clall, tot_ackWs_clpre, b2n_true, b2n_false, clearW_idle, clearW_exited, clearW_parked, clearW_eq_exited, clearW_eq_parked, srW, lgW, clAllW, clPreW, St.bg, onOk, onErr, selNext, afterSetErr, srAllW, nextC, roSets] <;> (try omega) <;> (try (cases hk : s.ehTok <;> cases hk2 : s.cwl <;> simp_all [b2n_true, b2n_false] <;> omega))
+  | cmAfterOk _ i lg hi =>
+    clear h4
+    have l0 := le_tot srW _ _ _ hi
+    have l1 := le_tot lgW _ _ _ hi
+    have l2 := le_tot clAllW _ _ _ hi
+    have l3 := le_tot clPreW _ _ _ hi
+    cases lg <;> (try simp only [St.setDone, St.setBg, ↓reduceIte, Bool.false_eq_true, Bool.and_false, Bool.and_true, Bool.false_and, Bool.true_and]) <;> (repeat' split) <;> simp_all [tot_set_eq _ _ _ _ _ hi, tot_ackWs_srw', tot_ackWs_lgw, tot_ackWs_clall, tot_ackWs_clpre, b2n_true, b2n_false, clearW_idle, clearW_exited, clearW_parked, clearW_eq_exited, clearW_eq_parked, srW, lgW, clAllW, clPreW, St.bg, onOk, onErr, selNext, afterSetErr, srAllW, nextC, roSets] <;> (try omega) <;> (try (cases hk : s.ehTok <;> cases hk2 : s.cwl <;> simp_all [b2n_true, b2n_false] <;> omega))
+  | cmNoWaitComp _ i lg hi =>
+    clear h4
+    have l0 := le_tot srW _ _ _ hi
+    have l1 := le_tot lgW _ _ _ hi
+    have l2 := le_tot clAllW _ _ _ hi
+    have l3 := le_tot clPreW _ _ _ hi
+    cases lg <;> (try simp only [St.setDone, St.setBg, ↓reduceIte, Bool.false_eq_true, Bool.and_false, Bool.and_true, Bool.false_and, Bool.true_and]) <;> (repeat' split) <;> simp_all [tot_set_eq _ _ _ _ _ hi, tot_ackWs_srw', tot_ackWs_lgw, tot_ackWs_clall, tot_ackWs_clpre, b2n_true, b2n_false, clearW_idle, clearW_exited, clearW_parked, clearW_eq_exited, clearW_eq_parked, srW, lgW, clAllW, clPreW, St.bg, onOk, onErr, selNext, afterSetErr, srAllW, nextC, roSets] <;> (try omega) <;> (try (cases hk : s.ehTok <;> cases hk2 : s.cwl <;> simp_all [b2n_true, b2n_false] <;> omega))
+  | cmWaitComp _ i lg hi =>
+    clear h4
+    have l0 := le_tot srW _ _ _ hi
+    have l1 := le_tot lgW _ _ _ hi
+    have l2 := le_tot clAllW _ _ _ hi
+    have l3 := le_tot clPreW _ _ _ hi
+    cases lg <;> (try simp only [St.setDone, St.setBg, ↓reduceIte, Bool.false_eq_true, Bool.and_false, Bool.and_true, Bool.false_and, Bool.true_and]) <;> (repeat' split) <;> simp_all [tot_set_eq _ _ _ _ _ hi, tot_ackWs_srw', tot_ackWs_lgw, tot_ackWs_clall, tot_ackWs_clpre, b2n_true, b2n_false, clearW_idle, clearW_exited, clearW_parked, clearW_eq_exited, clearW_eq_parked, srW, lgW, clAllW, clPreW, St.bg, onOk, onErr, selNext, afterSetErr, srAllW, nextC, roSets] <;> (try omega) <;> (try (cases hk : s.ehTok <;> cases hk2 : s.cwl <;> simp_all [b2n_true, b2n_false] <;> omega))
+  | cmDone _ i lg hi =>
+    clear h4
+    have l0 := le_tot srW _ _ _ hi
+    have l1 := le_tot lgW _ _ _ hi
+    have l2 := le_tot clAllW _ _ _ hi
+    have l3 := le_tot clPreW _ _ _ hi
+    cases lg <;> (try simp only [St.setDone, St.setBg, ↓reduceIte, Bool.false_eq_true, Bool.and_false, Bool.and_true, Bool.false_and, Bool.true_and]) <;> (repeat' split) <;> simp_all [tot_set_eq _ _ _ _ _ hi, tot_ackWs_srw', tot_ackWs_lgw, tot_ackWs_clall, tot_ackWs_clpre, b2n_true, b2n_false, clearW_idle, clearW_exited, clearW_parked, clearW_eq_exited, clearW_eq_parked, srW, lgW, clAllW, clPreW, St.bg, onOk, onErr, selNext, afterSetErr, srAllW, nextC, roSets] <;> (try omega) <;> (try (cases hk : s.ehTok <;> cases hk2 : s.cwl <;> simp_all [b2n_true, b2n_false] <;> omega))
+  | cmRet _ i ok lg hi =>
+    clear h4
+    have l0 := le_tot srW _ _ _ hi
+    have l1 := le_tot lgW _ _ _ hi
+    have l2 := le_tot clAllW _ _ _ hi
+    have l3 := le_tot clPreW _ _ _ hi
+    cases ok <;> cases lg <;> (try simp only [St.setDone, St.setBg, ↓reduceIte, Bool.false_eq_true, Bool.and_false, Bool.and_true, Bool.false_and, Bool.true_and]) <;> (repeat' split) <;> simp_all [tot_set_eq _ _ _ _ _ hi, tot_ackWs_srw', tot_ackWs_lgw, tot_ackWs_clall, tot_ackWs_clpre, b2n_true, b2n_false, clearW_idle, clearW_exited, clearW_parked, clearW_eq_exited, clearW_eq_parked, srW, lgW, clAllW, clPreW, St.bg, onOk, onErr, selNext, afterSetErr, srAllW, nextC, roSets] <;> (try omega) <;> (try (cases hk : s.ehTok <;> cases hk2 : s.cwl <;> simp_all [b2n_true, b2n_false] <;> omega))
+  | dcLockTr _ i lg hi hl =>
+    clear h4
+    have l0 := le_tot srW _ _ _ hi
+    have l1 := le_tot lgW _ _ _ hi
+    have l2 := le_tot clAllW _ _ _ hi
+    have l3 := le_tot clPreW _ _ _ hi
+    cases lg <;> (try simp only [St.setDone, St.setBg, ↓reduceIte, Bool.false_eq_true, Bool.and_false, Bool.and_true, Bool.false_and, Bool.true_and]) <;> (repeat' split) <;> simp_all [tot_set_eq _ _ _ _ _ hi, tot_ackWs_srw', tot_ackWs_lgw, tot_ackWs_clall, tot_ackWs_clpre, b2n_true, b2n_false, clearW_idle, clearW_exited, clearW_parked, clearW_eq_exited, clearW_eq_parked, srW, lgW, clAllW, clPreW, St.bg, onOk, onErr, selNext, afterSetErr, srAllW, nextC, roSets] <;> (try omega) <;> (try (cases hk : s.ehTok <;> cases hk2 : s.cwl <;> simp_all [b2n_true, b2n_false] <;> omega))
+  | dcBody _ i lg hi =>
+    clear h4
+    have l0 := le_tot srW _ _ _ hi
+    have l1 := le_tot lgW _ _ _ hi
+    have l2 := le_tot clAllW _ _ _ hi
+    have l3 := le_tot clPreW _ _ _ hi
+    cases lg <;> (try simp only [St.setDone, St.setBg, ↓reduceIte, Bool.false_eq_true, Bool.and_false, Bool.and_true, Bool.false_and, Bool.true_and]) <;> (repeat' split) <;> simp_all [tot_set_eq _ _ _ _ _ hi, tot_ackWs_srw', tot_ackWs_lgw, tot_ackWs_clall, tot_ackWs_clpre, b2n_true, b2n_false, clearW_idle, clearW_exited, clearW_parked, clearW_eq_exited, clearW_eq_parked, srW, lgW, clAllW, clPreW, St.bg, onOk, onErr, selNext, afterSetErr, srAllW, nextC, roSets] <;> (try omega) <;> (try (cases hk : s.ehTok <;> cases hk2 : s.cwl <;> simp_all [b2n_true, b2n_false] <;> omega))
+  | crNoOverlap _ i hi =>
+    clear h4
+    have l0 := le_tot srW _ _ _ hi
+    have l1 := le_tot lgW _ _ _ hi
+    have l2 := le_tot clAllW _ _ _ hi
+    have l3 := le_tot clPreW _ _ _ hi
+    (try simp only [St.setDone, St.setBg, ↓reduceIte, Bool.false_eq_true, Bool.and_false, Bool.and_true, Bool.false_and, Bool.true_and]) <;> (repeat' split) <;> simp_all [tot_set_eq _ _ _ _ _ hi, tot_ackWs_srw', tot_ackWs_lgw, tot_ackWs_clall, tot_ackWs_clpre, b2n_true, b2n_false, clearW_idle, clearW_exited, clearW_parked, clearW_eq_exited, clearW_eq_parked, srW, lgW, clAllW, clPreW, St.bg, onOk, onErr, selNext, afterSetErr, srAllW, nextC, roSets] <;> (try omega) <;> (try (cases hk : s.ehTok <;> cases hk2 : s.cwl <;> simp_all [b2n_true, b2n_false] <;> omega))
+  | crOverlap _ i hi =>
+    clear h4
+    have l0 := le_tot srW _ _ _ hi
+    have l1 := le_tot lgW _ _ _ hi
+    have l2 := le_tot clAllW _ _ _ hi
+    have l3 := le_tot clPreW _ _ _ hi
+    (try simp only [St.setDone, St.setBg, ↓reduceIte, Bool.false_eq_true, Bool.and_false, Bool.and_true, Bool.false_and, Bool.true_and]) <;> (repeat' split) <;> simp_all [tot_set_eq _ _ _ _ _ hi, tot_ackWs_srw', tot_ackWs_lgw, tot_ackWs_clall, tot_ackWs_clpre, b2n_true, b2n_false, clearW_idle, clearW_exited, clearW_parked, clearW_eq_exited, clearW_eq_parked, srW, lgW, clAllW, clPreW, St.bg, onOk, onErr, selNext, afterSetErr, srAllW, nextC, roSets] <;> (try omega) <;> (try (cases hk : s.ehTok <;> cases hk2 : s.cwl <;> simp_all [b2n_true, b2n_false] <;> omega))
+  | crNewMemOk _ i hi =>
+    clear h4
+    have l0 := le_tot srW _ _ _ hi
+    have l1 := le_tot lgW _ _ _ hi
+    have l2 := le_tot clAllW _ _ _ hi
+    have l3 := le_tot clPreW _ _ _ hi
+    (try simp only [St.setDone, St.setBg, ↓reduceIte, Bool.false_eq_true, Bool.and_false, Bool.and_true, Bool.false_and, Bool.true_and]) <;> (repeat' split) <;> simp_all [tot_set_eq _ _ _ _ _ hi, tot_ackWs_srw', tot_ackWs_lgw, tot_ackWs_clall, tot_ackWs_clpre, b2n_true, b2n_false, clearW_idle, clearW_exited, clearW_parked, clearW_eq_exited, clearW_eq_parked, srW, lgW, clAllW, clPreW, St.bg, onOk, onErr, selNext, afterSetErr, srAllW, nextC, roSets] <;> (try omega) <;> (try (cases hk : s.ehTok <;> cases hk2 : s.cwl <;> simp_all [b2n_true, b2n_false] <;> omega))
+  | crNewMemFail _ i hi =>
+    clear h4
+    have l0 := le_tot srW _ _ _ hi
+    have l1 := le_tot lgW _ _ _ hi
+    have l2 := le_tot clAllW _ _ _ hi
+    have l3 := le_tot clPreW _ _ _ hi
+    (try simp only [St.setDone, St.setBg, ↓reduceIte, Bool.false_eq_true, Bool.and_false, Bool.and_true, Bool.false_and, Bool.true_and]) <;> (repeat' split) <;> simp_all [tot_set_eq _ _ _ _ _ hi, tot_ackWs_srw', tot_ackWs_lgw, tot_ackWs_clall, tot_ackWs_clpre, b2n_true, b2n_false, clearW_idle, clearW_exited, clearW_parked, clearW_eq_exited, clearW_eq_parked, srW, lgW, clAllW, clPreW, St.bg, onOk, onErr, selNext, afterSetErr, srAllW, nextC, roSets] <;> (try omega) <;> (try (cases hk : s.ehTok <;> cases hk2 : s.cwl <;> simp_all [b2n_true, b2n_false] <;> omega))
+  | crRelM _ i hi =>
+    clear h4
+    have l0 := le_tot srW _ _ _ hi
+    have l1 := le_tot lgW _ _ _ hi
+    have l2 := le_tot clAllW _ _ _ hi
+    have l3 := le_tot clPreW _ _ _ hi
+    (try simp only [St.setDone, St.setBg, ↓reduceIte, Bool.false_eq_true, Bool.and_false, Bool.and_true, Bool.false_and, Bool.true_and]) <;> (repeat' split) <;> simp_all [tot_set_eq _ _ _ _ _ hi, tot_ackWs_srw', tot_ackWs_lgw, tot_ackWs_clall, tot_ackWs_clpre, b2n_true, b2n_false, clearW_idle, clearW_exited, clearW_parked, clearW_eq_exited, clearW_eq_parked, srW, lgW, clAllW, clPreW, St.bg, onOk, onErr, selNext, afterSetErr, srAllW, nextC, roSets] <;> (try omega) <;> (try (cases hk : s.ehTok <;> cases hk2 : s.cwl <;> simp_all [b2n_true, b2n_false] <;> omega))
+  | crRelOk _ i hi =>
+    clear h4
+    have l0 := le_tot srW _ _ _ hi
+    have l1 := le_tot lgW _ _ _ hi
+    have l2 := le_tot clAllW _ _ _ hi
+    have l3 := le_tot clPreW _ _ _ hi
+    (try simp only [St.setDone, St.setBg, ↓reduceIte, Bool.false_eq_true, Bool.and_false, Bool.and_true, Bool.false_and, Bool.true_and]) <;> (repeat' split) <;> simp_all [tot_set_eq _ _ _ _ _ hi, tot_ackWs_srw', tot_ackWs_lgw, tot_ackWs_clall, tot_ackWs_clpre, b2n_true, b2n_false, clearW_idle, clearW_exited, clearW_parked, clearW_eq_exited, clearW_eq_parked, srW, lgW, clAllW, clPreW, St.bg, onOk, onErr, selNext, afterSetErr, srAllW, nextC, roSets] <;> (try omega) <;> (try (cases hk : s.ehTok <;> cases hk2 : s.cwl <;> simp_all [b2n_true, b2n_false] <;> omega))
+  | crRelFail _ i hi =>
+    clear h4
+    have l0 := le_tot srW _ _ _ hi
+    have l1 := le_tot lgW _ _ _ hi
+    have l2 := le_tot clAllW _ _ _ hi
+    have l3 := le_tot clPreW _ _ _ hi
+    (try simp only [St.setDone, St.setBg, ↓reduceIte, Bool.false_eq_true, Bool.and_false, Bool.and_true, Bool.false_and, Bool.true_and]) <;> (repeat' split) <;> simp_all [tot_set_eq _ _ _ _ _ hi, tot_ackWs_srw', tot_ackWs_lgw, tot_ackWs_clall, tot_ackWs_clpre, b2n_true, b2n_false, clearW_idle, clearW_exited, clearW_parked, clearW_eq_exited, clearW_eq_parked, srW, lgW, clAllW, clPreW, St.bg, onOk, onErr, selNext, afterSetErr, srAllW, nextC, roSets] <;> (try omega) <;> (try (cases hk : s.ehTok <;> cases hk2 : s.cwl <;> simp_all [b2n_true, b2n_false] <;> omega))
+  | srSend _ i hi he =>
+    clear h4
+    have l0 := le_tot srW _ _ _ hi
+    have l1 := le_tot lgW _ _ _ hi
+    have l2 := le_tot clAllW _ _ _ hi
+    have l3 := le_tot clPreW _ _ _ hi
+    simp only [hm, recvs_asCoded] at he
+    rcases he with he | he <;> (try simp only [St.setDone, St.setBg, ↓reduceIte, Bool.false_eq_true, Bool.and_false, Bool.and_true, Bool.false_and, Bool.true_and]) <;> (repeat' split) <;> simp_all [tot_set_eq _ _ _ _ _ hi, tot_ackWs_srw', tot_ackWs_lgw, tot_ackWs_clall, tot_ackWs_clpre, b2n_true, b2n_false, clearW_idle, clearW_exited, clearW_parked, clearW_eq_exited, clearW_eq_parked, srW, lgW, clAllW, clPreW, St.bg, onOk, onErr, selNext, afterSetErr, srAllW, nextC, roSets] <;> (try omega) <;> (try (cases hk : s.ehTok <;> cases hk2 : s.cwl <;> simp_all [b2n_true, b2n_false] <;> omega))
+  | srPerErr _ i hi he =>
+    clear h4
+    have l0 := le_tot srW _ _ _ hi
+    have l1 := le_tot lgW _ _ _ hi
+    have l2 := le_tot clAllW _ _ _ hi
+    have l3 := le_tot clPreW _ _ _ hi
+    (try simp only [St.setDone, St.setBg, ↓reduceIte, Bool.false_eq_true, Bool.and_false, Bool.and_true, Bool.false_and, Bool.true_and]) <;> (repeat' split) <;> simp_all [tot_set_eq _ _ _ _ _ hi, tot_ackWs_srw', tot_ackWs_lgw, tot_ackWs_clall, tot_ackWs_clpre, b2n_true, b2n_false, clearW_idle, clearW_exited, clearW_parked, clearW_eq_exited, clearW_eq_parked, srW, lgW, clAllW, clPreW, St.bg, onOk, onErr, selNext, afterSetErr, srAllW, nextC, roSets] <;> (try omega) <;> (try (cases hk : s.ehTok <;> cases hk2 : s.cwl <;> simp_all [b2n_true, b2n_false] <;> omega))
+  | srClosed _ i hi hc =>
+    have l0 := le_tot srW _ _ _ hi
+    have l1 := le_tot lgW _ _ _ hi
+    have l2 := le_tot clAllW _ _ _ hi
+    have l3 := le_tot clPreW _ _ _ hi
+    have ls := le_tot srAllW _ _ _ hi
+    rcases h4 with h4 | ⟨_, h4⟩ <;> (try simp only [St.setDone, St.setBg, ↓reduceIte, Bool.false_eq_true, Bool.and_false, Bool.and_true, Bool.false_and, Bool.true_and]) <;> (repeat' split) <;> simp_all [tot_set_eq _ _ _ _ _ hi, tot_ackWs_srw', tot_ackWs_lgw, tot_ackWs_clall, tot_ackWs_clpre, b2n_true, b2n_false, clearW_idle, clearW_exited, clearW_parked, clearW_eq_exited, clearW_eq_parked, srW, lgW, clAllW, clPreW, St.bg, onOk, onErr, selNext, afterSetErr, srAllW, nextC, roSets] <;> (try omega) <;> (try (cases hk : s.ehTok <;> cases hk2 : s.cwl <;> simp_all [b2n_true, b2n_false] <;> omega))
+  | clCheckTr _ i hi =>
+    clear h4
+    have l0 := le_tot srW _ _ _ hi
+    have l1 := le_tot lgW _ _ _ hi
+    have l2 := le_tot clAllW _ _ _ hi
+    have l3 := le_tot clPreW _ _ _ hi
+    (try simp only [St.setDone, St.setBg, ↓reduceIte, Bool.false_eq_true, Bool.and_false, Bool.and_true, Bool.false_and, Bool.true_and]) <;> (repeat' split) <;> simp_all [tot_set_eq _ _ _ _ _ hi, tot_ackWs_srw', tot_ackWs_lgw, tot_ackWs_clall, tot_ackWs_clpre, b2n_true, b2n_false, clearW_idle, clearW_exited, clearW_parked, clearW_eq_exited, clearW_eq_parked, srW, lgW, clAllW, clPreW, St.bg, onOk, onErr, selNext, afterSetErr, srAllW, nextC, roSets] <;> (try omega) <;> (try (cases hk : s.ehTok <;> cases hk2 : s.cwl <;> simp_all [b2n_true, b2n_false] <;> omega))
+  | clLockTr _ i hi hl =>
+    clear h4
+    have l0 := le_tot srW _ _ _ hi
+    have l1 := le_tot lgW _ _ _ hi
+    have l2 := le_tot clAllW _ _ _ hi
+    have l3 := le_tot clPreW _ _ _ hi
+    (try simp only [St.setDone, St.setBg, ↓reduceIte, Bool.false_eq_true, Bool.and_false, Bool.and_true, Bool.false_and, Bool.true_and]) <;> (repeat' split) <;> simp_all [tot_set_eq _ _ _ _ _ hi, tot_ackWs_srw', tot_ackWs_lgw, tot_ackWs_clall, tot_ackWs_clpre, b2n_true, b2n_false, clearW_idle, clearW_exited, clearW_parked, clearW_eq_exited, clearW_eq_parked, srW, lgW, clAllW, clPreW, St.bg, onOk, onErr, selNext, afterSetErr, srAllW, nextC, roSets] <;> (try omega) <;> (try (cases hk : s.ehTok <;> cases hk2 : s.cwl <;> simp_all [b2n_true, b2n_false] <;> omega))
+  | clBody _ i hi =>
+    clear h4
+    have l0 := le_tot srW _ _ _ hi
+    have l1 := le_tot lgW _ _ _ hi
+    have l2 := le_tot clAllW _ _ _ hi
+    have l3 := le_tot clPreW _ _ _ hi
+    (try simp only [St.setDone, St.setBg, ↓reduceIte, Bool.false_eq_true, Bool.and_false, Bool.and_true, Bool.false_and, Bool.true_and]) <;> (repeat' split) <;> simp_all [tot_set_eq _ _ _ _ _ hi, tot_ackWs_srw', tot_ackWs_lgw, tot_ackWs_clall, tot_ackWs_clpre, b2n_true, b2n_false, clearW_idle, clearW_exited, clearW_parked, clearW_eq_exited, clearW_eq_parked, srW, lgW, clAllW, clPreW, St.bg, onOk, onErr, selNext, afterSetErr, srAllW, nextC, roSets] <;> (try omega) <;> (try (cases hk : s.ehTok <;> cases hk2 : s.cwl <;> simp_all [b2n_true, b2n_false] <;> omega))
+  | clAcq _ i hi ht =>
+    clear h4
+    have l0 := le_tot srW _ _ _ hi
+    have l1 := le_tot lgW _ _ _ hi
+    have l2 := le_tot clAllW _ _ _ hi
+    have l3 := le_tot clPreW _ _ _ hi
+    (try simp only [St.setDone, St.setBg, ↓reduceIte, Bool.false_eq_true, Bool.and_false, Bool.and_true, Bool.false_and, Bool.true_and]) <;> (repeat' split) <;> simp_all [tot_set_eq _ _ _ _ _ hi, tot_ackWs_srw', tot_ackWs_lgw, tot_ackWs_clall, tot_ackWs_clpre, b2n_true, b2n_false, clearW_idle, clearW_exited, clearW_parked, clearW_eq_exited, clearW_eq_parked, srW, lgW, clAllW, clPreW, St.bg, onOk, onErr, selNext, afterSetErr, srAllW, nextC, roSets] <;> (try omega) <;> (try (cases hk : s.ehTok <;> cases hk2 : s.cwl <;> simp_all [b2n_true, b2n_false] <;> omega))
+  | clWait _ i hi hm ht =>
+    clear h4
+    have l0 := le_tot srW _ _ _ hi
+    have l1 := le_tot lgW _ _ _ hi
+    have l2 := le_tot clAllW _ _ _ hi
+    have l3 := le_tot clPreW _ _ _ hi
+    (try simp only [St.setDone, St.setBg, ↓reduceIte, Bool.false_eq_true, Bool.and_false, Bool.and_true, Bool.false_and, Bool.true_and]) <;> (repeat' split) <;> simp_all [tot_set_eq _ _ _ _ _ hi, tot_ackWs_srw', tot_ackWs_lgw, tot_ackWs_clall, tot_ackWs_clpre, b2n_true, b2n_false, clearW_idle, clearW_exited, clearW_parked, clearW_eq_exited, clearW_eq_parked, srW, lgW, clAllW, clPreW, St.bg, onOk, onErr, selNext, afterSetErr, srAllW, nextC, roSets] <;> (try omega) <;> (try (cases hk : s.ehTok <;> cases hk2 : s.cwl <;> simp_all [b2n_true, b2n_false] <;> omega))
+  | ehAcquire _ he ht =>
+    clear h4
+    (try simp only [St.setDone, St.setBg, ↓reduceIte, Bool.false_eq_true, Bool.and_false, Bool.and_true, Bool.false_and, Bool.true_and]) <;> (repeat' split) <;> simp_all [tot_ackWs_srw', tot_ackWs_lgw, tot_ackWs_clall, tot_ackWs_clpre, b2n_true, b2n_false, clearW_idle, clearW_exited, clearW_parked, clearW_eq_exited, clearW_eq_parked, srW, lgW, clAllW, clPreW, St.bg, onOk, onErr, selNext, afterSetErr, srAllW, nextC, roSets] <;> (try omega) <;> (try (cases hk : s.ehTok <;> cases hk2 : s.cwl <;> simp_all [b2n_true, b2n_false] <;> omega))
+  | ehClose _ he hc =>
+    clear h4
+    simp only [hm, closes_asCoded] at he
+    rcases he with he | he | he <;> (try simp only [St.setDone, St.setBg, ↓reduceIte, Bool.false_eq_true, Bool.and_false, Bool.and_true, Bool.false_and, Bool.true_and]) <;> (repeat' split) <;> simp_all [tot_ackWs_srw', tot_ackWs_lgw, tot_ackWs_clall, tot_ackWs_clpre, b2n_true, b2n_false, clearW_idle, clearW_exited, clearW_parked, clearW_eq_exited, clearW_eq_parked, srW, lgW, clAllW, clPreW, St.bg, onOk, onErr, selNext, afterSetErr, srAllW, nextC, roSets] <;> (try omega) <;> (try (split <;> cases hk : s.ehTok <;> simp_all [b2n_true, b2n_false] <;> omega))
+  | ehTake _ he ht =>
+    clear h4
+    (try simp only [St.setDone, St.setBg, ↓reduceIte, Bool.false_eq_true, Bool.and_false, Bool.and_true, Bool.false_and, Bool.true_and]) <;> (repeat' split) <;> simp_all [tot_ackWs_srw', tot_ackWs_lgw, tot_ackWs_clall, tot_ackWs_clpre, b2n_true, b2n_false, clearW_idle, clearW_exited, clearW_parked, clearW_eq_exited, clearW_eq_parked, srW, lgW, clAllW, clPreW, St.bg, onOk, onErr, selNext, afterSetErr, srAllW, nextC, roSets] <;> (try omega) <;> (try (cases hk : s.ehTok <;> cases hk2 : s.cwl <;> simp_all [b2n_true, b2n_false] <;> omega))
+  | bgExitIdle _ b hb hc =>
+    clear h4
+    cases b <;> (try simp only [St.setDone, St.setBg, ↓reduceIte, Bool.false_eq_true, Bool.and_false, Bool.and_true, Bool.false_and, Bool.true_and]) <;> (repeat' split) <;> simp_all [tot_ackWs_srw', tot_ackWs_lgw, tot_ackWs_clall, tot_ackWs_clpre, b2n_true, b2n_false, clearW_idle, clearW_exited, clearW_parked, clearW_eq_exited, clearW_eq_parked, srW, lgW, clAllW, clPreW, St.bg, onOk, onErr, selNext, afterSetErr, srAllW, nextC, roSets] <;> (try omega) <;> (try (cases hk : s.ehTok <;> cases hk2 : s.cwl <;> simp_all [b2n_true, b2n_false] <;> omega))
+  | bgExitParked _ hb hc =>
+    clear h4
+    (try simp only [St.setDone, St.setBg, ↓reduceIte, Bool.false_eq_true, Bool.and_false, Bool.and_true, Bool.false_and, Bool.true_and]) <;> (repeat' split) <;> simp_all [tot_ackWs_srw', tot_ackWs_lgw, tot_ackWs_clall, tot_ackWs_clpre, b2n_true, b2n_false, clearW_idle, clearW_exited, clearW_parked, clearW_eq_exited, clearW_eq_parked, srW, lgW, clAllW, clPreW, St.bg, onOk, onErr, selNext, afterSetErr, srAllW, nextC, roSets] <;> (try omega) <;> (try (cases hk : s.ehTok <;> cases hk2 : s.cwl <;> simp_all [b2n_true, b2n_false] <;> omega))
+  | bgWorkCorrupt _ b w hb hk =>
+    clear h4
+    cases b <;> (try simp only [St.setDone, St.setBg, ↓reduceIte, Bool.false_eq_true, Bool.and_false, Bool.and_true, Bool.false_and, Bool.true_and]) <;> (repeat' split) <;> simp_all [tot_ackWs_srw', tot_ackWs_lgw, tot_ackWs_clall, tot_ackWs_clpre, b2n_true, b2n_false, clearW_idle, clearW_exited, clearW_parked, clearW_eq_exited, clearW_eq_parked, srW, lgW, clAllW, clPreW, St.bg, onOk, onErr, selNext, afterSetErr, srAllW, nextC, roSets] <;> (try omega) <;> (try (cases hk : s.ehTok <;> cases hk2 : s.cwl <;> simp_all [b2n_true, b2n_false] <;> omega))
+  | bgCommitCorrupt _ b w hb hk =>
+    clear h4
+    cases b <;> (try simp only [St.setDone, St.setBg, ↓reduceIte, Bool.false_eq_true, Bool.and_false, Bool.and_true, Bool.false_and, Bool.true_and]) <;> (repeat' split) <;> simp_all [tot_ackWs_srw', tot_ackWs_lgw, tot_ackWs_clall, tot_ackWs_clpre, b2n_true, b2n_false, clearW_idle, clearW_exited, clearW_parked, clearW_eq_exited, clearW_eq_parked, srW, lgW, clAllW, clPreW, St.bg, onOk, onErr, selNext, afterSetErr, srAllW, nextC, roSets] <;> (try omega) <;> (try (cases hk : s.ehTok <;> cases hk2 : s.cwl <;> simp_all [b2n_true, b2n_false] <;> omega))
+  | bgSetErrCorrupt _ b w c hb he =>
+    clear h4
+    simp only [hm, recvs_asCoded] at he
+    rcases he with he | he <;> cases b <;> cases c <;> (try simp only [St.setDone, St.setBg, ↓reduceIte, Bool.false_eq_true, Bool.and_false, Bool.and_true, Bool.false_and, Bool.true_and]) <;> (repeat' split) <;> simp_all [tot_ackWs_srw', tot_ackWs_lgw, tot_ackWs_clall, tot_ackWs_clpre, b2n_true, b2n_false, clearW_idle, clearW_exited, clearW_parked, clearW_eq_exited, clearW_eq_parked, srW, lgW, clAllW, clPreW, St.bg, onOk, onErr, selNext, afterSetErr, srAllW, nextC, roSets] <;> (try omega) <;> (try (cases hk : s.ehTok <;> cases hk2 : s.cwl <;> simp_all [b2n_true, b2n_false] <;> omega))
+  | bgWorkOk _ b w hb =>
+    clear h4
+    cases b <;> (try simp only [St.setDone, St.setBg, ↓reduceIte, Bool.false_eq_true, Bool.and_false, Bool.and_true, Bool.false_and, Bool.true_and]) <;> (repeat' split) <;> simp_all [tot_ackWs_srw', tot_ackWs_lgw, tot_ackWs_clall, tot_ackWs_clpre, b2n_true, b2n_false, clearW_idle, clearW_exited, clearW_parked, clearW_eq_exited, clearW_eq_parked, srW, lgW, clAllW, clPreW, St.bg, onOk, onErr, selNext, afterSetErr, srAllW, nextC, roSets] <;> (try omega) <;> (try (cases hk : s.ehTok <;> cases hk2 : s.cwl <;> simp_all [b2n_true, b2n_false] <;> omega))
+  | bgWorkFail _ b w hb =>
+    clear h4
+    cases b <;> (try simp only [St.setDone, St.setBg, ↓reduceIte, Bool.false_eq_true, Bool.and_false, Bool.and_true, Bool.false_and, Bool.true_and]) <;> (repeat' split) <;> simp_all [tot_ackWs_srw', tot_ackWs_lgw, tot_ackWs_clall, tot_ackWs_clpre, b2n_true, b2n_false, clearW_idle, clearW_exited, clearW_parked, clearW_eq_exited, clearW_eq_parked, srW, lgW, clAllW, clPreW, St.bg, onOk, onErr, selNext, afterSetErr, srAllW, nextC, roSets] <;> (try omega) <;> (try (cases hk : s.ehTok <;> cases hk2 : s.cwl <;> simp_all [b2n_true, b2n_false] <;> omega))
+  | bgCommitOk _ b w hb =>
+    clear h4
+    cases b <;> (try simp only [St.setDone, St.setBg, ↓reduceIte, Bool.false_eq_true, Bool.and_false, Bool.and_true, Bool.false_and, Bool.true_and]) <;> (repeat' split) <;> simp_all [tot_ackWs_srw', tot_ackWs_lgw, tot_ackWs_clall, tot_ackWs_clpre, b2n_true, b2n_false, clearW_idle, clearW_exited, clearW_parked, clearW_eq_exited, clearW_eq_parked, srW, lgW, clAllW, clPreW, St.bg, onOk, onErr, selNext, afterSetErr, srAllW, nextC, roSets] <;> (try omega) <;> (try (cases hk : s.ehTok <;> cases hk2 : s.cwl <;> simp_all [b2n_true, b2n_false] <;> omega))
+  | bgCommitFail _ b w hb =>
+    clear h4
+    cases b <;> (try simp only [St.setDone, St.setBg, ↓reduceIte, Bool.false_eq_true, Bool.and_false, Bool.and_true, Bool.false_and, Bool.true_and]) <;> (repeat' split) <;> simp_all [tot_ackWs_srw', tot_ackWs_lgw, tot_ackWs_clall, tot_ackWs_clpre, b2n_true, b2n_false, clearW_idle, clearW_exited, clearW_parked, clearW_eq_exited, clearW_eq_parked, srW, lgW, clAllW, clPreW, St.bg, onOk, onErr, selNext, afterSetErr, srAllW, nextC, roSets] <;> (try omega) <;> (try (cases hk : s.ehTok <;> cases hk2 : s.cwl <;> simp_all [b2n_true, b2n_false] <;> omega))
+  | bgSetErr _ b w ok c hb he =>
+    clear h4
+    simp only [hm, recvs_asCoded] at he
+    rcases he with he | he <;> cases b <;> cases ok <;> cases c <;> (try simp only [St.setDone, St.setBg, ↓reduceIte, Bool.false_eq_true, Bool.and_false, Bool.and_true, Bool.false_and, Bool.true_and]) <;> (repeat' split) <;> simp_all [tot_ackWs_srw', tot_ackWs_lgw, tot_ackWs_clall, tot_ackWs_clpre, b2n_true, b2n_false, clearW_idle, clearW_exited, clearW_parked, clearW_eq_exited, clearW_eq_parked, srW, lgW, clAllW, clPreW, St.bg, onOk, onErr, selNext, afterSetErr, srAllW, nextC, roSets] <;> (try omega) <;> (try (cases hk : s.ehTok <;> cases hk2 : s.cwl <;> simp_all [b2n_true, b2n_false] <;> omega))
+  | bgSetErrPer _ b w c hb he =>
+    clear h4
+    cases b <;> cases c <;> (try simp only [St.setDone, St.setBg, ↓reduceIte, Bool.false_eq_true, Bool.and_false, Bool.and_true, Bool.false_and, Bool.true_and]) <;> (repeat' split) <;> simp_all [tot_ackWs_srw', tot_ackWs_lgw, tot_ackWs_clall, tot_ackWs_clpre, b2n_true, b2n_false, clearW_idle, clearW_exited, clearW_parked, clearW_eq_exited, clearW_eq_parked, srW, lgW, clAllW, clPreW, St.bg, onOk, onErr, selNext, afterSetErr, srAllW, nextC, roSets] <;> (try omega) <;> (try (cases hk : s.ehTok <;> cases hk2 : s.cwl <;> simp_all [b2n_true, b2n_false] <;> omega))
+  | bgBackoff _ b w c hb =>
+    clear h4
+    cases b <;> cases c <;> (try simp only [St.setDone, St.setBg, ↓reduceIte, Bool.false_eq_true, Bool.and_false, Bool.and_true, Bool.false_and, Bool.true_and]) <;> (repeat' split) <;> simp_all [tot_ackWs_srw', tot_ackWs_lgw, tot_ackWs_clall, tot_ackWs_clpre, b2n_true, b2n_false, clearW_idle, clearW_exited, clearW_parked, clearW_eq_exited, clearW_eq_parked, srW, lgW, clAllW, clPreW, St.bg, onOk, onErr, selNext, afterSetErr, srAllW, nextC, roSets] <;> (try omega) <;> (try (cases hk : s.ehTok <;> cases hk2 : s.cwl <;> simp_all [b2n_true, b2n_false] <;> omega))
+  | bgLockClk _ b w hb hl =>
+    clear h4
+    cases b <;> (try simp only [St.setDone, St.setBg, ↓reduceIte, Bool.false_eq_true, Bool.and_false, Bool.and_true, Bool.false_and, Bool.true_and]) <;> (repeat' split) <;> simp_all [tot_ackWs_srw', tot_ackWs_lgw, tot_ackWs_clall, tot_ackWs_clpre, b2n_true, b2n_false, clearW_idle, clearW_exited, clearW_parked, clearW_eq_exited, clearW_eq_parked, srW, lgW, clAllW, clPreW, St.bg, onOk, onErr, selNext, afterSetErr, srAllW, nextC, roSets] <;> (try omega) <;> (try (cases hk : s.ehTok <;> cases hk2 : s.cwl <;> simp_all [b2n_true, b2n_false] <;> omega))
+  | bgAck _ b w hb =>
+    clear h4
+    have hp := afterCmd_parked cfg s b
+    rcases afterCmd_cases cfg s b with hac | hac <;> rw [hac] at hp ⊢ <;> cases b <;> (try simp only [St.setDone, St.setBg]) <;> simp_all [tot_ackWs_srw', tot_ackWs_lgw, tot_ackWs_clall, tot_ackWs_clpre, b2n_true, b2n_false, clearW_idle, clearW_exited, clearW_parked, clearW_eq_exited, clearW_eq_parked, srW, lgW, clAllW, clPreW, St.bg, onOk, onErr, selNext, afterSetErr, srAllW, nextC, roSets] <;> (try omega) <;> (try (cases hk : s.ehTok <;> cases hk2 : s.cwl <;> simp_all [b2n_true, b2n_false] <;> omega))
+  | bgExit _ b w ph hb hx =>
+    clear h4
+    cases b <;> cases ph <;> (try simp only [St.setDone, St.setBg, ↓reduceIte, Bool.false_eq_true, Bool.and_false, Bool.and_true, Bool.false_and, Bool.true_and]) <;> (repeat' split) <;> simp_all [tot_ackWs_srw', tot_ackWs_lgw, tot_ackWs_clall, tot_ackWs_clpre, b2n_true, b2n_false, clearW_idle, clearW_exited, clearW_parked, clearW_eq_exited, clearW_eq_parked, srW, lgW, clAllW, clPreW, St.bg, onOk, onErr, selNext, afterSetErr, srAllW, nextC, roSets] <;> (try omega) <;> (try (rcases hx with hx | hx <;> simp_all))
+
+theorem step_pinvB (s t : St) (f : Bool) (cfg : Cfg) (hfx : Fixed3 cfg) (hm : cfg.m = .asCoded)
+    (h4 : cfg.setReadOnlyReleasesOnClose = true ∨ NoSR s) (hsh : cfg.Shape) (hw : CwlOk cfg s) (h : Step cfg f s t)
+    (inv : PInvB s) : PInvB t :=
+  hsh.elim (fun hh => step_pinvB_h s t f cfg hfx hm h4 hh hw h inv) (fun hb => step_pinvB_b s t f cfg hfx hm h4 hb hw h inv)
 
 end GoLevel.Locks
